@@ -540,6 +540,30 @@ Section ControllerOf.
   Qed.
 End ControllerOf.
 
+Section LocalLoopComplete.
+  Variable force : bool.
+  Let c : cfg := {| c_flavor := FObjectSet; c_force := force |}.
+
+  (** Every phase of the local loop completed. *)
+  Lemma rp_all_ok ow prev phs : forall w acc w' evs ctrlof,
+    reconcile_phases force w ow prev phs acc = (w', evs, PROk ctrlof None) ->
+    NoDup (flat_map (phase_keys ow) phs) -> forall q, In q phs -> phase_ok w' ow q.
+  Proof.
+    induction phs as [|ph rest IH]; intros w acc w' evs ctrlof H Hnd q Hq; [contradiction|].
+    rewrite rp_cons in H. cbv zeta in H.
+    destruct (reconcile_phase _ idw w ow prev (ph_class ph) (ph_objects ph)) as [[w1 e1] r1] eqn:E1.
+    cbn in Hnd. pose proof (NoDup_app_r _ _ Hnd) as Hnd_rest. pose proof (NoDup_app_l _ _ Hnd) as Hnd0.
+    destruct r1 as [e|vs|actual failed]; [discriminate|discriminate|].
+    destruct failed as [|f fs]; [|discriminate].
+    destruct (reconcile_phases force w1 ow prev rest _) as [[w2 e2] r2] eqn:E2. injection H as <- _ ->.
+    destruct Hq as [<-|Hq]; [|eapply IH; eauto].
+    unfold reconcile_phase in E1. destruct (flat_map _ (ph_objects ph)); [|discriminate].
+    destruct (rec_objs_ok_present force ow prev _ _ _ _ _ _ _ E1 Hnd0) as [_ Hall].
+    intros p Hp. destruct (Hall p Hp) as (o & Ho & Hpr). exists o. split; [|assumption]. rewrite <- Ho.
+    eapply rp_frame; eauto. eapply NoDup_app_disj; [exact Hnd|]. unfold phase_keys. now apply in_map.
+  Qed.
+End LocalLoopComplete.
+
 (** * Status derivation (C06) *)
 Section Status.
   Lemma ctype_eqb_spec a b : ctype_eqb a b = true <-> a = b.
@@ -579,20 +603,24 @@ Section Status.
     destruct (ctype_eqb (cd_type x) t) eqn:E; cbn; [exact IH|]. now rewrite E.
   Qed.
 
-  Lemma paused_cond_other m t : t <> CPaused -> find_cond (paused_cond m) t = find_cond (os_conds m) t.
+  Lemma paused_cond_other phs m t : t <> CPaused -> find_cond (paused_cond phs m) t = find_cond (os_conds m) t.
   Proof.
-    intros Hne. unfold paused_cond. destruct (lifecycle_eqb (os_life m) LPaused).
+    intros Hne. unfold paused_cond.
+    destruct (match os_remotes m with [] => _ | _ => _ end) as [pp unknown].
+    destruct (unknown || _ || _).
     - apply find_set_cond_other. cbn. congruence.
-    - apply find_remove_cond_other. congruence.
+    - destruct (lifecycle_eqb (os_life m) LPaused).
+      + apply find_set_cond_other. cbn. congruence.
+      + apply find_remove_cond_other. congruence.
   Qed.
 
   (** Available in the computed status: True exactly when no phase failed, always for the generation of
       the object the pass read. *)
-  Lemma final_status_available m ctrlof failed :
-    exists cd, find_cond (os_conds (final_status m ctrlof failed)) CAvailable = Some cd /\
+  Lemma final_status_available phs m ctrlof failed :
+    exists cd, find_cond (os_conds (final_status phs m ctrlof failed)) CAvailable = Some cd /\
       cd_gen cd = os_gen m /\
       (cd_status cd = STrue <-> failed = None) /\
-      os_ctrlof (final_status m ctrlof failed) = ctrlof.
+      os_ctrlof (final_status phs m ctrlof failed) = ctrlof.
   Proof.
     unfold final_status. cbn [os_conds set_conds os_ctrlof].
     rewrite paused_cond_other by discriminate. cbn [os_conds set_conds].
@@ -609,9 +637,9 @@ Section Status.
 
   (** Succeeded is never withdrawn by the status computation, and is newly set only while Available and
       not in transition. *)
-  Lemma final_status_succeeded m ctrlof failed :
-    (cond_true (os_conds m) CSucceeded = true -> cond_true (os_conds (final_status m ctrlof failed)) CSucceeded = true) /\
-    (cond_true (os_conds m) CSucceeded = false -> cond_true (os_conds (final_status m ctrlof failed)) CSucceeded = true ->
+  Lemma final_status_succeeded phs m ctrlof failed :
+    (cond_true (os_conds m) CSucceeded = true -> cond_true (os_conds (final_status phs m ctrlof failed)) CSucceeded = true) /\
+    (cond_true (os_conds m) CSucceeded = false -> cond_true (os_conds (final_status phs m ctrlof failed)) CSucceeded = true ->
        failed = None /\ in_transition (set_ctrlof m ctrlof) ctrlof = false).
   Proof.
     unfold final_status, cond_true. cbn [os_conds set_conds].
@@ -632,13 +660,37 @@ Section Status.
         split; [auto|]. intros H1 H2. rewrite H1 in H2. discriminate.
   Qed.
 
-  Lemma fold_remove_all_empty ctrlof : forall all,
-    fold_left (fun acc c => remove_all_key c acc) ctrlof all = [] -> forall k, In k all -> In k ctrlof.
+  (** A controllerOf list covers a spec key if it names it, or names it without a namespace (references that
+      come from the ObjectSetPhase API for cluster-scoped objects; isObjectSetInTransition 337-352). *)
+  Definition covers (ctrlof : list okey) (k : okey) : Prop :=
+    In k ctrlof \/ exists c, In c ctrlof /\ k_ns c = 0 /\ k_gk c = k_gk k /\ k_name c = k_name k.
+
+  Lemma remove_first_gkname_in c l k :
+    In k l -> In k (remove_first_gkname c l) \/ (k_gk k = k_gk c /\ k_name k = k_name c).
+  Proof.
+    induction l as [|x xs IH]; intros Hin; [contradiction|]. cbn.
+    destruct ((k_gk x =? k_gk c) && (k_name x =? k_name c)) eqn:E.
+    - destruct Hin as [<-|Hin]; [|now left]. right. apply andb_true_iff in E. destruct E as [E1 E2].
+      apply N.eqb_eq in E1, E2. auto.
+    - destruct Hin as [<-|Hin]; [left; now left|]. destruct (IH Hin) as [H|H]; [left; now right|now right].
+  Qed.
+
+  Lemma fold_remove_ctrl_empty ctrlof : forall all,
+    fold_left remove_ctrl ctrlof all = [] -> forall k, In k all -> covers ctrlof k.
   Proof.
     induction ctrlof as [|c cs IH]; intros all H k Hk; cbn in H.
     - subst all. contradiction.
-    - destruct (okey_dec k c) as [->|Hne]; [now left|]. right. apply (IH _ H).
-      unfold remove_all_key. apply filter_In. split; [assumption|]. apply negb_true_iff. now apply okey_eqb_neq.
+    - assert (Hweak : covers cs k -> covers (c :: cs) k).
+      { intros [Hc|(c0 & Hc0 & rest)]; [left; now right|right; exists c0; split; [now right|exact rest]]. }
+      destruct (okey_dec k c) as [->|Hne]; [left; now left|].
+      unfold remove_ctrl in H. destruct (existsb (okey_eqb c) all).
+      + apply Hweak. apply (IH _ H). unfold remove_all_key. apply filter_In. split; [assumption|].
+        apply negb_true_iff. now apply okey_eqb_neq.
+      + destruct (k_ns c =? 0) eqn:Ens.
+        * destruct (remove_first_gkname_in c all k Hk) as [Hin|[Hg Hn]].
+          -- apply Hweak. now apply (IH _ H).
+          -- right. exists c. split; [now left|]. apply N.eqb_eq in Ens. auto.
+        * apply Hweak. now apply (IH _ H).
   Qed.
 
   Lemma dedup_keys_in l k : In k l -> In k (dedup_keys l).
@@ -650,20 +702,20 @@ Section Status.
     - destruct Hin as [<-|Hin]; [now left|right; now apply IH].
   Qed.
 
-  (** InTransition is cleared only if every object of the spec is in the reported controllerOf. *)
+  (** InTransition is cleared only if every object of the spec is covered by the reported controllerOf. *)
   Lemma not_in_transition_all_controlled m ctrlof :
     in_transition m ctrlof = false -> os_life m <> LArchived ->
-    forall p, In p (all_objects m) -> In (spec_key m p) ctrlof.
+    forall p, In p (all_objects m) -> covers ctrlof (spec_key m p).
   Proof.
     unfold in_transition. intros H Hl p Hp.
     destruct (lifecycle_eqb (os_life m) LArchived) eqn:E; [destruct (os_life m); try discriminate; congruence|].
     apply negb_false_iff in H. unfold is_nil in H.
     destruct (fold_left _ ctrlof _) eqn:Ef; [|discriminate].
-    eapply fold_remove_all_empty; eauto. apply dedup_keys_in. now apply in_map.
+    eapply fold_remove_ctrl_empty; eauto. apply dedup_keys_in. now apply in_map.
   Qed.
 
-  Lemma final_status_in_transition m ctrlof failed :
-    find_cond (os_conds (final_status m ctrlof failed)) CInTransition = None ->
+  Lemma final_status_in_transition phs m ctrlof failed :
+    find_cond (os_conds (final_status phs m ctrlof failed)) CInTransition = None ->
     in_transition (set_ctrlof m ctrlof) ctrlof = false.
   Proof.
     unfold final_status. cbn [os_conds set_conds]. rewrite paused_cond_other by discriminate. cbn [os_conds set_conds].
@@ -679,12 +731,75 @@ Section Status.
   Qed.
 End Status.
 
-(** * Inversion of one active pass *)
-Section PassInversion.
+(** * Phase lists that mix local and delegated phases
+    The loops of the controller ([reconcile_phases_m], [teardown_phases_m]) dispatch on the phase's class.
+    A delegated phase touches no member object; its gate is the relay. *)
+Section PhaseObjects.
+  Lemma oid_eqb_refl a : oid_eqb a a = true.
+  Proof. unfold oid_eqb. now rewrite !N.eqb_refl. Qed.
+
+  Definition pkey_eq (p : osphase) (kind ns name : N) : bool :=
+    (oi_kind (op_id p) =? kind) && (oi_ns (op_id p) =? ns) && (oi_name (op_id p) =? name).
+
+  Lemma find_put_phase_same phs p :
+    find_phase (put_phase phs p) (oi_kind (op_id p)) (oi_ns (op_id p)) (oi_name (op_id p)) = Some p.
+  Proof.
+    unfold find_phase. induction phs as [|x xs IH]; cbn.
+    - now rewrite !N.eqb_refl.
+    - unfold oid_eqb.
+      destruct ((oi_kind (op_id x) =? oi_kind (op_id p)) && (oi_ns (op_id x) =? oi_ns (op_id p)) && (oi_name (op_id x) =? oi_name (op_id p))) eqn:E.
+      + cbn. now rewrite !N.eqb_refl.
+      + cbn. rewrite E. exact IH.
+  Qed.
+
+  Lemma find_put_phase_other phs p kind ns name :
+    pkey_eq p kind ns name = false ->
+    find_phase (put_phase phs p) kind ns name = find_phase phs kind ns name.
+  Proof.
+    unfold find_phase, pkey_eq. intros Hne. induction phs as [|x xs IH]; cbn.
+    - now rewrite Hne.
+    - unfold oid_eqb.
+      destruct ((oi_kind (op_id x) =? oi_kind (op_id p)) && (oi_ns (op_id x) =? oi_ns (op_id p)) && (oi_name (op_id x) =? oi_name (op_id p))) eqn:E.
+      + cbn. rewrite Hne.
+        apply andb_true_iff in E. destruct E as [E E3]. apply andb_true_iff in E. destruct E as [E1 E2].
+        apply N.eqb_eq in E1, E2, E3. rewrite E1, E2, E3, Hne. reflexivity.
+      + cbn. destruct ((oi_kind (op_id x) =? kind) && (oi_ns (op_id x) =? ns) && (oi_name (op_id x) =? name)); [reflexivity|exact IH].
+  Qed.
+
+  Lemma find_del_phase_same phs id : find_phase (del_phase phs id) (oi_kind id) (oi_ns id) (oi_name id) = None.
+  Proof.
+    unfold find_phase, del_phase. induction phs as [|x xs IH]; cbn; [reflexivity|].
+    unfold oid_eqb. destruct ((oi_kind (op_id x) =? oi_kind id) && (oi_ns (op_id x) =? oi_ns id) && (oi_name (op_id x) =? oi_name id)) eqn:E; cbn.
+    - exact IH.
+    - rewrite E. exact IH.
+  Qed.
+
+  Lemma find_del_phase_other phs id kind ns name :
+    (oi_kind id =? kind) && (oi_ns id =? ns) && (oi_name id =? name) = false ->
+    find_phase (del_phase phs id) kind ns name = find_phase phs kind ns name.
+  Proof.
+    unfold find_phase, del_phase. intros Hne. induction phs as [|x xs IH]; cbn; [reflexivity|].
+    unfold oid_eqb. destruct ((oi_kind (op_id x) =? oi_kind id) && (oi_ns (op_id x) =? oi_ns id) && (oi_name (op_id x) =? oi_name id)) eqn:E; cbn.
+    - apply andb_true_iff in E. destruct E as [E E3]. apply andb_true_iff in E. destruct E as [E1 E2].
+      apply N.eqb_eq in E1, E2, E3. rewrite E1, E2, E3, Hne. exact IH.
+    - destruct ((oi_kind (op_id x) =? kind) && (oi_ns (op_id x) =? ns) && (oi_name (op_id x) =? name)); [reflexivity|exact IH].
+  Qed.
+
+  Lemma find_phase_key phs kind ns name p : find_phase phs kind ns name = Some p ->
+    oi_kind (op_id p) = kind /\ oi_ns (op_id p) = ns /\ oi_name (op_id p) = name.
+  Proof.
+    unfold find_phase. intros H. apply find_some in H. destruct H as [_ H].
+    apply andb_true_iff in H. destruct H as [H H3]. apply andb_true_iff in H. destruct H as [H1 H2].
+    apply N.eqb_eq in H1, H2, H3. auto.
+  Qed.
+End PhaseObjects.
+
+Section Mixed.
   Variable force : bool.
+  Let c : cfg := {| c_flavor := FObjectSet; c_force := force |}.
 
   Definition member_evs (evs : list sev) : list ev :=
-    flat_map (fun e => match e with SMember x => [x] | SMeta _ => [] end) evs.
+    flat_map (fun e => match e with SMember x => [x] | _ => [] end) evs.
 
   Lemma member_evs_app a b : member_evs (a ++ b) = member_evs a ++ member_evs b.
   Proof. unfold member_evs. now rewrite flat_map_app. Qed.
@@ -694,21 +809,947 @@ Section PassInversion.
 
   Definition is_local (ph : phase) : bool := negb (ph_class ph).
   Definition local_phases (s : oset) : list phase := filter is_local (os_phases s).
+  Definition delegated_phases (s : oset) : list phase := filter ph_class (os_phases s).
+
+  (** The phase object of a delegated phase. *)
+  Definition pobj_name (s : oset) (ph : phase) : N := join_name (oi_name (os_id s)) (ph_name ph).
+  Definition phase_obj_of (sw : sworld) (s : oset) (ph : phase) : option osphase :=
+    find_phase (sw_phases sw) (phase_kind s) (oi_ns (os_id s)) (pobj_name s ph).
+
+  (** Available=True computed for the phase object's current generation. *)
+  Definition avail_current (cur : osphase) : Prop :=
+    exists cd, find_cond (op_conds cur) CAvailable = Some cd /\ cd_status cd = STrue /\ cd_gen cd = op_gen cur.
+
+  Lemma cstatus_eqb_true x : cstatus_eqb x STrue = true -> x = STrue.
+  Proof. destruct x; cbn; congruence. Qed.
+
+  Lemma relay_ok cur active : relay cur = RROk active false -> avail_current cur /\ active = op_ctrlof cur.
+  Proof.
+    unfold relay, avail_current. destruct (find_cond (op_conds cur) CAvailable) as [cd|]; [|discriminate].
+    destruct (Z.eqb (cd_gen cd) (op_gen cur)) eqn:Eg; cbn [negb]; [|discriminate].
+    destruct (cstatus_eqb (cd_status cd) STrue) eqn:Es; [|discriminate].
+    intros H. injection H as <-. split; [|reflexivity]. exists cd. apply Z.eqb_eq in Eg. apply cstatus_eqb_true in Es. auto.
+  Qed.
+
+  Lemma relay_active cur active failed : relay cur = RROk active failed -> active = op_ctrlof cur.
+  Proof.
+    unfold relay. destruct (find_cond (op_conds cur) CAvailable) as [cd|]; [|now intros H; injection H as <- _].
+    destruct (negb _); [now intros H; injection H as <- _|]. destruct (cstatus_eqb _ _); now intros H; injection H as <- _.
+  Qed.
+
+  Lemma relay_not_err cur : relay cur <> RRErr.
+  Proof.
+    unfold relay. destruct (find_cond (op_conds cur) CAvailable) as [cd|]; [|discriminate].
+    destruct (negb _); [discriminate|]. destruct (cstatus_eqb _ _); discriminate.
+  Qed.
+
+  (** ** remotePhase.Reconcile: no member object is touched; only the phase's own phase object is. *)
+  Definition is_write_on (n : N) (e : sev) : Prop :=
+    match e with
+    | SPhase (PCreate m _) | SPhase (PPause m _ _) | SPhase (PDelete m _) | SPhase (PStrip m _) => m = n
+    | _ => False
+    end.
+  Definition only_phase_evs (n : N) (evs : list sev) : Prop :=
+    Forall (fun e => match e with SPhase (PGet m _) | SPhase (PCreate m _) | SPhase (PPause m _ _)
+                                | SPhase (PDelete m _) | SPhase (PStrip m _) => m = n | _ => False end) evs.
+
+  Lemma only_phase_members n evs : only_phase_evs n evs -> member_evs evs = [].
+  Proof.
+    induction evs as [|e evs IH]; intros H; [reflexivity|]. inversion H as [|? ? He Hr]; subst.
+    destruct e as [x|m|p]; [contradiction|contradiction|]. cbn. now apply IH.
+  Qed.
+
+  Lemma remote_reconcile_inv sw s ph rem sw1 e1 rem1 r :
+    remote_reconcile sw s ph rem = (sw1, e1, rem1, r) ->
+    w_store (sw_w sw1) = w_store (sw_w sw) /\ sw_sets sw1 = sw_sets sw /\ sw_nss sw1 = sw_nss sw /\
+    only_phase_evs (pobj_name s ph) e1 /\
+    (forall kind ns name, (phase_kind s =? kind) && (oi_ns (os_id s) =? ns) && (pobj_name s ph =? name) = false ->
+       find_phase (sw_phases sw1) kind ns name = find_phase (sw_phases sw) kind ns name) /\
+    match r with
+    | RRErr => True
+    | RROk active failed =>
+        exists cur, phase_obj_of sw1 s ph = Some cur /\ relay cur = RROk active failed /\
+          (In (SPhase (PGet (pobj_name s ph) (Some cur))) e1 \/ exists p, In (SPhase (PPause (pobj_name s ph) p (Some cur))) e1)
+    end.
+  Proof.
+    unfold remote_reconcile, phase_obj_of, pobj_name. cbn [desired_phase op_id oi_kind oi_ns oi_name].
+    set (name := join_name (oi_name (os_id s)) (ph_name ph)).
+    destruct (find_phase (sw_phases sw) (phase_kind s) (oi_ns (os_id s)) name) as [cur|] eqn:Ef.
+    - destruct (find_phase_key _ _ _ _ _ Ef) as (Hk & Hns & Hn).
+      destruct (Bool.eqb (op_paused cur) _) eqn:Ep.
+      + intros H. injection H as <- <- <- <-. repeat split; auto.
+        * constructor; [reflexivity|constructor].
+        * destruct (relay cur) as [|active failed] eqn:Er; [exact I|]. exists cur. split; [exact Ef|]. split; [exact Er|]. left. now left.
+      + intros H. injection H as <- <- <- <-. cbn [sw_w with_phases sw_sets sw_nss sw_phases bump_rv w_store].
+        set (cur' := phase_with cur _ _ _ _ _ _).
+        assert (Hid : op_id cur' = op_id cur) by reflexivity.
+        repeat split; auto.
+        * constructor; [reflexivity|]. constructor; [reflexivity|constructor].
+        * intros kind ns nm Hne. apply find_put_phase_other. unfold pkey_eq. rewrite Hid, Hk, Hns, Hn. exact Hne.
+        * destruct (relay cur') as [|active failed] eqn:Er; [exact I|]. exists cur'. split.
+          -- rewrite <- Hk, <- Hns, <- Hn, <- Hid. apply find_put_phase_same.
+          -- split; [exact Er|]. right. eexists. right. now left.
+    - intros H. injection H as <- <- <- <-. cbn [sw_w with_phases sw_sets sw_nss sw_phases bump_uid_rv w_store].
+      repeat split; auto.
+      + constructor; [reflexivity|]. constructor; [reflexivity|constructor].
+      + intros kind ns nm Hne. apply find_put_phase_other. unfold pkey_eq. cbn. exact Hne.
+  Qed.
+
+  Lemma rpm_cons sw s ow prev ph rest acc rem :
+    reconcile_phases_m force sw s ow prev (ph :: rest) acc rem =
+    if ph_class ph then
+      match remote_reconcile sw s ph rem with
+      | (sw1, e1, rem1, RRErr) => (sw1, e1, rem1, MRemoteErr)
+      | (sw1, e1, rem1, RROk active true) => (sw1, e1, rem1, MOk (acc ++ active) (Some (ph_name ph)))
+      | (sw1, e1, rem1, RROk active false) =>
+          let '(sw2, e2, rem2, r) := reconcile_phases_m force sw1 s ow prev rest (acc ++ active) rem1 in
+          (sw2, e1 ++ e2, rem2, r)
+      end
+    else
+      match reconcile_phase c idw (sw_w sw) ow prev false (ph_objects ph) with
+      | (w1, e1, PhErr e) => (with_w sw w1, map SMember e1, rem, MErr e)
+      | (w1, e1, PhPreflight _) => (with_w sw w1, map SMember e1, rem, MPreflight)
+      | (w1, e1, PhOk actual failed) =>
+          let acc' := acc ++ map fst (filter (fun ko => is_controller Native (ow_id ow) (snd ko)) actual) in
+          match failed with
+          | _ :: _ => (with_w sw w1, map SMember e1, rem, MOk acc' (Some (ph_name ph)))
+          | [] => let '(sw2, e2, rem2, r) := reconcile_phases_m force (with_w sw w1) s ow prev rest acc' rem in
+                  (sw2, map SMember e1 ++ e2, rem2, r)
+          end
+      end.
+  Proof. reflexivity. Qed.
+
+  Definition local_keys (ow : owner) (phs : list phase) : list okey := flat_map (phase_keys ow) (filter is_local phs).
+  Definition delegated_names (s : oset) (phs : list phase) : list N := map (pobj_name s) (filter ph_class phs).
+
+  Lemma local_keys_cons_local ow ph rest : ph_class ph = false -> local_keys ow (ph :: rest) = phase_keys ow ph ++ local_keys ow rest.
+  Proof. intros H. unfold local_keys, is_local. cbn. now rewrite H. Qed.
+  Lemma local_keys_cons_remote ow ph rest : ph_class ph = true -> local_keys ow (ph :: rest) = local_keys ow rest.
+  Proof. intros H. unfold local_keys, is_local. cbn. now rewrite H. Qed.
+  Lemma delegated_names_cons_local s ph rest : ph_class ph = false -> delegated_names s (ph :: rest) = delegated_names s rest.
+  Proof. intros H. unfold delegated_names. cbn. now rewrite H. Qed.
+  Lemma delegated_names_cons_remote s ph rest : ph_class ph = true -> delegated_names s (ph :: rest) = pobj_name s ph :: delegated_names s rest.
+  Proof. intros H. unfold delegated_names. cbn. now rewrite H. Qed.
+
+  (** Which phase an event writes to: a member object of a local phase, or the phase object of a delegated one
+      (reads of phase objects are not writes). *)
+  Definition touches (s : oset) (ow : owner) (ph : phase) (e : sev) : Prop :=
+    match e with
+    | SMember x => ph_class ph = false /\ In (ev_key x) (phase_keys ow ph)
+    | SPhase _ => ph_class ph = true /\ is_write_on (pobj_name s ph) e
+    | SMeta _ => False
+    end.
+
+  (** Events of the loop stay within the listed phases; everything else is framed. *)
+  Lemma rpm_inv s ow prev phs : forall sw acc rem sw' evs rem' r,
+    reconcile_phases_m force sw s ow prev phs acc rem = (sw', evs, rem', r) ->
+    sw_sets sw' = sw_sets sw /\ sw_nss sw' = sw_nss sw /\
+    Forall (fun e => In (ev_key e) (local_keys ow phs)) (member_evs evs) /\
+    Forall (fun e => match e with
+                     | SMember _ => True
+                     | SPhase p => exists n, In n (delegated_names s phs) /\ only_phase_evs n [e]
+                     | SMeta _ => False end) evs /\
+    (forall k, ~ In k (local_keys ow phs) -> lookup k (w_store (sw_w sw')) = lookup k (w_store (sw_w sw))) /\
+    (forall kind ns name, ~ (kind = phase_kind s /\ ns = oi_ns (os_id s) /\ In name (delegated_names s phs)) ->
+       find_phase (sw_phases sw') kind ns name = find_phase (sw_phases sw) kind ns name).
+  Proof.
+    induction phs as [|ph rest IH]; intros sw acc rem sw' evs rem' r H.
+    - cbn in H. injection H as <- <- _ _. repeat split; auto; constructor.
+    - rewrite rpm_cons in H. destruct (ph_class ph) eqn:Ecl.
+      + (* delegated *)
+        rewrite (local_keys_cons_remote _ _ _ Ecl), (delegated_names_cons_remote _ _ _ Ecl).
+        destruct (remote_reconcile sw s ph rem) as [[[sw1 e1] rem1] r1] eqn:E1.
+        destruct (remote_reconcile_inv _ _ _ _ _ _ _ _ E1) as (Hst & Hse & Hns & Hev & Hfr & _).
+        assert (Hm1 : member_evs e1 = []) by (eapply only_phase_members; eauto).
+        assert (Hev1 : Forall (fun e => match e with
+                     | SMember _ => True
+                     | SPhase p => exists n, In n (pobj_name s ph :: delegated_names s rest) /\ only_phase_evs n [e]
+                     | SMeta _ => False end) e1).
+        { eapply Forall_impl; [|exact Hev]. intros e He. destruct e as [x|m|p]; [exact I|contradiction|].
+          exists (pobj_name s ph). split; [now left|]. constructor; [exact He|constructor]. }
+        assert (Hfr1 : forall kind ns name, ~ (kind = phase_kind s /\ ns = oi_ns (os_id s) /\ In name (pobj_name s ph :: delegated_names s rest)) ->
+                  find_phase (sw_phases sw1) kind ns name = find_phase (sw_phases sw) kind ns name).
+        { intros kind ns name Hno. apply Hfr.
+          destruct ((phase_kind s =? kind) && (oi_ns (os_id s) =? ns) && (pobj_name s ph =? name)) eqn:E; [|reflexivity].
+          exfalso. apply Hno. apply andb_true_iff in E. destruct E as [E E3]. apply andb_true_iff in E. destruct E as [E1' E2].
+          apply N.eqb_eq in E1', E2, E3. subst. repeat split; auto. now left. }
+        assert (Hstop : (sw1, e1, rem1) = (sw', evs, rem') ->
+          sw_sets sw' = sw_sets sw /\ sw_nss sw' = sw_nss sw /\
+          Forall (fun e => In (ev_key e) (local_keys ow rest)) (member_evs evs) /\
+          Forall (fun e => match e with
+                     | SMember _ => True
+                     | SPhase p => exists n, In n (pobj_name s ph :: delegated_names s rest) /\ only_phase_evs n [e]
+                     | SMeta _ => False end) evs /\
+          (forall k, ~ In k (local_keys ow rest) -> lookup k (w_store (sw_w sw')) = lookup k (w_store (sw_w sw))) /\
+          (forall kind ns name, ~ (kind = phase_kind s /\ ns = oi_ns (os_id s) /\ In name (pobj_name s ph :: delegated_names s rest)) ->
+             find_phase (sw_phases sw') kind ns name = find_phase (sw_phases sw) kind ns name)).
+        { intros Heq. injection Heq as <- <- <-. rewrite Hm1. repeat split; auto. intros k _. now rewrite Hst. }
+        destruct r1 as [|active failed].
+        * injection H as <- <- <- _. now apply Hstop.
+        * destruct failed.
+          -- injection H as <- <- <- _. now apply Hstop.
+          -- destruct (reconcile_phases_m force sw1 s ow prev rest (acc ++ active) rem1) as [[[sw2 e2] rem2] r2] eqn:E2.
+             injection H as <- <- <- <-.
+             destruct (IH _ _ _ _ _ _ _ E2) as (Hse2 & Hns2 & Hm2 & Hev2 & Hst2 & Hfr2).
+             rewrite member_evs_app, Hm1. cbn [app].
+             split; [congruence|]. split; [congruence|]. split; [exact Hm2|]. split; [|split].
+             ++ apply Forall_app. split; [exact Hev1|]. eapply Forall_impl; [|exact Hev2].
+                intros e He. destruct e as [x|m|p]; auto. destruct He as (n & Hn & Ho). exists n. split; [now right|exact Ho].
+             ++ intros k Hk. rewrite (Hst2 k Hk). now rewrite Hst.
+             ++ intros kind ns name Hno. rewrite Hfr2; [apply Hfr1; exact Hno|].
+                intros (H1 & H2 & H3). apply Hno. repeat split; auto. now right.
+      + (* local *)
+        rewrite (local_keys_cons_local _ _ _ Ecl), (delegated_names_cons_local _ _ _ Ecl).
+        destruct (reconcile_phase c idw (sw_w sw) ow prev false (ph_objects ph)) as [[w1 e1] r1] eqn:E1.
+        pose proof (rec_phase_events_in force _ _ _ _ _ _ _ _ E1) as Hin1.
+        assert (Hin1' : Forall (fun e => In (ev_key e) (phase_keys ow ph ++ local_keys ow rest)) e1).
+        { eapply Forall_impl; [|exact Hin1]. cbn. intros e He. apply in_or_app. now left. }
+        assert (Hfr1 : forall k, ~ In k (phase_keys ow ph ++ local_keys ow rest) -> lookup k (w_store w1) = lookup k (w_store (sw_w sw))).
+        { intros k Hk. eapply rec_phase_frame; eauto. intros p Hp Heq. apply Hk. apply in_or_app. left. rewrite <- Heq. unfold phase_keys. now apply in_map. }
+        assert (Hmem1 : Forall (fun e => match e with
+                     | SMember _ => True
+                     | SPhase p => exists n, In n (delegated_names s rest) /\ only_phase_evs n [e]
+                     | SMeta _ => False end) (map SMember e1)).
+        { apply Forall_forall. intros e He. apply in_map_iff in He. destruct He as (x & <- & _). exact I. }
+        assert (Hstop : forall rr, (with_w sw w1, map SMember e1, rem, rr) = (sw', evs, rem', r) ->
+          sw_sets sw' = sw_sets sw /\ sw_nss sw' = sw_nss sw /\
+          Forall (fun e => In (ev_key e) (phase_keys ow ph ++ local_keys ow rest)) (member_evs evs) /\
+          Forall (fun e => match e with
+                     | SMember _ => True
+                     | SPhase p => exists n, In n (delegated_names s rest) /\ only_phase_evs n [e]
+                     | SMeta _ => False end) evs /\
+          (forall k, ~ In k (phase_keys ow ph ++ local_keys ow rest) -> lookup k (w_store (sw_w sw')) = lookup k (w_store (sw_w sw))) /\
+          (forall kind ns name, ~ (kind = phase_kind s /\ ns = oi_ns (os_id s) /\ In name (delegated_names s rest)) ->
+             find_phase (sw_phases sw') kind ns name = find_phase (sw_phases sw) kind ns name)).
+        { intros rr Heq. injection Heq as <- <- <- _. rewrite member_evs_members. repeat split; auto. }
+        destruct r1 as [e|vs|actual failed]; [eapply Hstop; eauto|eapply Hstop; eauto|].
+        destruct failed as [|f fs]; [|eapply Hstop; eauto].
+        cbv zeta in H.
+        match type of H with context [reconcile_phases_m force ?a s ow prev rest ?b ?d] =>
+          destruct (reconcile_phases_m force a s ow prev rest b d) as [[[sw2 e2] rem2] r2] eqn:E2 end.
+        injection H as <- <- <- <-.
+        destruct (IH _ _ _ _ _ _ _ E2) as (Hse2 & Hns2 & Hm2 & Hev2 & Hst2 & Hfr2).
+        rewrite member_evs_app, member_evs_members.
+        split; [exact Hse2|]. split; [exact Hns2|]. split; [|split; [|split]].
+        * apply Forall_app. split; [exact Hin1'|]. eapply Forall_impl; [|exact Hm2]. cbn. intros e He. apply in_or_app. now right.
+        * apply Forall_app. split; [exact Hmem1|exact Hev2].
+        * intros k Hk. rewrite Hst2; [cbn; now apply Hfr1|]. intros Hin. apply Hk. apply in_or_app. now right.
+        * intros kind ns name Hno. rewrite (Hfr2 _ _ _ Hno). reflexivity.
+  Qed.
+
+  Lemma exists_app_not {A} (P : A -> Prop) l1 l2 : Exists P (l1 ++ l2) -> Forall (fun x => ~ P x) l1 -> Exists P l2.
+  Proof.
+    intros He Hn. apply Exists_app in He. destruct He as [He|He]; [|assumption]. exfalso.
+    apply Exists_exists in He. destruct He as (x & Hx & Hp). rewrite Forall_forall in Hn. now apply (Hn x Hx).
+  Qed.
+
+  Lemma exists_not {A} (P : A -> Prop) l : Exists P l -> Forall (fun x => ~ P x) l -> False.
+  Proof.
+    intros He Hn. apply Exists_exists in He. destruct He as (x & Hx & Hp). rewrite Forall_forall in Hn. now apply (Hn x Hx).
+  Qed.
+
+  (** A phase counts as complete for the gate: a local phase when all its objects are present and pass the
+      probe; a delegated phase when its phase object reports Available=True for its current generation. *)
+  Definition phase_done (sw : sworld) (s : oset) (ow : owner) (q : phase) : Prop :=
+    if ph_class q then exists cur, phase_obj_of sw s q = Some cur /\ avail_current cur
+    else phase_ok (sw_w sw) ow q.
+
+  Lemma in_delegated_names s ph phs : In ph phs -> ph_class ph = true -> In (pobj_name s ph) (delegated_names s phs).
+  Proof. intros Hin Hc. unfold delegated_names. apply in_map. apply filter_In. auto. Qed.
+
+  Lemma in_local_keys ow ph phs k : In ph phs -> ph_class ph = false -> In k (phase_keys ow ph) -> In k (local_keys ow phs).
+  Proof. intros Hin Hc Hk. unfold local_keys. apply in_flat_map. exists ph. split; [|exact Hk]. apply filter_In. unfold is_local. now rewrite Hc. Qed.
+
+  (** Events of a delegated step never write to another listed phase. *)
+  Lemma remote_evs_touch_nothing s ow q0 ph rest e1 :
+    only_phase_evs (pobj_name s q0) e1 -> In ph rest ->
+    ~ In (pobj_name s q0) (delegated_names s rest) ->
+    Forall (fun e => ~ touches s ow ph e) e1.
+  Proof.
+    intros Hev Hin Hnot. eapply Forall_impl; [|exact Hev]. intros e He Ht.
+    destruct e as [x|m|p]; [contradiction|contradiction|]. cbn in Ht. destruct Ht as [Hc Hw].
+    apply Hnot. assert (pobj_name s ph = pobj_name s q0) as <-.
+    { destruct p; cbn in Hw, He; try contradiction; congruence. }
+    now apply in_delegated_names.
+  Qed.
+
+  Lemma local_evs_touch_nothing s ow q0 ph rest (e1 : list ev) :
+    Forall (fun e => In (ev_key e) (phase_keys ow q0)) e1 -> In ph rest ->
+    (forall k, In k (phase_keys ow q0) -> ~ In k (local_keys ow rest)) ->
+    Forall (fun e => ~ touches s ow ph e) (map SMember e1).
+  Proof.
+    intros Hev Hin Hdis. apply Forall_forall. intros e He Ht. apply in_map_iff in He. destruct He as (x & <- & Hx).
+    cbn in Ht. destruct Ht as [Hc Hk]. rewrite Forall_forall in Hev. apply (Hdis _ (Hev _ Hx)).
+    eapply in_local_keys; eauto.
+  Qed.
+
+  (** ** C03 for mixed phase lists: rollout gating.
+      If any request of the loop writes to a phase (a member of a local phase, or the phase object of a
+      delegated one), every earlier phase is complete afterwards: all objects of an earlier local phase are
+      present and pass the probe, and the phase object of an earlier delegated phase reports Available=True
+      for its current generation. *)
+  Lemma rpm_gate s ow prev phs : forall sw acc rem sw' evs rem' r,
+    reconcile_phases_m force sw s ow prev phs acc rem = (sw', evs, rem', r) ->
+    NoDup (local_keys ow phs) -> NoDup (delegated_names s phs) ->
+    forall pre ph post, phs = pre ++ ph :: post ->
+      Exists (touches s ow ph) evs ->
+      forall q, In q pre -> phase_done sw' s ow q.
+  Proof.
+    induction phs as [|ph0 rest IH]; intros sw acc rem sw' evs rem' r H Hnd Hndn pre ph post Hsplit Hex q Hq.
+    - destruct pre; discriminate.
+    - destruct pre as [|q0 pre']; [contradiction|]. cbn in Hsplit. injection Hsplit as -> ->.
+      assert (Hph_in : In ph (pre' ++ ph :: post)) by (apply in_or_app; right; now left).
+      rewrite rpm_cons in H. destruct (ph_class q0) eqn:Ecl.
+      + rewrite (local_keys_cons_remote _ _ _ Ecl) in Hnd. rewrite (delegated_names_cons_remote _ _ _ Ecl) in Hndn.
+        inversion Hndn as [|? ? Hnotin Hndn']; subst.
+        destruct (remote_reconcile sw s q0 rem) as [[[sw1 e1] rem1] r1] eqn:E1.
+        destruct (remote_reconcile_inv _ _ _ _ _ _ _ _ E1) as (_ & _ & _ & Hev & _ & Hres).
+        pose proof (remote_evs_touch_nothing s ow q0 ph _ e1 Hev Hph_in Hnotin) as Hnot1.
+        destruct r1 as [|active failed]; [injection H as <- <- <- _; exfalso; eapply exists_not; eauto|].
+        destruct failed; [injection H as <- <- <- _; exfalso; eapply exists_not; eauto|].
+        destruct (reconcile_phases_m force sw1 s ow prev (pre' ++ ph :: post) (acc ++ active) rem1) as [[[sw2 e2] rem2] r2] eqn:E2.
+        injection H as <- <- <- <-.
+        pose proof (exists_app_not _ _ _ Hex Hnot1) as Hex2.
+        destruct Hq as [<-|Hq]; [|eapply (IH _ _ _ _ _ _ _ E2 Hnd Hndn' pre' ph post eq_refl Hex2 q Hq)].
+        unfold phase_done. rewrite Ecl. destruct Hres as (cur & Hcur & Hrel & _).
+        exists cur. split; [|now destruct (relay_ok _ _ Hrel)].
+        unfold phase_obj_of in *. rewrite <- Hcur.
+        destruct (rpm_inv _ _ _ _ _ _ _ _ _ _ _ E2) as (_ & _ & _ & _ & _ & Hfr). apply Hfr. intros (_ & _ & Hin). contradiction.
+      + rewrite (local_keys_cons_local _ _ _ Ecl) in Hnd. rewrite (delegated_names_cons_local _ _ _ Ecl) in Hndn.
+        pose proof (NoDup_app_r _ _ Hnd) as Hnd_rest. pose proof (NoDup_app_l _ _ Hnd) as Hnd0.
+        assert (Hdisj : forall k, In k (phase_keys ow q0) -> ~ In k (local_keys ow (pre' ++ ph :: post))).
+        { intros k Hk. eapply NoDup_app_disj; eauto. }
+        destruct (reconcile_phase c idw (sw_w sw) ow prev false (ph_objects q0)) as [[w1 e1] r1] eqn:E1.
+        pose proof (local_evs_touch_nothing s ow q0 ph _ e1 (rec_phase_events_in force _ _ _ _ _ _ _ _ E1) Hph_in Hdisj) as Hnot1.
+        destruct r1 as [e|vs|actual failed]; [injection H as <- <- <- _; exfalso; eapply exists_not; eauto|injection H as <- <- <- _; exfalso; eapply exists_not; eauto|].
+        destruct failed as [|f fs]; [|injection H as <- <- <- _; exfalso; eapply exists_not; eauto].
+        cbv zeta in H.
+        match type of H with context [reconcile_phases_m force ?a s ow prev ?l ?b ?d] =>
+          destruct (reconcile_phases_m force a s ow prev l b d) as [[[sw2 e2] rem2] r2] eqn:E2 end.
+        injection H as <- <- <- <-.
+        pose proof (exists_app_not _ _ _ Hex Hnot1) as Hex2.
+        destruct Hq as [<-|Hq]; [|eapply (IH _ _ _ _ _ _ _ E2 Hnd_rest Hndn pre' ph post eq_refl Hex2 q Hq)].
+        unfold phase_done. rewrite Ecl.
+        unfold reconcile_phase in E1. destruct (flat_map _ (ph_objects q0)); [|discriminate].
+        destruct (rec_objs_ok_present force ow prev _ _ _ _ _ _ _ E1 Hnd0) as [_ Hall].
+        intros p Hp. destruct (Hall p Hp) as (o & Ho & Hpr). exists o. split; [|exact Hpr].
+        rewrite <- Ho. destruct (rpm_inv _ _ _ _ _ _ _ _ _ _ _ E2) as (_ & _ & _ & _ & Hfr & _).
+        rewrite Hfr; [reflexivity|]. apply Hdisj. unfold phase_keys. now apply in_map.
+  Qed.
+
+  (** The same for the local phases alone; no hypothesis on the names of the delegated phases. *)
+  Lemma rpm_gate_local s ow prev phs : forall sw acc rem sw' evs rem' r,
+    reconcile_phases_m force sw s ow prev phs acc rem = (sw', evs, rem', r) ->
+    NoDup (local_keys ow phs) ->
+    forall pre ph post, phs = pre ++ ph :: post -> ph_class ph = false ->
+      Exists (fun e => In (ev_key e) (phase_keys ow ph)) (member_evs evs) ->
+      forall q, In q pre -> ph_class q = false -> phase_ok (sw_w sw') ow q.
+  Proof.
+    induction phs as [|ph0 rest IH]; intros sw acc rem sw' evs rem' r H Hnd pre ph post Hsplit Hcl Hex q Hq Hcq.
+    - destruct pre; discriminate.
+    - destruct pre as [|q0 pre']; [contradiction|]. cbn in Hsplit. injection Hsplit as -> ->.
+      assert (Hph_in : In ph (pre' ++ ph :: post)) by (apply in_or_app; right; now left).
+      rewrite rpm_cons in H. destruct (ph_class q0) eqn:Ecl.
+      + rewrite (local_keys_cons_remote _ _ _ Ecl) in Hnd.
+        destruct (remote_reconcile sw s q0 rem) as [[[sw1 e1] rem1] r1] eqn:E1.
+        destruct (remote_reconcile_inv _ _ _ _ _ _ _ _ E1) as (_ & _ & _ & Hev & _ & _).
+        pose proof (only_phase_members _ _ Hev) as Hm1.
+        destruct r1 as [|active failed]; [injection H as <- <- <- _; rewrite Hm1 in Hex; inversion Hex|].
+        destruct failed; [injection H as <- <- <- _; rewrite Hm1 in Hex; inversion Hex|].
+        destruct (reconcile_phases_m force sw1 s ow prev (pre' ++ ph :: post) (acc ++ active) rem1) as [[[sw2 e2] rem2] r2] eqn:E2.
+        injection H as <- <- <- <-. rewrite member_evs_app, Hm1 in Hex. cbn [app] in Hex.
+        destruct Hq as [<-|Hq]; [congruence|]. eapply (IH _ _ _ _ _ _ _ E2 Hnd pre' ph post eq_refl Hcl Hex q Hq Hcq).
+      + rewrite (local_keys_cons_local _ _ _ Ecl) in Hnd.
+        pose proof (NoDup_app_r _ _ Hnd) as Hnd_rest. pose proof (NoDup_app_l _ _ Hnd) as Hnd0.
+        assert (Hdisj : forall k, In k (phase_keys ow q0) -> ~ In k (local_keys ow (pre' ++ ph :: post))).
+        { intros k Hk. eapply NoDup_app_disj; eauto. }
+        destruct (reconcile_phase c idw (sw_w sw) ow prev false (ph_objects q0)) as [[w1 e1] r1] eqn:E1.
+        assert (Hnot1 : Forall (fun e => ~ In (ev_key e) (phase_keys ow ph)) e1).
+        { eapply Forall_impl; [|exact (rec_phase_events_in force _ _ _ _ _ _ _ _ E1)]. cbn. intros e He Hk.
+          apply (Hdisj _ He). eapply in_local_keys; eauto. }
+        destruct r1 as [e|vs|actual failed];
+          [injection H as <- <- <- _; rewrite member_evs_members in Hex; exfalso; eapply exists_not; eauto
+          |injection H as <- <- <- _; rewrite member_evs_members in Hex; exfalso; eapply exists_not; eauto|].
+        destruct failed as [|f fs]; [|injection H as <- <- <- _; rewrite member_evs_members in Hex; exfalso; eapply exists_not; eauto].
+        cbv zeta in H.
+        match type of H with context [reconcile_phases_m force ?a s ow prev ?l ?b ?d] =>
+          destruct (reconcile_phases_m force a s ow prev l b d) as [[[sw2 e2] rem2] r2] eqn:E2 end.
+        injection H as <- <- <- <-. rewrite member_evs_app, member_evs_members in Hex.
+        pose proof (exists_app_not _ _ _ Hex Hnot1) as Hex2.
+        destruct Hq as [<-|Hq]; [|eapply (IH _ _ _ _ _ _ _ E2 Hnd_rest pre' ph post eq_refl Hcl Hex2 q Hq Hcq)].
+        unfold reconcile_phase in E1. destruct (flat_map _ (ph_objects q0)); [|discriminate].
+        destruct (rec_objs_ok_present force ow prev _ _ _ _ _ _ _ E1 Hnd0) as [_ Hall].
+        intros p Hp. destruct (Hall p Hp) as (o & Ho & Hpr). exists o. split; [|exact Hpr].
+        rewrite <- Ho. destruct (rpm_inv _ _ _ _ _ _ _ _ _ _ _ E2) as (_ & _ & _ & _ & Hfr & _).
+        rewrite Hfr; [reflexivity|]. apply Hdisj. unfold phase_keys. now apply in_map.
+  Qed.
+
+  Lemma rpm_all_ok_local s ow prev phs : forall sw acc rem sw' evs rem' ctrlof,
+    reconcile_phases_m force sw s ow prev phs acc rem = (sw', evs, rem', MOk ctrlof None) ->
+    NoDup (local_keys ow phs) ->
+    forall q, In q phs -> ph_class q = false -> phase_ok (sw_w sw') ow q.
+  Proof.
+    induction phs as [|ph rest IH]; intros sw acc rem sw' evs rem' ctrlof H Hnd q Hq Hcq; [contradiction|].
+    rewrite rpm_cons in H. destruct (ph_class ph) eqn:Ecl.
+    - rewrite (local_keys_cons_remote _ _ _ Ecl) in Hnd.
+      destruct (remote_reconcile sw s ph rem) as [[[sw1 e1] rem1] r1] eqn:E1.
+      destruct r1 as [|active failed]; [discriminate|]. destruct failed; [discriminate|].
+      destruct (reconcile_phases_m force sw1 s ow prev rest (acc ++ active) rem1) as [[[sw2 e2] rem2] r2] eqn:E2.
+      injection H as <- _ _ ->. destruct Hq as [<-|Hq]; [congruence|]. eapply IH; eauto.
+    - rewrite (local_keys_cons_local _ _ _ Ecl) in Hnd.
+      pose proof (NoDup_app_r _ _ Hnd) as Hnd_rest. pose proof (NoDup_app_l _ _ Hnd) as Hnd0.
+      destruct (reconcile_phase c idw (sw_w sw) ow prev false (ph_objects ph)) as [[w1 e1] r1] eqn:E1.
+      destruct r1 as [e|vs|actual failed]; [discriminate|discriminate|].
+      destruct failed as [|f fs]; [|discriminate].
+      cbv zeta in H.
+      match type of H with context [reconcile_phases_m force ?a s ow prev ?l ?b ?d] =>
+        destruct (reconcile_phases_m force a s ow prev l b d) as [[[sw2 e2] rem2] r2] eqn:E2 end.
+      injection H as <- _ _ ->.
+      destruct Hq as [<-|Hq]; [|eapply IH; eauto].
+      unfold reconcile_phase in E1. destruct (flat_map _ (ph_objects ph)); [|discriminate].
+      destruct (rec_objs_ok_present force ow prev _ _ _ _ _ _ _ E1 Hnd0) as [_ Hall].
+      intros p Hp. destruct (Hall p Hp) as (o & Ho & Hpr). exists o. split; [|exact Hpr].
+      rewrite <- Ho. destruct (rpm_inv _ _ _ _ _ _ _ _ _ _ _ E2) as (_ & _ & _ & _ & Hfr & _).
+      rewrite Hfr; [reflexivity|]. eapply NoDup_app_disj; [exact Hnd|]. unfold phase_keys. now apply in_map.
+  Qed.
+
+  (** The relay: a loop that completed read, for every delegated phase, a phase object (or got one back from
+      its pause patch) that carries Available=True for that object's generation. [phase_read] is defined below. *)
+  Lemma rpm_all_ok_read s ow prev phs : forall sw acc rem sw' evs rem' ctrlof,
+    reconcile_phases_m force sw s ow prev phs acc rem = (sw', evs, rem', MOk ctrlof None) ->
+    forall q, In q phs -> ph_class q = true ->
+      exists cur, (In (SPhase (PGet (pobj_name s q) (Some cur))) evs \/ exists p, In (SPhase (PPause (pobj_name s q) p (Some cur))) evs) /\
+                  avail_current cur.
+  Proof.
+    induction phs as [|ph rest IH]; intros sw acc rem sw' evs rem' ctrlof H q Hq Hcq; [contradiction|].
+    rewrite rpm_cons in H. destruct (ph_class ph) eqn:Ecl.
+    - destruct (remote_reconcile sw s ph rem) as [[[sw1 e1] rem1] r1] eqn:E1.
+      destruct (remote_reconcile_inv _ _ _ _ _ _ _ _ E1) as (_ & _ & _ & _ & _ & Hres).
+      destruct r1 as [|active failed]; [discriminate|]. destruct failed; [discriminate|].
+      destruct (reconcile_phases_m force sw1 s ow prev rest (acc ++ active) rem1) as [[[sw2 e2] rem2] r2] eqn:E2.
+      injection H as <- <- _ ->.
+      destruct Hq as [<-|Hq].
+      + destruct Hres as (cur & _ & Hrel & Hread). exists cur. split; [|now destruct (relay_ok _ _ Hrel)].
+        destruct Hread as [Hr|(p & Hr)]; [left|right; exists p]; apply in_or_app; now left.
+      + destruct (IH _ _ _ _ _ _ _ E2 q Hq Hcq) as (cur & Hread & Ha). exists cur. split; [|exact Ha].
+        destruct Hread as [Hr|(p & Hr)]; [left|right; exists p]; apply in_or_app; now right.
+    - destruct (reconcile_phase c idw (sw_w sw) ow prev false (ph_objects ph)) as [[w1 e1] r1] eqn:E1.
+      destruct r1 as [e|vs|actual failed]; [discriminate|discriminate|].
+      destruct failed as [|f fs]; [|discriminate].
+      cbv zeta in H.
+      match type of H with context [reconcile_phases_m force ?a s ow prev ?l ?b ?d] =>
+        destruct (reconcile_phases_m force a s ow prev l b d) as [[[sw2 e2] rem2] r2] eqn:E2 end.
+      injection H as <- <- _ ->.
+      destruct Hq as [<-|Hq]; [congruence|].
+      destruct (IH _ _ _ _ _ _ _ E2 q Hq Hcq) as (cur & Hread & Ha). exists cur. split; [|exact Ha].
+      destruct Hread as [Hr|(p & Hr)]; [left|right; exists p]; apply in_or_app; now right.
+  Qed.
+
+  (** Every phase completed. *)
+  Lemma rpm_all_ok s ow prev phs : forall sw acc rem sw' evs rem' ctrlof,
+    reconcile_phases_m force sw s ow prev phs acc rem = (sw', evs, rem', MOk ctrlof None) ->
+    NoDup (local_keys ow phs) -> NoDup (delegated_names s phs) ->
+    forall q, In q phs -> phase_done sw' s ow q.
+  Proof.
+    induction phs as [|ph rest IH]; intros sw acc rem sw' evs rem' ctrlof H Hnd Hndn q Hq; [contradiction|].
+    rewrite rpm_cons in H. destruct (ph_class ph) eqn:Ecl.
+    - rewrite (local_keys_cons_remote _ _ _ Ecl) in Hnd. rewrite (delegated_names_cons_remote _ _ _ Ecl) in Hndn.
+      inversion Hndn as [|? ? Hnotin Hndn']; subst.
+      destruct (remote_reconcile sw s ph rem) as [[[sw1 e1] rem1] r1] eqn:E1.
+      destruct (remote_reconcile_inv _ _ _ _ _ _ _ _ E1) as (_ & _ & _ & _ & _ & Hres).
+      destruct r1 as [|active failed]; [discriminate|]. destruct failed; [discriminate|].
+      destruct (reconcile_phases_m force sw1 s ow prev rest (acc ++ active) rem1) as [[[sw2 e2] rem2] r2] eqn:E2.
+      injection H as <- _ _ ->.
+      destruct Hq as [<-|Hq]; [|eapply IH; eauto].
+      unfold phase_done. rewrite Ecl. destruct Hres as (cur & Hcur & Hrel & _).
+      exists cur. split; [|now destruct (relay_ok _ _ Hrel)].
+      unfold phase_obj_of in *. rewrite <- Hcur.
+      destruct (rpm_inv _ _ _ _ _ _ _ _ _ _ _ E2) as (_ & _ & _ & _ & _ & Hfr). apply Hfr. intros (_ & _ & Hin). contradiction.
+    - rewrite (local_keys_cons_local _ _ _ Ecl) in Hnd. rewrite (delegated_names_cons_local _ _ _ Ecl) in Hndn.
+      pose proof (NoDup_app_r _ _ Hnd) as Hnd_rest. pose proof (NoDup_app_l _ _ Hnd) as Hnd0.
+      destruct (reconcile_phase c idw (sw_w sw) ow prev false (ph_objects ph)) as [[w1 e1] r1] eqn:E1.
+      destruct r1 as [e|vs|actual failed]; [discriminate|discriminate|].
+      destruct failed as [|f fs]; [|discriminate].
+      cbv zeta in H.
+      match type of H with context [reconcile_phases_m force ?a s ow prev ?l ?b ?d] =>
+        destruct (reconcile_phases_m force a s ow prev l b d) as [[[sw2 e2] rem2] r2] eqn:E2 end.
+      injection H as <- _ _ ->.
+      destruct Hq as [<-|Hq]; [|eapply IH; eauto].
+      unfold phase_done. rewrite Ecl.
+      unfold reconcile_phase in E1. destruct (flat_map _ (ph_objects ph)); [|discriminate].
+      destruct (rec_objs_ok_present force ow prev _ _ _ _ _ _ _ E1 Hnd0) as [_ Hall].
+      intros p Hp. destruct (Hall p Hp) as (o & Ho & Hpr). exists o. split; [|exact Hpr].
+      rewrite <- Ho. destruct (rpm_inv _ _ _ _ _ _ _ _ _ _ _ E2) as (_ & _ & _ & _ & Hfr & _).
+      rewrite Hfr; [reflexivity|]. eapply NoDup_app_disj; [exact Hnd|]. unfold phase_keys. now apply in_map.
+  Qed.
+
+  (** C09 at the ObjectSet level: a paused owner writes to no member (its delegated phases are paused
+      through their phase objects). *)
+  Lemma rpm_paused s ow prev phs : forall sw acc rem sw' evs rem' r,
+    ow_paused ow = true -> reconcile_phases_m force sw s ow prev phs acc rem = (sw', evs, rem', r) ->
+    w_store (sw_w sw') = w_store (sw_w sw) /\ member_evs evs = [].
+  Proof.
+    induction phs as [|ph rest IH]; intros sw acc rem sw' evs rem' r Hp H.
+    - cbn in H. injection H as <- <- _ _. auto.
+    - rewrite rpm_cons in H. destruct (ph_class ph) eqn:Ecl.
+      + destruct (remote_reconcile sw s ph rem) as [[[sw1 e1] rem1] r1] eqn:E1.
+        destruct (remote_reconcile_inv _ _ _ _ _ _ _ _ E1) as (Hst & _ & _ & Hev & _ & _).
+        pose proof (only_phase_members _ _ Hev) as Hm1.
+        destruct r1 as [|active failed]; [injection H as <- <- _ _; auto|].
+        destruct failed; [injection H as <- <- _ _; auto|].
+        destruct (reconcile_phases_m force sw1 s ow prev rest (acc ++ active) rem1) as [[[sw2 e2] rem2] r2] eqn:E2.
+        injection H as <- <- _ _. destruct (IH _ _ _ _ _ _ _ Hp E2) as [Hst2 Hm2].
+        rewrite member_evs_app, Hm1, Hm2. split; [congruence|reflexivity].
+      + destruct (reconcile_phase c idw (sw_w sw) ow prev false (ph_objects ph)) as [[w1 e1] r1] eqn:E1.
+        assert (H1 : w1 = sw_w sw /\ e1 = []).
+        { unfold reconcile_phase in E1. destruct (flat_map _ (ph_objects ph)); [|injection E1 as <- <- _; auto].
+          eapply phase_paused_no_write; eauto. }
+        destruct H1 as [-> ->]. cbn [map] in H.
+        destruct r1 as [e|vs|a f]; try (injection H as <- <- _ _; auto).
+        destruct f; [|injection H as <- <- _ _; auto].
+        cbv zeta in H.
+        match type of H with context [reconcile_phases_m force ?a s ow prev ?l ?b ?d] =>
+          destruct (reconcile_phases_m force a s ow prev l b d) as [[[sw2 e2] rem2] r2] eqn:E2 end.
+        injection H as <- <- _ _. destruct (IH _ _ _ _ _ _ _ Hp E2) as [Hst2 Hm2]. cbn [app]. auto.
+  Qed.
+
+  (** ** controllerOf of a mixed list: what the local phases saw controlled, plus what the phase objects of the
+      delegated phases — as read (or as returned by the pause patch) in this pass — report in their status. *)
+  Definition phase_read (evs : list sev) (n : N) (cur : osphase) : Prop :=
+    In (SPhase (PGet n (Some cur))) evs \/ exists p, In (SPhase (PPause n p (Some cur))) evs.
+
+  Definition reported_by_phase (s : oset) (phs : list phase) (evs : list sev) (k : okey) : Prop :=
+    exists q cur, In q phs /\ ph_class q = true /\ phase_read evs (pobj_name s q) cur /\ In k (op_ctrlof cur).
+
+  Lemma phase_read_app_l e1 e2 n cur : phase_read e1 n cur -> phase_read (e1 ++ e2) n cur.
+  Proof. intros [H|(p & H)]; [left|right; exists p]; apply in_or_app; now left. Qed.
+  Lemma phase_read_app_r e1 e2 n cur : phase_read e2 n cur -> phase_read (e1 ++ e2) n cur.
+  Proof. intros [H|(p & H)]; [left|right; exists p]; apply in_or_app; now right. Qed.
+
+  Lemma rpm_ctrlof_sound s ow prev phs : forall sw acc rem sw' evs rem' ctrlof fph,
+    reconcile_phases_m force sw s ow prev phs acc rem = (sw', evs, rem', MOk ctrlof fph) ->
+    NoDup (local_keys ow phs) ->
+    exists new, ctrlof = acc ++ new /\
+      Forall (fun k => (In k (local_keys ow phs) /\ seen_controlled (sw_w sw') ow k) \/ reported_by_phase s phs evs k) new.
+  Proof.
+    induction phs as [|ph rest IH]; intros sw acc rem sw' evs rem' ctrlof fph H Hnd.
+    - cbn in H. injection H as <- _ _ <- _. exists []. split; [now rewrite app_nil_r|constructor].
+    - rewrite rpm_cons in H. destruct (ph_class ph) eqn:Ecl.
+      + rewrite (local_keys_cons_remote _ _ _ Ecl) in *.
+        destruct (remote_reconcile sw s ph rem) as [[[sw1 e1] rem1] r1] eqn:E1.
+        destruct (remote_reconcile_inv _ _ _ _ _ _ _ _ E1) as (_ & _ & _ & _ & _ & Hres).
+        destruct r1 as [|active failed]; [discriminate|].
+        destruct Hres as (cur & Hcur & Hrel & Hread). pose proof (relay_active _ _ _ Hrel) as ->.
+        assert (Hact : forall evsf, phase_read evsf (pobj_name s ph) cur ->
+                  Forall (fun k => (In k (local_keys ow rest) /\ seen_controlled (sw_w sw') ow k) \/ reported_by_phase s (ph :: rest) evsf k) (op_ctrlof cur)).
+        { intros evsf Hf. apply Forall_forall. intros k Hk. right. exists ph, cur. split; [now left|]. auto. }
+        destruct failed.
+        * injection H as <- <- _ <- _. exists (op_ctrlof cur). split; [reflexivity|]. now apply Hact.
+        * destruct (reconcile_phases_m force sw1 s ow prev rest (acc ++ op_ctrlof cur) rem1) as [[[sw2 e2] rem2] r2] eqn:E2.
+          injection H as <- <- _ ->.
+          destruct (IH _ _ _ _ _ _ _ _ E2 Hnd) as (new & -> & Hnew).
+          exists (op_ctrlof cur ++ new). split; [now rewrite app_assoc|]. apply Forall_app. split.
+          -- apply Hact. now apply phase_read_app_l.
+          -- eapply Forall_impl; [|exact Hnew]. intros k [Hl|(q & cu & Hq & Hc & Hr & Hk)]; [now left|right].
+             exists q, cu. split; [now right|]. split; [exact Hc|]. split; [now apply phase_read_app_r|exact Hk].
+      + rewrite (local_keys_cons_local _ _ _ Ecl) in *.
+        pose proof (NoDup_app_r _ _ Hnd) as Hnd_rest. pose proof (NoDup_app_l _ _ Hnd) as Hnd0.
+        destruct (reconcile_phase c idw (sw_w sw) ow prev false (ph_objects ph)) as [[w1 e1] r1] eqn:E1.
+        destruct r1 as [e|vs|actual failed]; [discriminate|discriminate|].
+        pose proof E1 as E1'. unfold reconcile_phase in E1'. destruct (flat_map _ (ph_objects ph)); [|discriminate].
+        destruct (rec_objs_actual force ow prev _ _ _ _ _ _ _ _ E1' Hnd0) as (newa & Ha & Hall & _). cbn in Ha. subst actual.
+        set (mine := map fst (filter (fun ko => is_controller Native (ow_id ow) (snd ko)) newa)) in *.
+        assert (Hmine : forall swf evsf, (forall k, In k (phase_keys ow ph) -> lookup k (w_store (sw_w swf)) = lookup k (w_store w1)) ->
+                  Forall (fun k => (In k (phase_keys ow ph ++ local_keys ow rest) /\ seen_controlled (sw_w swf) ow k) \/ reported_by_phase s (ph :: rest) evsf k) mine).
+        { intros swf evsf Hfr. subst mine. apply Forall_forall. intros k Hk. apply in_map_iff in Hk. destruct Hk as ([k0 o] & <- & Hin).
+          apply filter_In in Hin. destruct Hin as [Hin Hc]. rewrite Forall_forall in Hall. destruct (Hall _ Hin) as [Hkin Hl]. cbn in *.
+          left. split; [apply in_or_app; now left|]. exists o. split; [|assumption]. rewrite Hfr; assumption. }
+        destruct failed as [|f fs].
+        * cbv zeta in H.
+          match type of H with context [reconcile_phases_m force ?a s ow prev ?l ?b ?d] =>
+            destruct (reconcile_phases_m force a s ow prev l b d) as [[[sw2 e2] rem2] r2] eqn:E2 end.
+          injection H as <- <- _ ->.
+          destruct (IH _ _ _ _ _ _ _ _ E2 Hnd_rest) as (new & -> & Hnew).
+          exists (mine ++ new). split; [now rewrite app_assoc|]. apply Forall_app. split.
+          -- apply Hmine. intros k Hk. destruct (rpm_inv _ _ _ _ _ _ _ _ _ _ _ E2) as (_ & _ & _ & _ & Hfr & _).
+             rewrite Hfr; [reflexivity|]. eapply NoDup_app_disj; eauto.
+          -- eapply Forall_impl; [|exact Hnew]. intros k [[Hin Hs]|(q & cu & Hq & Hc & Hr & Hk)]; [left; split; [apply in_or_app; now right|assumption]|right].
+             exists q, cu. split; [now right|]. split; [exact Hc|]. split; [now apply phase_read_app_r|exact Hk].
+        * injection H as <- <- _ <- _. exists mine. split; [reflexivity|]. apply Hmine. reflexivity.
+  Qed.
+
+  (** Completeness for the local phases when every phase completed. *)
+  Lemma rpm_ctrlof_complete s ow prev phs : forall sw acc rem sw' evs rem' ctrlof,
+    reconcile_phases_m force sw s ow prev phs acc rem = (sw', evs, rem', MOk ctrlof None) ->
+    NoDup (local_keys ow phs) ->
+    forall k, In k (local_keys ow phs) -> seen_controlled (sw_w sw') ow k -> In k ctrlof.
+  Proof.
+    induction phs as [|ph rest IH]; intros sw acc rem sw' evs rem' ctrlof H Hnd k Hk Hs; [contradiction|].
+    rewrite rpm_cons in H. destruct (ph_class ph) eqn:Ecl.
+    - rewrite (local_keys_cons_remote _ _ _ Ecl) in *.
+      destruct (remote_reconcile sw s ph rem) as [[[sw1 e1] rem1] r1] eqn:E1.
+      destruct r1 as [|active failed]; [discriminate|]. destruct failed; [discriminate|].
+      destruct (reconcile_phases_m force sw1 s ow prev rest (acc ++ active) rem1) as [[[sw2 e2] rem2] r2] eqn:E2.
+      injection H as <- _ _ ->. eapply IH; eauto.
+    - rewrite (local_keys_cons_local _ _ _ Ecl) in *.
+      pose proof (NoDup_app_r _ _ Hnd) as Hnd_rest. pose proof (NoDup_app_l _ _ Hnd) as Hnd0.
+      destruct (reconcile_phase c idw (sw_w sw) ow prev false (ph_objects ph)) as [[w1 e1] r1] eqn:E1.
+      destruct r1 as [e|vs|actual failed]; [discriminate|discriminate|].
+      destruct failed as [|f fs]; [|discriminate].
+      pose proof E1 as E1'. unfold reconcile_phase in E1'. destruct (flat_map _ (ph_objects ph)); [|discriminate].
+      destruct (rec_objs_actual force ow prev _ _ _ _ _ _ _ _ E1' Hnd0) as (newa & Ha & Hall & Hok). cbn in Ha. subst actual.
+      specialize (Hok eq_refl).
+      cbv zeta in H.
+      match type of H with context [reconcile_phases_m force ?a s ow prev ?l ?b ?d] =>
+        destruct (reconcile_phases_m force a s ow prev l b d) as [[[sw2 e2] rem2] r2] eqn:E2 end.
+      injection H as <- _ _ ->.
+      destruct (rpm_ctrlof_sound _ _ _ _ _ _ _ _ _ _ _ _ E2 Hnd_rest) as (new & Hc & _).
+      apply in_app_or in Hk. destruct Hk as [Hk|Hk]; [|eapply IH; eauto].
+      rewrite Hc. apply in_or_app. left. apply in_or_app. right.
+      unfold phase_keys in Hk. rewrite <- Hok in Hk. apply in_map_iff in Hk. destruct Hk as ([k0 o] & Hk0 & Hin). cbn in Hk0. subst k0.
+      apply in_map_iff. exists (k, o). split; [reflexivity|]. apply filter_In. split; [assumption|]. cbn.
+      destruct Hs as (o' & Hl' & Hc'). rewrite Forall_forall in Hall. destruct (Hall _ Hin) as [Hkin Hl]. cbn in Hl, Hkin.
+      destruct (rpm_inv _ _ _ _ _ _ _ _ _ _ _ E2) as (_ & _ & _ & _ & Hfr & _).
+      assert (lookup k (w_store (sw_w sw2)) = lookup k (w_store w1)) as Hfr'.
+      { rewrite Hfr; [reflexivity|]. eapply NoDup_app_disj; eauto. }
+      rewrite Hfr', Hl in Hl'. injection Hl' as <-. exact Hc'.
+  Qed.
+
+  (** ** Teardown of a mixed list *)
+
+  (** The phase object of a delegated phase is gone for the ObjectSet: absent, or not controlled by it. *)
+  Definition remote_gone (sw : sworld) (s : oset) (ph : phase) : Prop :=
+    match phase_obj_of sw s ph with
+    | None => True
+    | Some cur => controlled_by_uid (op_owners cur) (oi_uid (os_id s)) = false
+    end.
+
+  Lemma remote_teardown_inv sw s ph sw1 e1 r :
+    remote_teardown sw s ph = (sw1, e1, r) ->
+    w_store (sw_w sw1) = w_store (sw_w sw) /\ sw_sets sw1 = sw_sets sw /\ sw_nss sw1 = sw_nss sw /\
+    only_phase_evs (pobj_name s ph) e1 /\
+    (forall kind ns name, (phase_kind s =? kind) && (oi_ns (os_id s) =? ns) && (pobj_name s ph =? name) = false ->
+       find_phase (sw_phases sw1) kind ns name = find_phase (sw_phases sw) kind ns name) /\
+    (r = TdOk true -> sw1 = sw /\ remote_gone sw s ph /\ Forall (fun e => ~ is_write_on (pobj_name s ph) e) e1).
+  Proof.
+    unfold remote_teardown, remote_gone, phase_obj_of, pobj_name. cbn [desired_phase op_id oi_kind oi_ns oi_name].
+    set (name := join_name (oi_name (os_id s)) (ph_name ph)).
+    destruct (find_phase (sw_phases sw) (phase_kind s) (oi_ns (os_id s)) name) as [cur|] eqn:Ef.
+    2:{ intros H. injection H as <- <- <-. repeat split; auto; constructor; auto; cbn; auto. }
+    destruct (find_phase_key _ _ _ _ _ Ef) as (Hk & Hns & Hn).
+    assert (Hget : only_phase_evs name [SPhase (PGet name (Some cur))]) by (constructor; [reflexivity|constructor]).
+    assert (Hnw : Forall (fun e => ~ is_write_on name e) [SPhase (PGet name (Some cur))]) by (constructor; [cbn; auto|constructor]).
+    destruct (controlled_by_uid (op_owners cur) (oi_uid (os_id s))) eqn:Ec; cbn [negb].
+    2:{ intros H. injection H as <- <- <-. repeat split; auto. }
+    assert (Hframe_put : forall w' p', op_id p' = op_id cur -> forall kind ns nm,
+              (phase_kind s =? kind) && (oi_ns (os_id s) =? ns) && (name =? nm) = false ->
+              find_phase (sw_phases (with_phases sw w' (put_phase (sw_phases sw) p'))) kind ns nm = find_phase (sw_phases sw) kind ns nm).
+    { intros w' p' Hid kind ns nm Hne. cbn. apply find_put_phase_other. unfold pkey_eq. now rewrite Hid, Hk, Hns, Hn. }
+    assert (Hframe_del : forall w' kind ns nm,
+              (phase_kind s =? kind) && (oi_ns (os_id s) =? ns) && (name =? nm) = false ->
+              find_phase (sw_phases (with_phases sw w' (del_phase (sw_phases sw) (op_id cur)))) kind ns nm = find_phase (sw_phases sw) kind ns nm).
+    { intros w' kind ns nm Hne. cbn. apply find_del_phase_other. now rewrite Hk, Hns, Hn. }
+    assert (Hdel : forall sw1 e1 r, (delete_phase sw cur, [SPhase (PGet name (Some cur)); SPhase (PDelete name DOk)], TdOk false) = (sw1, e1, r) ->
+      w_store (sw_w sw1) = w_store (sw_w sw) /\ sw_sets sw1 = sw_sets sw /\ sw_nss sw1 = sw_nss sw /\
+      only_phase_evs name e1 /\
+      (forall kind ns nm, (phase_kind s =? kind) && (oi_ns (os_id s) =? ns) && (name =? nm) = false ->
+         find_phase (sw_phases sw1) kind ns nm = find_phase (sw_phases sw) kind ns nm) /\
+      r = TdOk false).
+    { intros sw2 e2 r2 H. injection H as <- <- <-.
+      assert (Hev : only_phase_evs name [SPhase (PGet name (Some cur)); SPhase (PDelete name DOk)]).
+      { constructor; [reflexivity|]. constructor; [reflexivity|constructor]. }
+      unfold delete_phase. destruct (op_fin cur || op_orphan cur).
+      - destruct (op_deleting cur); repeat split; auto; try discriminate.
+      - repeat split; auto; try discriminate. }
+    assert (Hdel' : forall sw1 e1 r, (delete_phase sw cur, [SPhase (PGet name (Some cur)); SPhase (PDelete name DOk)], TdOk false) = (sw1, e1, r) ->
+      w_store (sw_w sw1) = w_store (sw_w sw) /\ sw_sets sw1 = sw_sets sw /\ sw_nss sw1 = sw_nss sw /\
+      only_phase_evs name e1 /\
+      (forall kind ns nm, (phase_kind s =? kind) && (oi_ns (os_id s) =? ns) && (name =? nm) = false ->
+         find_phase (sw_phases sw1) kind ns nm = find_phase (sw_phases sw) kind ns nm) /\
+      (r = TdOk true -> sw1 = sw /\ true = false /\ Forall (fun e => ~ is_write_on name e) e1)).
+    { intros sw2 e2 r2 H. destruct (Hdel _ _ _ H) as (H1 & H2 & H3 & H4 & H5 & Hr).
+      split; [exact H1|]. split; [exact H2|]. split; [exact H3|]. split; [exact H4|]. split; [exact H5|].
+      intros Ht. rewrite Hr in Ht. discriminate. }
+    destruct (oi_ns (os_id s) =? 0); [exact (Hdel' _ _ _)|].
+    destruct (ns_state (sw_nss sw) (oi_ns (os_id s))) as [[|]|].
+    - destruct (negb (op_fin cur || op_orphan cur)).
+      + intros H. injection H as <- <- <-. repeat split; auto; try discriminate.
+        constructor; [reflexivity|]. constructor; [reflexivity|constructor].
+      + intros H. injection H as <- <- <-. repeat split; auto; try discriminate.
+        * constructor; [reflexivity|]. constructor; [reflexivity|constructor].
+        * destruct (op_deleting cur); [now apply Hframe_del|now apply Hframe_put].
+    - exact (Hdel' _ _ _).
+    - intros H. injection H as <- <- <-. repeat split; auto; discriminate.
+  Qed.
+
+  (** One step of the teardown loop. *)
+  Definition td_step (sw : sworld) (s : oset) (ow : owner) (ph : phase) : sworld * list sev * tdphres :=
+    if ph_class ph then remote_teardown sw s ph
+    else let '(w1, e1, r1) := teardown_phase c idw (sw_w sw) ow (ph_objects ph) in (with_w sw w1, map SMember e1, r1).
+
+  Lemma tpm_cons sw s ow ph rest :
+    teardown_phases_m force sw s ow (ph :: rest) =
+    let '(sw1, e1, r1) := td_step sw s ow ph in
+    match r1 with
+    | TdErr => (sw1, e1, TdErr)
+    | TdOk false => (sw1, e1, TdOk false)
+    | TdOk true => let '(sw2, e2, r) := teardown_phases_m force sw1 s ow rest in (sw2, e1 ++ e2, r)
+    end.
+  Proof. reflexivity. Qed.
+
+  Definition phase_gone (sw : sworld) (s : oset) (ow : owner) (q : phase) : Prop :=
+    if ph_class q then remote_gone sw s q else forall p, In p (ph_objects q) -> td_obj_done (sw_w sw) ow p.
+
+  Lemma td_step_inv sw s ow ph sw1 e1 r1 :
+    td_step sw s ow ph = (sw1, e1, r1) ->
+    sw_sets sw1 = sw_sets sw /\ sw_nss sw1 = sw_nss sw /\
+    (if ph_class ph then only_phase_evs (pobj_name s ph) e1
+     else exists e', e1 = map SMember e' /\ Forall (fun e => In (ev_key e) (phase_keys ow ph)) e') /\
+    (forall k, (ph_class ph = false -> ~ In k (phase_keys ow ph)) -> lookup k (w_store (sw_w sw1)) = lookup k (w_store (sw_w sw))) /\
+    (forall kind ns name, (ph_class ph = true -> (phase_kind s =? kind) && (oi_ns (os_id s) =? ns) && (pobj_name s ph =? name) = false) ->
+       find_phase (sw_phases sw1) kind ns name = find_phase (sw_phases sw) kind ns name) /\
+    (r1 = TdOk true -> NoDup (phase_keys ow ph) -> phase_gone sw1 s ow ph).
+  Proof.
+    unfold td_step, phase_gone. destruct (ph_class ph) eqn:Ecl.
+    - intros H. destruct (remote_teardown_inv _ _ _ _ _ _ H) as (Hst & Hse & Hns & Hev & Hfr & Hok).
+      repeat split; auto.
+      + intros k _. now rewrite Hst.
+      + intros Ht _. destruct (Hok Ht) as (-> & Hg & _). exact Hg.
+    - destruct (teardown_phase c idw (sw_w sw) ow (ph_objects ph)) as [[w1 e'] r'] eqn:E1. intros H. injection H as <- <- <-.
+      repeat split; auto.
+      + exists e'. split; [reflexivity|]. exact (td_phase_events_in force _ _ _ _ _ _ E1).
+      + intros k Hk. cbn. unfold teardown_phase in E1. eapply td_objs_frame; eauto.
+        intros p Hin Heq. apply (Hk eq_refl). rewrite <- Heq. unfold phase_keys. now apply in_map.
+      + intros -> Hnd p Hp. cbn. unfold teardown_phase in E1. destruct (td_objs_done force ow _ _ _ _ _ E1 Hnd) as [_ Hall]. now apply Hall.
+  Qed.
+
+  Lemma tpm_inv s ow rphs : forall sw sw' evs r,
+    teardown_phases_m force sw s ow rphs = (sw', evs, r) ->
+    sw_sets sw' = sw_sets sw /\ sw_nss sw' = sw_nss sw /\
+    Forall (fun e => In (ev_key e) (local_keys ow rphs)) (member_evs evs) /\
+    (forall k, ~ In k (local_keys ow rphs) -> lookup k (w_store (sw_w sw')) = lookup k (w_store (sw_w sw))) /\
+    (forall kind ns name, ~ (kind = phase_kind s /\ ns = oi_ns (os_id s) /\ In name (delegated_names s rphs)) ->
+       find_phase (sw_phases sw') kind ns name = find_phase (sw_phases sw) kind ns name).
+  Proof.
+    induction rphs as [|ph rest IH]; intros sw sw' evs r H.
+    - cbn in H. injection H as <- <- _. repeat split; auto; constructor.
+    - rewrite tpm_cons in H. destruct (td_step sw s ow ph) as [[sw1 e1] r1] eqn:E1.
+      destruct (td_step_inv _ _ _ _ _ _ _ E1) as (Hse & Hns & Hev & Hst & Hfr & _).
+      assert (Hm1 : Forall (fun e => In (ev_key e) (local_keys ow (ph :: rest))) (member_evs e1)).
+      { destruct (ph_class ph) eqn:Ecl.
+        - rewrite (only_phase_members _ _ Hev). constructor.
+        - destruct Hev as (e' & -> & He'). rewrite member_evs_members. rewrite (local_keys_cons_local _ _ _ Ecl).
+          eapply Forall_impl; [|exact He']. cbn. intros e He. apply in_or_app. now left. }
+      assert (Hst1 : forall k, ~ In k (local_keys ow (ph :: rest)) -> lookup k (w_store (sw_w sw1)) = lookup k (w_store (sw_w sw))).
+      { intros k Hk. apply Hst. intros Ecl Hin. apply Hk. rewrite (local_keys_cons_local _ _ _ Ecl). apply in_or_app. now left. }
+      assert (Hfr1 : forall kind ns name, ~ (kind = phase_kind s /\ ns = oi_ns (os_id s) /\ In name (delegated_names s (ph :: rest))) ->
+                find_phase (sw_phases sw1) kind ns name = find_phase (sw_phases sw) kind ns name).
+      { intros kind ns name Hno. apply Hfr. intros Ecl.
+        destruct ((phase_kind s =? kind) && (oi_ns (os_id s) =? ns) && (pobj_name s ph =? name)) eqn:E; [|reflexivity].
+        exfalso. apply Hno. apply andb_true_iff in E. destruct E as [E E3]. apply andb_true_iff in E. destruct E as [E1' E2].
+        apply N.eqb_eq in E1', E2, E3. subst. rewrite (delegated_names_cons_remote _ _ _ Ecl). repeat split; auto. now left. }
+      destruct r1 as [|[|]]; try (injection H as <- <- _; repeat split; auto).
+      destruct (teardown_phases_m force sw1 s ow rest) as [[sw2 e2] r2] eqn:E2. injection H as <- <- _.
+      destruct (IH _ _ _ _ E2) as (Hse2 & Hns2 & Hm2 & Hst2 & Hfr2).
+      assert (Hsub : forall k, In k (local_keys ow rest) -> In k (local_keys ow (ph :: rest))).
+      { intros k Hk. destruct (ph_class ph) eqn:Ecl; [now rewrite (local_keys_cons_remote _ _ _ Ecl)|].
+        rewrite (local_keys_cons_local _ _ _ Ecl). apply in_or_app. now right. }
+      assert (Hsubn : forall n, In n (delegated_names s rest) -> In n (delegated_names s (ph :: rest))).
+      { intros n Hn. destruct (ph_class ph) eqn:Ecl; [rewrite (delegated_names_cons_remote _ _ _ Ecl); now right|].
+        now rewrite (delegated_names_cons_local _ _ _ Ecl). }
+      split; [congruence|]. split; [congruence|]. rewrite member_evs_app. split; [|split].
+      + apply Forall_app. split; [exact Hm1|]. eapply Forall_impl; [|exact Hm2]. cbn. intros e He. now apply Hsub.
+      + intros k Hk. rewrite Hst2; [now apply Hst1|]. intros Hin. apply Hk. now apply Hsub.
+      + intros kind ns name Hno. rewrite Hfr2; [now apply Hfr1|]. intros (H1 & H2 & H3). apply Hno. repeat split; auto.
+  Qed.
+
+  Lemma phase_gone_frame sw sw2 s ow q :
+    (forall k, In k (phase_keys ow q) -> ph_class q = false -> lookup k (w_store (sw_w sw2)) = lookup k (w_store (sw_w sw))) ->
+    (ph_class q = true -> phase_obj_of sw2 s q = phase_obj_of sw s q) ->
+    phase_gone sw s ow q -> phase_gone sw2 s ow q.
+  Proof.
+    unfold phase_gone, remote_gone. intros Hst Hfr. destruct (ph_class q) eqn:Ecl.
+    - now rewrite (Hfr eq_refl).
+    - intros Hg p Hp. pose proof (Hg p Hp) as Hd. unfold td_obj_done in *. destruct Hd as [Hd|Hd]; [now left|right].
+      rewrite Hst; auto. unfold phase_keys. now apply in_map.
+  Qed.
+
+  (** A step's events write to no other listed phase. *)
+  Lemma td_step_touch_nothing sw s ow q0 ph rest sw1 e1 r1 :
+    td_step sw s ow q0 = (sw1, e1, r1) -> In ph rest ->
+    NoDup (local_keys ow (q0 :: rest)) -> NoDup (delegated_names s (q0 :: rest)) ->
+    Forall (fun e => ~ touches s ow ph e) e1.
+  Proof.
+    intros E1 Hin Hnd Hndn. destruct (td_step_inv _ _ _ _ _ _ _ E1) as (_ & _ & Hev & _).
+    destruct (ph_class q0) eqn:Ecl.
+    - rewrite (delegated_names_cons_remote _ _ _ Ecl) in Hndn. inversion Hndn; subst.
+      eapply remote_evs_touch_nothing; eauto.
+    - destruct Hev as (e' & -> & He'). rewrite (local_keys_cons_local _ _ _ Ecl) in Hnd.
+      eapply local_evs_touch_nothing; eauto. intros k Hk. eapply NoDup_app_disj; eauto.
+  Qed.
+
+  Lemma nodup_tail_local ow ph rest : NoDup (local_keys ow (ph :: rest)) -> NoDup (local_keys ow rest) /\ (ph_class ph = false -> NoDup (phase_keys ow ph)).
+  Proof.
+    destruct (ph_class ph) eqn:Ecl.
+    - rewrite (local_keys_cons_remote _ _ _ Ecl). intros H. split; [assumption|discriminate].
+    - rewrite (local_keys_cons_local _ _ _ Ecl). intros H. split; [eapply NoDup_app_r; eauto|intros _; eapply NoDup_app_l; eauto].
+  Qed.
+  Lemma nodup_tail_names s ph rest : NoDup (delegated_names s (ph :: rest)) -> NoDup (delegated_names s rest).
+  Proof.
+    destruct (ph_class ph) eqn:Ecl.
+    - rewrite (delegated_names_cons_remote _ _ _ Ecl). intros H. now inversion H.
+    - now rewrite (delegated_names_cons_local _ _ _ Ecl).
+  Qed.
+
+  (** The rest of the loop leaves a finished phase as it is. *)
+  Lemma tpm_keeps_gone s ow q0 rest sw1 sw2 e2 r2 :
+    teardown_phases_m force sw1 s ow rest = (sw2, e2, r2) ->
+    NoDup (local_keys ow (q0 :: rest)) -> NoDup (delegated_names s (q0 :: rest)) ->
+    phase_gone sw1 s ow q0 -> phase_gone sw2 s ow q0.
+  Proof.
+    intros E2 Hnd Hndn. destruct (tpm_inv _ _ _ _ _ _ _ E2) as (_ & _ & _ & Hst & Hfr).
+    apply phase_gone_frame.
+    - intros k Hk Ecl. apply Hst. rewrite (local_keys_cons_local _ _ _ Ecl) in Hnd. eapply NoDup_app_disj; eauto.
+    - intros Ecl. unfold phase_obj_of. apply Hfr. intros (_ & _ & Hin).
+      rewrite (delegated_names_cons_remote _ _ _ Ecl) in Hndn. inversion Hndn; subst. contradiction.
+  Qed.
+
+  Lemma nodup_phase_keys_local ow ph rest : NoDup (local_keys ow (ph :: rest)) -> ph_class ph = true \/ NoDup (phase_keys ow ph).
+  Proof. intros H. destruct (ph_class ph) eqn:E; [now left|right]. now apply (proj2 (nodup_tail_local _ _ _ H)). Qed.
+
+  Lemma td_step_gone sw s ow ph rest sw1 e1 :
+    td_step sw s ow ph = (sw1, e1, TdOk true) -> NoDup (local_keys ow (ph :: rest)) -> phase_gone sw1 s ow ph.
+  Proof.
+    intros E1 Hnd. destruct (td_step_inv _ _ _ _ _ _ _ E1) as (_ & _ & _ & _ & _ & Hg).
+    destruct (ph_class ph) eqn:Ecl.
+    - unfold phase_gone in *. rewrite Ecl in *. unfold td_step in E1. rewrite Ecl in E1.
+      destruct (remote_teardown_inv _ _ _ _ _ _ E1) as (_ & _ & _ & _ & _ & Hok). destruct (Hok eq_refl) as (-> & Hg' & _). exact Hg'.
+    - apply (Hg eq_refl). now apply (proj2 (nodup_tail_local _ _ _ Hnd)).
+  Qed.
+
+  (** ** C04 for mixed phase lists: order. [rphs] is the list in teardown (reverse) order. If any request writes
+      to a phase, every phase torn down before it (every LATER phase of the ObjectSet) is finished: the objects
+      of a local phase are absent / no longer controlled (or excluded by the teardown preflight), the phase
+      object of a delegated phase is absent or not controlled by the ObjectSet. *)
+  Lemma tpm_order s ow rphs : forall sw sw' evs r,
+    teardown_phases_m force sw s ow rphs = (sw', evs, r) ->
+    NoDup (local_keys ow rphs) -> NoDup (delegated_names s rphs) ->
+    forall pre ph post, rphs = pre ++ ph :: post ->
+      Exists (touches s ow ph) evs ->
+      forall q, In q pre -> phase_gone sw' s ow q.
+  Proof.
+    induction rphs as [|ph0 rest IH]; intros sw sw' evs r H Hnd Hndn pre ph post Hsplit Hex q Hq.
+    - destruct pre; discriminate.
+    - destruct pre as [|q0 pre']; [contradiction|]. cbn in Hsplit. injection Hsplit as -> ->.
+      assert (Hph_in : In ph (pre' ++ ph :: post)) by (apply in_or_app; right; now left).
+      rewrite tpm_cons in H. destruct (td_step sw s ow q0) as [[sw1 e1] r1] eqn:E1.
+      pose proof (td_step_touch_nothing _ _ _ _ _ _ _ _ _ E1 Hph_in Hnd Hndn) as Hnot1.
+      destruct r1 as [|[|]]; try (injection H as <- <- _; exfalso; eapply exists_not; eauto).
+      destruct (teardown_phases_m force sw1 s ow (pre' ++ ph :: post)) as [[sw2 e2] r2] eqn:E2. injection H as <- <- _.
+      pose proof (exists_app_not _ _ _ Hex Hnot1) as Hex2.
+      destruct Hq as [<-|Hq].
+      + eapply tpm_keeps_gone; eauto. eapply td_step_gone; eauto.
+      + eapply (IH _ _ _ _ E2 (proj1 (nodup_tail_local _ _ _ Hnd)) (nodup_tail_names _ _ _ Hndn) pre' ph post eq_refl Hex2 q Hq).
+  Qed.
+
+  (** All phases done. *)
+  Lemma tpm_done s ow rphs : forall sw sw' evs,
+    teardown_phases_m force sw s ow rphs = (sw', evs, TdOk true) ->
+    NoDup (local_keys ow rphs) -> NoDup (delegated_names s rphs) ->
+    forall q, In q rphs -> phase_gone sw' s ow q.
+  Proof.
+    induction rphs as [|ph0 rest IH]; intros sw sw' evs H Hnd Hndn q Hq; [contradiction|].
+    rewrite tpm_cons in H. destruct (td_step sw s ow ph0) as [[sw1 e1] r1] eqn:E1.
+    destruct r1 as [|[|]]; try discriminate.
+    destruct (teardown_phases_m force sw1 s ow rest) as [[sw2 e2] r2] eqn:E2. injection H as <- _ ->.
+    destruct Hq as [<-|Hq].
+    - eapply tpm_keeps_gone; eauto. eapply td_step_gone; eauto.
+    - eapply IH; eauto; [exact (proj1 (nodup_tail_local _ _ _ Hnd))|exact (nodup_tail_names _ _ _ Hndn)].
+  Qed.
+
+  (** The same for the local phases alone; no hypothesis on the names of the delegated phases. *)
+  Lemma td_step_local_gone sw s ow ph sw1 e1 :
+    td_step sw s ow ph = (sw1, e1, TdOk true) -> ph_class ph = false -> NoDup (phase_keys ow ph) ->
+    forall p, In p (ph_objects ph) -> td_obj_done (sw_w sw1) ow p.
+  Proof.
+    intros E1 Hc Hnd. destruct (td_step_inv _ _ _ _ _ _ _ E1) as (_ & _ & _ & _ & _ & Hg).
+    specialize (Hg eq_refl Hnd). unfold phase_gone in Hg. now rewrite Hc in Hg.
+  Qed.
+
+  Lemma tpm_order_local s ow rphs : forall sw sw' evs r,
+    teardown_phases_m force sw s ow rphs = (sw', evs, r) ->
+    NoDup (local_keys ow rphs) ->
+    forall pre ph post, rphs = pre ++ ph :: post -> ph_class ph = false ->
+      Exists (fun e => In (ev_key e) (phase_keys ow ph)) (member_evs evs) ->
+      forall q p, In q pre -> ph_class q = false -> In p (ph_objects q) -> td_obj_done (sw_w sw') ow p.
+  Proof.
+    induction rphs as [|ph0 rest IH]; intros sw sw' evs r H Hnd pre ph post Hsplit Hcl Hex q p Hq Hcq Hp.
+    - destruct pre; discriminate.
+    - destruct pre as [|q0 pre']; [contradiction|]. cbn in Hsplit. injection Hsplit as -> ->.
+      assert (Hph_in : In ph (pre' ++ ph :: post)) by (apply in_or_app; right; now left).
+      rewrite tpm_cons in H. destruct (td_step sw s ow q0) as [[sw1 e1] r1] eqn:E1.
+      destruct (td_step_inv _ _ _ _ _ _ _ E1) as (_ & _ & Hev & _).
+      assert (Hnot1 : Forall (fun e => ~ In (ev_key e) (phase_keys ow ph)) (member_evs e1)).
+      { destruct (ph_class q0) eqn:Ecl.
+        - rewrite (only_phase_members _ _ Hev). constructor.
+        - destruct Hev as (e' & -> & He'). rewrite member_evs_members. rewrite (local_keys_cons_local _ _ _ Ecl) in Hnd.
+          eapply Forall_impl; [|exact He']. cbn. intros e He Hk. eapply NoDup_app_disj; [exact Hnd|exact He|]. eapply in_local_keys; eauto. }
+      destruct r1 as [|[|]]; try (injection H as <- <- _; exfalso; eapply exists_not; eauto).
+      destruct (teardown_phases_m force sw1 s ow (pre' ++ ph :: post)) as [[sw2 e2] r2] eqn:E2. injection H as <- <- _.
+      rewrite member_evs_app in Hex. pose proof (exists_app_not _ _ _ Hex Hnot1) as Hex2.
+      destruct Hq as [<-|Hq].
+      + pose proof (td_step_local_gone _ _ _ _ _ _ E1 Hcq (proj2 (nodup_tail_local _ _ _ Hnd) Hcq) p Hp) as Hd.
+        unfold td_obj_done in *. destruct Hd as [Hd|Hd]; [now left|right].
+        destruct (tpm_inv _ _ _ _ _ _ _ E2) as (_ & _ & _ & Hst & _). rewrite Hst; [exact Hd|].
+        rewrite (local_keys_cons_local _ _ _ Hcq) in Hnd. eapply NoDup_app_disj; [exact Hnd|]. unfold phase_keys. now apply in_map.
+      + eapply (IH _ _ _ _ E2 (proj1 (nodup_tail_local _ _ _ Hnd)) pre' ph post eq_refl Hcl Hex2 q p Hq Hcq Hp).
+  Qed.
+
+  Lemma tpm_done_local s ow rphs : forall sw sw' evs,
+    teardown_phases_m force sw s ow rphs = (sw', evs, TdOk true) ->
+    NoDup (local_keys ow rphs) ->
+    forall q p, In q rphs -> ph_class q = false -> In p (ph_objects q) -> td_obj_done (sw_w sw') ow p.
+  Proof.
+    induction rphs as [|ph0 rest IH]; intros sw sw' evs H Hnd q p Hq Hcq Hp; [contradiction|].
+    rewrite tpm_cons in H. destruct (td_step sw s ow ph0) as [[sw1 e1] r1] eqn:E1.
+    destruct r1 as [|[|]]; try discriminate.
+    destruct (teardown_phases_m force sw1 s ow rest) as [[sw2 e2] r2] eqn:E2. injection H as <- _ ->.
+    destruct Hq as [<-|Hq].
+    - pose proof (td_step_local_gone _ _ _ _ _ _ E1 Hcq (proj2 (nodup_tail_local _ _ _ Hnd) Hcq) p Hp) as Hd.
+      unfold td_obj_done in *. destruct Hd as [Hd|Hd]; [now left|right].
+      destruct (tpm_inv _ _ _ _ _ _ _ E2) as (_ & _ & _ & Hst & _). rewrite Hst; [exact Hd|].
+      rewrite (local_keys_cons_local _ _ _ Hcq) in Hnd. eapply NoDup_app_disj; [exact Hnd|]. unfold phase_keys. now apply in_map.
+    - eapply IH; eauto. exact (proj1 (nodup_tail_local _ _ _ Hnd)).
+  Qed.
+
+  (** A delegated phase counts as done only in a state in which its phase object is absent or not controlled by
+      the ObjectSet, and the step that finds it so sends no request: after a Delete the step reports "not done". *)
+  Lemma remote_teardown_waits sw s ph sw1 e1 :
+    remote_teardown sw s ph = (sw1, e1, TdOk true) ->
+    sw1 = sw /\ remote_gone sw s ph /\ Forall (fun e => ~ is_write_on (pobj_name s ph) e) e1.
+  Proof. intros H. destruct (remote_teardown_inv _ _ _ _ _ _ H) as (_ & _ & _ & _ & _ & Hok). now apply Hok. Qed.
+
+End Mixed.
+(** * Inversion of one active pass *)
+Section PassInversion.
+  Variable force : bool.
 
   Lemma update_status_store sw m sw' m' ok :
-    update_status sw m = (sw', m', ok) -> w_store (sw_w sw') = w_store (sw_w sw).
+    update_status sw m = (sw', m', ok) ->
+    w_store (sw_w sw') = w_store (sw_w sw) /\ sw_phases sw' = sw_phases sw /\ sw_nss sw' = sw_nss sw.
   Proof.
     unfold update_status. destruct (find_set _ _ _ _) as [st|]; [|intros H; now injection H as <- _ _].
     destruct (negb _); [intros H; now injection H as <- _ _|].
-    destruct (status_eqb st m); intros H; injection H as <- _ _; reflexivity.
+    destruct (status_eqb st m); intros H; injection H as <- _ _; auto.
   Qed.
 
   Lemma patch_finalizer_store sw m fin sw' r :
-    patch_finalizer sw m fin = (sw', r) -> w_store (sw_w sw') = w_store (sw_w sw).
+    patch_finalizer sw m fin = (sw', r) ->
+    w_store (sw_w sw') = w_store (sw_w sw) /\ sw_phases sw' = sw_phases sw /\ sw_nss sw' = sw_nss sw.
   Proof.
     unfold patch_finalizer. destruct (find_set _ _ _ _) as [st|]; [|intros H; now injection H as <- _].
     destruct (negb (os_rv st =? os_rv m)); [intros H; now injection H as <- _|].
-    destruct (negb fin && os_deleting st && negb (os_orphan st)); intros H; injection H as <- _; reflexivity.
+    destruct (negb fin && os_deleting st && negb (os_orphan st)); intros H; injection H as <- _; auto.
   Qed.
 
   (** Facts about the in-memory copy that stay fixed through finalizer and revision handling. *)
@@ -735,6 +1776,8 @@ Section PassInversion.
     destruct (status_eqb m m1); intros H; injection H as _ <- _; repeat split; try assumption; reflexivity.
   Qed.
 
+  (** Requests of a pass that stops before the phase loop: finalizer, reads of phase objects (for the Paused
+      condition) and status requests that re-send Available / Succeeded unchanged or report Available=False. *)
   Definition status_keeps (mem0 : oset) (e : sev) : Prop :=
     match e with
     | SMeta (MStatus _ conds _ _ fph _) =>
@@ -743,153 +1786,159 @@ Section PassInversion.
          exists cd, find_cond conds CAvailable = Some cd /\ cd_status cd = SFalse) /\
         find_cond conds CSucceeded = find_cond (os_conds mem0) CSucceeded
     | SMeta (MFinalizer _ _) => True
+    | SPhase (PGet _ _) => True
+    | SPhase _ => False
     | SMember _ => False
     end.
+
+  Lemma paused_reads_keep mem0 phs m : Forall (status_keeps mem0) (paused_reads phs m).
+  Proof.
+    unfold paused_reads. generalize (os_remotes m). intros refs. induction refs as [|x xs IH]; cbn; [constructor|].
+    destruct (find_phase phs _ _ (fst x)); constructor; try exact I; [exact IH|constructor].
+  Qed.
 
   Lemma revision_pass_inv sw mem sw1 evs1 mem1 rr :
     find_set (sw_sets sw) (oi_kind (os_id mem)) (oi_ns (os_id mem)) (oi_name (os_id mem)) = Some mem ->
     revision_pass sw mem = (sw1, evs1, mem1, rr) ->
-    same_spec mem1 mem /\ w_store (sw_w sw1) = w_store (sw_w sw) /\ Forall (status_keeps mem) evs1.
+    same_spec mem1 mem /\ w_store (sw_w sw1) = w_store (sw_w sw) /\ sw_phases sw1 = sw_phases sw /\ sw_nss sw1 = sw_nss sw /\
+    Forall (status_keeps mem) evs1.
   Proof.
     intros Hf. unfold revision_pass.
     destruct (negb (Z.eqb (os_revision mem) 0)); [intros H; injection H as <- <- <- _; repeat split; constructor|].
     destruct (os_prev mem) eqn:Epv; [intros H; injection H as <- <- <- _; repeat split; try constructor; auto|].
     destruct (scan_prev _ _ _ _) as [[latest|]|].
     - destruct (update_status sw (set_revision mem (latest + 1))) as [[sw2 m2] ok] eqn:Eu.
-      intros H; injection H as <- <- <- _. split; [|split].
+      intros H; injection H as <- <- <- _. destruct (update_status_store _ _ _ _ _ Eu) as (H1 & H2 & H3).
+      split; [|split; [exact H1|split; [exact H2|split; [exact H3|]]]].
       + eapply (update_status_same _ _ _ _ _ Hf (set_revision mem (latest + 1))); eauto; repeat split; auto.
-      + eapply update_status_store; eauto.
       + constructor; [|constructor]. cbn. split; [reflexivity|]. split; [now left|reflexivity].
     - intros H; injection H as <- <- <- _; repeat split; constructor.
     - intros H; injection H as <- <- <- _; repeat split; constructor.
   Qed.
 
-  (** The outcome of an active pass, as far as member objects and the final status are concerned. *)
-  Definition reached_phases (sw : sworld) (mem0 : oset) (sw' : sworld) (evs : list sev) (r : sres) : Prop :=
-    exists mem1 w0 sets1 w2 pr pre,
-      os_id mem1 = os_id mem0 /\ os_phases mem1 = os_phases mem0 /\ os_life mem1 = os_life mem0 /\
-      os_gen mem1 = os_gen mem0 /\ os_conds mem1 = os_conds mem0 /\
-      w_store w0 = w_store (sw_w sw) /\ dup_count [] (map (spec_key mem1) (all_objects mem1)) = O /\
-      reconcile_phases force w0 (as_owner mem1) (lookup_prev sets1 mem1) (local_phases mem1) [] = (w2, member_evs evs, pr) /\
-      w_store (sw_w sw') = w_store w2 /\ member_evs pre = [] /\
-      match pr with
-      | PROk ctrlof failed => exists ok, evs = pre ++ map SMember (member_evs evs) ++ [status_ev_f (final_status mem1 ctrlof failed) failed ok]
-      | PRPreflight => exists ok m', evs = pre ++ map SMember (member_evs evs) ++ [status_ev m' ok] /\
-                                     find_cond (os_conds m') CAvailable = Some (mk_cond mem1 CAvailable SFalse RPreflightError)
-      | PRErr e =>
-          if match e with ErrNotPrevious | ErrRevCollision => true | _ => false end
-          then exists ok m', evs = pre ++ map SMember (member_evs evs) ++ [status_ev m' ok] /\
-                             find_cond (os_conds m') CAvailable = Some (mk_cond mem1 CAvailable SFalse RCollisionDetected)
-          else evs = pre ++ map SMember (member_evs evs) /\ r = SError
-      end.
-
-  Definition stopped_early (sw : sworld) (mem0 : oset) (sw' : sworld) (evs : list sev) : Prop :=
-    w_store (sw_w sw') = w_store (sw_w sw) /\ Forall (status_keeps mem0) evs.
-
   Lemma status_keeps_members mem0 evs : Forall (status_keeps mem0) evs -> member_evs evs = [].
   Proof.
     induction evs as [|e evs IH]; intros H; [reflexivity|]. inversion H as [|? ? He Hr]; subst.
-    destruct e as [x|m]; [contradiction|]. cbn. now apply IH.
+    destruct e as [x|m|p]; [contradiction| |]; cbn; now apply IH.
   Qed.
 
   Lemma status_keeps_same a b e :
     find_cond (os_conds a) CAvailable = find_cond (os_conds b) CAvailable ->
     find_cond (os_conds a) CSucceeded = find_cond (os_conds b) CSucceeded ->
     status_keeps a e -> status_keeps b e.
-  Proof. intros H1 H2. destruct e as [x|[|]]; cbn; auto. intros (Hf & Ha & Hs). rewrite <- H1, <- H2. auto. Qed.
+  Proof. intros H1 H2. destruct e as [x|[|]|p]; cbn; auto. intros (Hf & Ha & Hs). rewrite <- H1, <- H2. auto. Qed.
+
+  (** The outcome of the phase loop and what follows it. [mem2] is the in-memory ObjectSet with the remote phase
+      references gathered by the loop. *)
+  Definition after_loop (mem0 mem1 : oset) (sw2 : sworld) (pre pevs : list sev) (rem : list (N * N)) (pr : mres)
+             (evs : list sev) (r : sres) : Prop :=
+    let mem2 := set_remotes mem1 rem in
+    match pr with
+    | MOk ctrlof failed =>
+        exists ok, evs = pre ++ pevs ++ paused_reads (sw_phases sw2) mem2 ++
+                         [status_ev_f (final_status (sw_phases sw2) mem2 ctrlof failed) failed ok] /\
+                   r = (if ok then SDone false else SError)
+    | MPreflight =>
+        exists ok m', evs = pre ++ pevs ++ [status_ev m' ok] /\
+          find_cond (os_conds m') CAvailable = Some (mk_cond mem1 CAvailable SFalse RPreflightError) /\
+          find_cond (os_conds m') CSucceeded = find_cond (os_conds mem0) CSucceeded /\
+          r = (if ok then SDone true else SError)
+    | MErr e =>
+        if match e with ErrNotPrevious | ErrRevCollision => true | _ => false end
+        then exists ok m', evs = pre ++ pevs ++ [status_ev m' ok] /\
+               find_cond (os_conds m') CAvailable = Some (mk_cond mem1 CAvailable SFalse RCollisionDetected) /\
+               find_cond (os_conds m') CSucceeded = find_cond (os_conds mem0) CSucceeded /\
+               r = (if ok then SDone true else SError)
+        else evs = pre ++ pevs /\ r = SError
+    | MRemoteErr => evs = pre ++ pevs /\ r = SError
+    end.
+
+  Definition reached_loop (sw0 : sworld) (mem0 : oset) (sw' : sworld) (evs : list sev) (r : sres) : Prop :=
+    exists mem1 sw1 sw2 pevs rem pr pre,
+      same_spec mem1 mem0 /\
+      w_store (sw_w sw1) = w_store (sw_w sw0) /\ sw_phases sw1 = sw_phases sw0 /\ sw_nss sw1 = sw_nss sw0 /\
+      dup_count [] (map (spec_key mem1) (all_objects mem1)) = O /\
+      reconcile_phases_m force sw1 mem1 (as_owner mem1) (lookup_prev (sw_sets sw1) mem1) (os_phases mem1) [] (os_remotes mem1)
+        = (sw2, pevs, rem, pr) /\
+      w_store (sw_w sw') = w_store (sw_w sw2) /\ sw_phases sw' = sw_phases sw2 /\ sw_nss sw' = sw_nss sw2 /\
+      Forall (status_keeps mem0) pre /\
+      after_loop mem0 mem1 sw2 pre pevs rem pr evs r.
+
+  Definition stopped_early (sw : sworld) (mem0 : oset) (sw' : sworld) (evs : list sev) : Prop :=
+    w_store (sw_w sw') = w_store (sw_w sw) /\ sw_phases sw' = sw_phases sw /\ sw_nss sw' = sw_nss sw /\
+    Forall (status_keeps mem0) evs.
 
   Lemma active_body_inv sw0 evs0 mem mem0 sw' evs r :
     find_set (sw_sets sw0) (oi_kind (os_id mem)) (oi_ns (os_id mem)) (oi_name (os_id mem)) = Some mem ->
     same_spec mem mem0 -> Forall (status_keeps mem0) evs0 ->
     active_body force sw0 evs0 mem = (sw', evs, r) ->
-    (w_store (sw_w sw') = w_store (sw_w sw0) /\ Forall (status_keeps mem0) evs) \/
-    exists mem1 w0 sets1 w2 pr pre,
-      same_spec mem1 mem0 /\
-      w_store w0 = w_store (sw_w sw0) /\ dup_count [] (map (spec_key mem1) (all_objects mem1)) = O /\
-      reconcile_phases force w0 (as_owner mem1) (lookup_prev sets1 mem1) (local_phases mem1) [] = (w2, member_evs evs, pr) /\
-      w_store (sw_w sw') = w_store w2 /\ Forall (status_keeps mem0) pre /\
-      match pr with
-      | PROk ctrlof failed => exists ok, evs = pre ++ map SMember (member_evs evs) ++ [status_ev_f (final_status mem1 ctrlof failed) failed ok] /\ r = (if ok then SDone false else SError)
-      | PRPreflight => exists ok m', evs = pre ++ map SMember (member_evs evs) ++ [status_ev m' ok] /\
-                                     find_cond (os_conds m') CAvailable = Some (mk_cond mem1 CAvailable SFalse RPreflightError) /\
-                                     r = (if ok then SDone true else SError)
-      | PRErr e =>
-          if match e with ErrNotPrevious | ErrRevCollision => true | _ => false end
-          then exists ok m', evs = pre ++ map SMember (member_evs evs) ++ [status_ev m' ok] /\
-                             find_cond (os_conds m') CAvailable = Some (mk_cond mem1 CAvailable SFalse RCollisionDetected) /\
-                             r = (if ok then SDone true else SError)
-          else evs = pre ++ map SMember (member_evs evs) /\ r = SError
-      end.
+    stopped_early sw0 mem0 sw' evs \/ reached_loop sw0 mem0 sw' evs r.
   Proof.
     intros Hf Hs0 Hev0. unfold active_body.
     destruct (revision_pass sw0 mem) as [[[sw1 evs1] mem1] rr] eqn:Erev.
-    destruct (revision_pass_inv _ _ _ _ _ _ Hf Erev) as (Hs1 & Hst1 & Hev1).
+    destruct (revision_pass_inv _ _ _ _ _ _ Hf Erev) as (Hs1 & Hst1 & Hph1 & Hns1 & Hev1).
     assert (Hs10 : same_spec mem1 mem0).
     { destruct Hs1 as (?&?&?&?&?&?&?), Hs0 as (?&?&?&?&?&?&?). repeat split; congruence. }
     assert (Hev1' : Forall (status_keeps mem0) evs1).
     { eapply Forall_impl; [|exact Hev1]. intros e. apply status_keeps_same; destruct Hs0 as (?&?&?&?&?&Hc&?); now rewrite Hc. }
     assert (Hpre : Forall (status_keeps mem0) (evs0 ++ evs1)) by (apply Forall_app; auto).
     assert (Hcond1 : os_conds mem1 = os_conds mem0) by (destruct Hs10 as (?&?&?&?&?&?&?); assumption).
-    assert (Hfail : forall sw2 evsx rs swf evsf rf,
-              (let m' := set_conds mem1 (set_cond (os_conds mem1) (mk_cond mem1 CAvailable SFalse rs)) in
+    assert (Hfail : forall (mx : oset) sw2 evsx rs swf evsf rf, os_conds mx = os_conds mem1 -> os_gen mx = os_gen mem1 ->
+              (let m' := set_conds mx (set_cond (os_conds mx) (mk_cond mx CAvailable SFalse rs)) in
                let '(sw'', _, ok) := update_status sw2 m' in
                (sw'', evsx ++ [status_ev m' ok], if ok then SDone true else SError)) = (swf, evsf, rf) ->
-              w_store (sw_w swf) = w_store (sw_w sw2) /\
+              (w_store (sw_w swf) = w_store (sw_w sw2) /\ sw_phases swf = sw_phases sw2 /\ sw_nss swf = sw_nss sw2) /\
               exists ok m', evsf = evsx ++ [status_ev m' ok] /\
                 find_cond (os_conds m') CAvailable = Some (mk_cond mem1 CAvailable SFalse rs) /\
                 find_cond (os_conds m') CSucceeded = find_cond (os_conds mem0) CSucceeded /\
                 rf = (if ok then SDone true else SError)).
-    { intros sw2 evsx rs swf evsf rf. cbv zeta.
+    { intros mx sw2 evsx rs swf evsf rf Hcx Hgx. cbv zeta.
       destruct (update_status sw2 _) as [[sw3 m3] ok] eqn:Eu. intros H. injection H as <- <- <-.
       split; [eapply update_status_store; eauto|]. exists ok. eexists. split; [reflexivity|]. cbn [os_conds set_conds].
-      split; [apply (find_set_cond_same _ (mk_cond mem1 CAvailable SFalse rs))|].
-      split; [rewrite find_set_cond_other by (cbn; discriminate); now rewrite Hcond1|]. reflexivity. }
+      split; [rewrite (find_set_cond_same _ (mk_cond mx CAvailable SFalse rs)); unfold mk_cond; now rewrite Hgx|].
+      split; [rewrite find_set_cond_other by (cbn; discriminate); now rewrite Hcx, Hcond1|]. reflexivity. }
     destruct rr.
     - (* RevGo *)
       destruct (Nat.ltb 0 (dup_count [] (map (spec_key mem1) (all_objects mem1)))) eqn:Edup.
-      + intros H. destruct (Hfail _ _ _ _ _ _ H) as (Hst & ok & m' & -> & Ha & Hsu & _).
-        left. split; [congruence|]. apply Forall_app. split; [assumption|]. constructor; [|constructor].
+      + intros H. destruct (Hfail mem1 _ _ _ _ _ _ eq_refl eq_refl H) as ((Hst & Hph & Hns) & ok & m' & -> & Ha & Hsu & _).
+        left. split; [congruence|]. split; [congruence|]. split; [congruence|].
+        apply Forall_app. split; [assumption|]. constructor; [|constructor].
         cbn. split; [reflexivity|]. split; [right; eexists; split; [exact Ha|reflexivity]|assumption].
       + apply Nat.ltb_ge in Edup. assert (Hdup : dup_count [] (map (spec_key mem1) (all_objects mem1)) = O) by lia.
-        destruct (reconcile_phases force (sw_w sw1) (as_owner mem1) _ _ []) as [[w2 pevs] pr] eqn:Erp.
+        destruct (reconcile_phases_m force sw1 mem1 (as_owner mem1) _ _ [] (os_remotes mem1)) as [[[sw2 pevs] rem] pr] eqn:Erp.
         intros H. right.
-        assert (Hmem : forall tail, member_evs tail = [] -> member_evs ((evs0 ++ evs1 ++ map SMember pevs) ++ tail) = pevs).
-        { intros tail Ht. rewrite !member_evs_app, Ht, member_evs_members, (status_keeps_members _ _ Hev0), (status_keeps_members _ _ Hev1'). cbn. now rewrite app_nil_r. }
-        destruct pr as [e| |ctrlof failed].
+        exists mem1, sw1, sw2, pevs, rem, pr, (evs0 ++ evs1).
+        split; [exact Hs10|]. split; [exact Hst1|]. split; [exact Hph1|]. split; [exact Hns1|]. split; [exact Hdup|]. split; [exact Erp|].
+        unfold after_loop.
+        destruct pr as [e| | |ctrlof failed].
         * destruct (match e with ErrNotPrevious | ErrRevCollision => true | _ => false end) eqn:Ecoll.
-          -- assert (H' : (let m' := set_conds mem1 (set_cond (os_conds mem1) (mk_cond mem1 CAvailable SFalse RCollisionDetected)) in
-                          let '(sw'', _, ok) := update_status (with_w sw1 w2) m' in
-                          (sw'', (evs0 ++ evs1 ++ map SMember pevs) ++ [status_ev m' ok], if ok then SDone true else SError)) = (sw', evs, r))
+          -- assert (H' : (let m' := set_conds (set_remotes mem1 rem) (set_cond (os_conds (set_remotes mem1 rem)) (mk_cond (set_remotes mem1 rem) CAvailable SFalse RCollisionDetected)) in
+                          let '(sw'', _, ok) := update_status sw2 m' in
+                          (sw'', (evs0 ++ evs1 ++ pevs) ++ [status_ev m' ok], if ok then SDone true else SError)) = (sw', evs, r))
                by (destruct e; try discriminate; exact H).
-             destruct (Hfail _ _ _ _ _ _ H') as (Hst & ok & m' & -> & Ha & Hsu & ->).
-             exists mem1, (sw_w sw1), (sw_sets sw1), w2, (PRErr e), (evs0 ++ evs1).
-             rewrite (Hmem [status_ev m' ok] eq_refl). split; [exact Hs10|]. repeat split; auto.
-             rewrite Ecoll. exists ok, m'. rewrite <- !app_assoc. auto.
-          -- assert (H' : (with_w sw1 w2, evs0 ++ evs1 ++ map SMember pevs, SError) = (sw', evs, r))
+             destruct (Hfail (set_remotes mem1 rem) _ _ _ _ _ _ eq_refl eq_refl H') as ((Hst & Hph & Hns) & ok & m' & -> & Ha & Hsu & ->).
+             split; [exact Hst|]. split; [exact Hph|]. split; [exact Hns|]. split; [exact Hpre|].
+             exists ok, m'. rewrite <- !app_assoc. auto.
+          -- assert (H' : (sw2, evs0 ++ evs1 ++ pevs, SError) = (sw', evs, r))
                by (destruct e; try discriminate; exact H).
-             injection H' as <- <- <-.
-             exists mem1, (sw_w sw1), (sw_sets sw1), w2, (PRErr e), (evs0 ++ evs1).
-             replace (evs0 ++ evs1 ++ map SMember pevs) with ((evs0 ++ evs1 ++ map SMember pevs) ++ []) by apply app_nil_r.
-             rewrite (Hmem [] eq_refl). rewrite app_nil_r. split; [exact Hs10|]. repeat split; auto.
-             rewrite Ecoll. rewrite <- app_assoc. auto.
-        * destruct (Hfail _ _ _ _ _ _ H) as (Hst & ok & m' & -> & Ha & Hsu & ->).
-          exists mem1, (sw_w sw1), (sw_sets sw1), w2, PRPreflight, (evs0 ++ evs1).
-          rewrite (Hmem [status_ev m' ok] eq_refl). split; [exact Hs10|]. repeat split; auto.
+             injection H' as <- <- <-. repeat split; auto. now rewrite <- app_assoc.
+        * injection H as <- <- <-. repeat split; auto. now rewrite <- app_assoc.
+        * destruct (Hfail (set_remotes mem1 rem) _ _ _ _ _ _ eq_refl eq_refl H) as ((Hst & Hph & Hns) & ok & m' & -> & Ha & Hsu & ->).
+          split; [exact Hst|]. split; [exact Hph|]. split; [exact Hns|]. split; [exact Hpre|].
           exists ok, m'. rewrite <- !app_assoc. auto.
-        * destruct (update_status (with_w sw1 w2) (final_status mem1 ctrlof failed)) as [[sw3 m3] ok] eqn:Eu.
-          injection H as <- <- <-.
-          exists mem1, (sw_w sw1), (sw_sets sw1), w2, (PROk ctrlof failed), (evs0 ++ evs1).
-          rewrite (Hmem [status_ev_f (final_status mem1 ctrlof failed) failed ok] eq_refl).
-          split; [exact Hs10|]. repeat split; auto.
-          -- rewrite (update_status_store _ _ _ _ _ Eu). reflexivity.
-          -- exists ok. rewrite <- !app_assoc. auto.
+        * destruct (update_status sw2 (final_status (sw_phases sw2) (set_remotes mem1 rem) ctrlof failed)) as [[sw3 m3] ok] eqn:Eu.
+          injection H as <- <- <-. destruct (update_status_store _ _ _ _ _ Eu) as (Hst & Hph & Hns).
+          split; [exact Hst|]. split; [exact Hph|]. split; [exact Hns|]. split; [exact Hpre|].
+          exists ok. rewrite <- !app_assoc. auto.
     - (* RevRequeue *)
       destruct (update_status sw1 _) as [[sw2 m2] ok] eqn:Eu. intros H. injection H as <- <- <-.
-      left. split; [rewrite (update_status_store _ _ _ _ _ Eu); exact Hst1|].
-      rewrite app_assoc. apply Forall_app. split; [assumption|]. constructor; [|constructor].
+      destruct (update_status_store _ _ _ _ _ Eu) as (Hst & Hph & Hns).
+      left. split; [congruence|]. split; [congruence|]. split; [congruence|].
+      rewrite app_assoc. apply Forall_app. split; [assumption|]. apply Forall_app. split; [apply paused_reads_keep|].
+      constructor; [|constructor].
       unfold status_ev, status_ev_f, status_keeps. cbn [os_conds set_conds]. rewrite !paused_cond_other by discriminate. rewrite Hcond1. auto.
     - (* RevErr *)
-      intros H. injection H as <- <- <-. left. split; [exact Hst1|assumption].
+      intros H. injection H as <- <- <-. left. repeat split; auto.
   Qed.
 End PassInversion.
 
@@ -922,30 +1971,12 @@ Section SetLevel.
   Lemma same_spec_refl m : same_spec m m.
   Proof. repeat split. Qed.
 
-  (** An active pass either stops before the phase loop (no member request, stored Available/Succeeded
-      conditions re-sent unchanged or Available=False) or reaches the phase loop as described by
-      [active_body_inv]. *)
+  (** An active pass either stops before the phase loop (no member request, no write to a phase object, stored
+      Available/Succeeded conditions re-sent unchanged or Available=False) or reaches the phase loop. *)
   Lemma objectset_pass_active sw k ns n mem0 sw' evs r :
     find_set (sw_sets sw) k ns n = Some mem0 -> is_active mem0 ->
     objectset_pass force sw k ns n = (sw', evs, r) ->
-    (w_store (sw_w sw') = w_store (sw_w sw) /\ Forall (status_keeps mem0) evs) \/
-    exists mem1 w0 sets1 w2 pr pre,
-      same_spec mem1 mem0 /\
-      w_store w0 = w_store (sw_w sw) /\ dup_count [] (map (spec_key mem1) (all_objects mem1)) = O /\
-      reconcile_phases force w0 (as_owner mem1) (lookup_prev sets1 mem1) (local_phases mem1) [] = (w2, member_evs evs, pr) /\
-      w_store (sw_w sw') = w_store w2 /\ Forall (status_keeps mem0) pre /\
-      match pr with
-      | PROk ctrlof failed => exists ok, evs = pre ++ map SMember (member_evs evs) ++ [status_ev_f (final_status mem1 ctrlof failed) failed ok] /\ r = (if ok then SDone false else SError)
-      | PRPreflight => exists ok m', evs = pre ++ map SMember (member_evs evs) ++ [status_ev m' ok] /\
-                                     find_cond (os_conds m') CAvailable = Some (mk_cond mem1 CAvailable SFalse RPreflightError) /\
-                                     r = (if ok then SDone true else SError)
-      | PRErr e =>
-          if match e with ErrNotPrevious | ErrRevCollision => true | _ => false end
-          then exists ok m', evs = pre ++ map SMember (member_evs evs) ++ [status_ev m' ok] /\
-                             find_cond (os_conds m') CAvailable = Some (mk_cond mem1 CAvailable SFalse RCollisionDetected) /\
-                             r = (if ok then SDone true else SError)
-          else evs = pre ++ map SMember (member_evs evs) /\ r = SError
-      end.
+    stopped_early sw mem0 sw' evs \/ reached_loop force sw mem0 sw' evs r.
   Proof.
     intros Hfind (Harch & Hdel & Hlife). unfold objectset_pass. rewrite Hfind, Harch, Hdel.
     assert (lifecycle_eqb (os_life mem0) LArchived = false) as -> by (destruct (os_life mem0); try reflexivity; congruence).
@@ -955,42 +1986,42 @@ Section SetLevel.
     destruct (os_fin mem0).
     - intros H. exact (active_body_inv force sw [] mem0 mem0 sw' evs r Hf0 (same_spec_refl _) (Forall_nil _) H).
     - destruct (patch_finalizer sw mem0 true) as [sw0 [m|]] eqn:Ep.
-      + pose proof (patch_finalizer_store _ _ _ _ _ Ep) as Hst.
+      + destruct (patch_finalizer_store _ _ _ _ _ Ep) as (Hst & Hph & Hnss).
         pose proof (patch_finalizer_same _ _ _ _ _ Hf0 Ep) as Hsm.
         assert (Hfm : find_set (sw_sets sw0) (oi_kind (os_id m)) (oi_ns (os_id m)) (oi_name (os_id m)) = Some m).
         { unfold patch_finalizer in Ep. rewrite Hf0, N.eqb_refl in Ep. cbn in Ep. injection Ep as <- <-. cbn [sw_sets os_id set_fin].
           apply (find_put_set (sw_sets sw) (set_fin mem0 true (w_rv (sw_w sw))) mem0). exact Hf0. }
         intros H.
         assert (Hev0 : Forall (status_keeps mem0) [SMeta (MFinalizer true true)]) by (constructor; [exact I|constructor]).
-        destruct (active_body_inv force sw0 _ m mem0 sw' evs r Hfm Hsm Hev0 H) as [[Hs He]|Hr].
-        * left. split; [congruence|assumption].
-        * right. destruct Hr as (mem1 & w0 & sets1 & w2 & pr & pre & H1 & H2 & rest). exists mem1, w0, sets1, w2, pr, pre.
-          split; [assumption|]. split; [congruence|exact rest].
-      + intros H. injection H as <- <- <-. left. split; [eapply patch_finalizer_store; eauto|].
-        constructor; [exact I|constructor].
+        destruct (active_body_inv force sw0 _ m mem0 sw' evs r Hfm Hsm Hev0 H) as [(Hs1 & Hs2 & Hs3 & He)|Hr].
+        * left. repeat split; congruence.
+        * right. destruct Hr as (mem1 & sw1 & sw2 & pevs & rem & pr & pre & H1 & H2 & H3 & H4 & rest).
+          exists mem1, sw1, sw2, pevs, rem, pr, pre.
+          split; [assumption|]. split; [congruence|]. split; [congruence|]. split; [congruence|]. exact rest.
+      + intros H. injection H as <- <- <-. destruct (patch_finalizer_store _ _ _ _ _ Ep) as (Hst & Hph & Hnss).
+        left. repeat split; auto. constructor; [exact I|constructor].
   Qed.
 
-  (** Every phase completed. *)
-  Lemma rp_all_ok ow prev phs : forall w acc w' evs ctrlof,
-    reconcile_phases force w ow prev phs acc = (w', evs, PROk ctrlof None) ->
-    NoDup (flat_map (phase_keys ow) phs) -> forall q, In q phs -> phase_ok w' ow q.
+  (** The member requests of a pass that reached the loop are those of the loop. *)
+  Lemma after_loop_members mem0 mem1 sw2 pre pevs rem pr evs r :
+    Forall (status_keeps mem0) pre -> after_loop mem0 mem1 sw2 pre pevs rem pr evs r ->
+    member_evs evs = member_evs pevs.
   Proof.
-    induction phs as [|ph rest IH]; intros w acc w' evs ctrlof H Hnd q Hq; [contradiction|].
-    rewrite rp_cons in H. cbv zeta in H.
-    destruct (reconcile_phase _ idw w ow prev (ph_class ph) (ph_objects ph)) as [[w1 e1] r1] eqn:E1.
-    cbn in Hnd. pose proof (NoDup_app_r _ _ Hnd) as Hnd_rest. pose proof (NoDup_app_l _ _ Hnd) as Hnd0.
-    destruct r1 as [e|vs|actual failed]; [discriminate|discriminate|].
-    destruct failed as [|f fs]; [|discriminate].
-    destruct (reconcile_phases force w1 ow prev rest _) as [[w2 e2] r2] eqn:E2. injection H as <- _ ->.
-    destruct Hq as [<-|Hq]; [|eapply IH; eauto].
-    unfold reconcile_phase in E1. destruct (flat_map _ (ph_objects ph)); [|discriminate].
-    destruct (rec_objs_ok_present force ow prev _ _ _ _ _ _ _ E1 Hnd0) as [_ Hall].
-    intros p Hp. destruct (Hall p Hp) as (o & Ho & Hpr). exists o. split; [|assumption]. rewrite <- Ho.
-    eapply rp_frame; eauto. eapply NoDup_app_disj; [exact Hnd|]. unfold phase_keys. now apply in_map.
+    intros Hpre Hal. pose proof (status_keeps_members _ _ Hpre) as Hp. unfold after_loop in Hal.
+    assert (Hpr : forall phs m, member_evs (paused_reads phs m) = []) by (intros; eapply status_keeps_members; apply (paused_reads_keep mem0)).
+    destruct pr as [e| | |ctrlof failed].
+    - destruct (match e with ErrNotPrevious | ErrRevCollision => true | _ => false end).
+      + destruct Hal as (ok & m' & -> & _). rewrite !member_evs_app, Hp. cbn. now rewrite app_nil_r.
+      + destruct Hal as [-> _]. now rewrite member_evs_app, Hp.
+    - destruct Hal as [-> _]. now rewrite member_evs_app, Hp.
+    - destruct Hal as (ok & m' & -> & _). rewrite !member_evs_app, Hp. cbn. now rewrite app_nil_r.
+    - destruct Hal as (ok & -> & _). rewrite !member_evs_app, Hp, Hpr. cbn. now rewrite app_nil_r.
   Qed.
 
   Definition desired_keys_nodup (mem : oset) : Prop :=
     NoDup (flat_map (phase_keys (as_owner mem)) (local_phases mem)).
+  (** The names of the phase objects of an ObjectSet's delegated phases are pairwise distinct (phase names are). *)
+  Definition phase_names_nodup (mem : oset) : Prop := NoDup (delegated_names mem (os_phases mem)).
 
   Lemma as_owner_keys m1 m0 : same_spec m1 m0 ->
     local_phases m1 = local_phases m0 /\ (forall p, key_of (as_owner m1) p = key_of (as_owner m0) p) /\
@@ -1008,8 +2039,103 @@ Section SetLevel.
     intros H. erewrite flat_map_ext; [exact H|]. intros ph. now apply phase_keys_same.
   Qed.
 
-  (** C03 for the controller: if any request of an active pass names an object of a phase, all objects of
-      all earlier phases are present afterwards and pass the availability probe. *)
+  Lemma names_same m1 m0 : same_spec m1 m0 -> delegated_names m1 (os_phases m1) = delegated_names m0 (os_phases m0).
+  Proof. intros (Hid & Hph & _). unfold delegated_names, pobj_name. now rewrite Hid, Hph. Qed.
+
+  Lemma phase_obj_same m1 m0 sw q : same_spec m1 m0 -> phase_obj_of sw m1 q = phase_obj_of sw m0 q.
+  Proof. intros (Hid & _). unfold phase_obj_of, pobj_name, phase_kind. now rewrite Hid. Qed.
+
+  Lemma phase_done_same m1 m0 sw sw' q : same_spec m1 m0 ->
+    w_store (sw_w sw') = w_store (sw_w sw) -> sw_phases sw' = sw_phases sw ->
+    phase_done sw m1 (as_owner m1) q -> phase_done sw' m0 (as_owner m0) q.
+  Proof.
+    intros Hs Hst Hph. unfold phase_done. destruct (ph_class q).
+    - intros (cur & Hc & Ha). exists cur. split; [|exact Ha]. rewrite <- (phase_obj_same _ _ _ _ Hs). unfold phase_obj_of in *. now rewrite Hph.
+    - intros Hp p Hin. destruct (Hp p Hin) as (o & Ho & Hpr). destruct (as_owner_keys _ _ Hs) as (_ & Hk & _).
+      exists o. rewrite <- Hk. unfold obj_ok. rewrite Hst. auto.
+  Qed.
+
+  Lemma touches_same m1 m0 ph e : same_spec m1 m0 -> touches m0 (as_owner m0) ph e -> touches m1 (as_owner m1) ph e.
+  Proof.
+    intros Hs. destruct e as [x|m|p]; cbn; auto.
+    - now rewrite (phase_keys_same _ _ Hs).
+    - destruct Hs as (Hid & _). unfold pobj_name. now rewrite Hid.
+  Qed.
+
+  Lemma filter_split {A} (f : A -> bool) l : forall pre x post,
+    filter f l = pre ++ x :: post ->
+    exists pre' post', l = pre' ++ x :: post' /\ filter f pre' = pre /\ filter f post' = post /\ f x = true.
+  Proof.
+    induction l as [|a l IH]; intros pre x post H; cbn in H; [destruct pre; discriminate|].
+    destruct (f a) eqn:Ea.
+    - destruct pre as [|b pre0]; cbn in H.
+      + injection H as <- <-. exists [], l. cbn. auto.
+      + injection H as <- H. destruct (IH _ _ _ H) as (pre' & post' & -> & H1 & H2 & H3).
+        exists (a :: pre'), post'. cbn. rewrite Ea, H1. auto.
+    - destruct (IH _ _ _ H) as (pre' & post' & -> & H1 & H2 & H3). exists (a :: pre'), post'. cbn. rewrite Ea. auto.
+  Qed.
+
+  Lemma exists_member_touches mem ph evs :
+    ph_class ph = false ->
+    Exists (fun e => In (ev_key e) (phase_keys (as_owner mem) ph)) (member_evs evs) ->
+    Exists (touches mem (as_owner mem) ph) evs.
+  Proof.
+    intros Hc. induction evs as [|e evs IH]; cbn; [intros H; inversion H|].
+    destruct e as [x|m|p]; cbn.
+    - intros H. inversion H; subst; [left; cbn; auto|right; now apply IH].
+    - intros H. right. now apply IH.
+    - intros H. right. now apply IH.
+  Qed.
+
+  (** ** C03 for the controller, mixed phase lists: if any request of an active pass writes to a phase (a member
+      of a local phase, or the phase object of a delegated phase), every earlier phase is complete after the
+      pass: the objects of an earlier local phase are present and pass the probe, and the phase object of an
+      earlier delegated phase carries Available=True for its current generation. *)
+  Theorem C03_rollout_gated_mixed sw k ns n mem0 sw' evs r :
+    find_set (sw_sets sw) k ns n = Some mem0 -> is_active mem0 -> desired_keys_nodup mem0 -> phase_names_nodup mem0 ->
+    objectset_pass force sw k ns n = (sw', evs, r) ->
+    forall pre ph post, os_phases mem0 = pre ++ ph :: post ->
+      Exists (touches mem0 (as_owner mem0) ph) evs ->
+      forall q, In q pre -> phase_done sw' mem0 (as_owner mem0) q.
+  Proof.
+    intros Hfind Hact Hnd Hndn H pre ph post Hsplit Hex q Hq.
+    destruct (objectset_pass_active _ _ _ _ _ _ _ _ Hfind Hact H) as [(_ & _ & _ & Hkeep)|Hr].
+    - exfalso. apply Exists_exists in Hex. destruct Hex as (e & Hin & Ht). rewrite Forall_forall in Hkeep. specialize (Hkeep _ Hin).
+      destruct e as [x|m|p]; cbn in *; try contradiction. destruct Ht as [_ Ht]. destruct p; cbn in *; contradiction.
+    - destruct Hr as (mem1 & sw1 & sw2 & pevs & rem & pr & pre0 & Hs & _ & _ & _ & _ & Hrp & Hw2 & Hp2 & _ & Hpre & Hal).
+      (* a write to ph occurs among the loop's events: the rest are reads, finalizer and status requests *)
+      assert (Hex_loop : Exists (touches mem0 (as_owner mem0) ph) pevs).
+      { assert (Hno : forall l, Forall (status_keeps mem0) l -> Exists (touches mem0 (as_owner mem0) ph) l -> False).
+        { intros l Hl Hx. apply Exists_exists in Hx. destruct Hx as (e & Hin & Ht). rewrite Forall_forall in Hl. specialize (Hl _ Hin).
+          destruct e as [x|m|p]; cbn in *; try contradiction. destruct Ht as [_ Ht]. destruct p; cbn in *; contradiction. }
+        assert (Hst : forall m ok fph, ~ touches mem0 (as_owner mem0) ph (status_ev_f m fph ok)) by (intros m ok fph Ht; exact Ht).
+        assert (Hsplit3 : forall tail, (forall e, In e tail -> ~ touches mem0 (as_owner mem0) ph e) ->
+                  Exists (touches mem0 (as_owner mem0) ph) (pre0 ++ pevs ++ tail) -> Exists (touches mem0 (as_owner mem0) ph) pevs).
+        { intros tail Ht Hx. apply Exists_app in Hx. destruct Hx as [Hx|Hx]; [exfalso; eapply Hno; eauto|].
+          apply Exists_app in Hx. destruct Hx as [Hx|Hx]; [exact Hx|]. exfalso.
+          apply Exists_exists in Hx. destruct Hx as (e & Hin & Hte). exact (Ht e Hin Hte). }
+        unfold after_loop in Hal. destruct pr as [e| | |ctrlof failed].
+        - destruct (match e with ErrNotPrevious | ErrRevCollision => true | _ => false end).
+          + destruct Hal as (ok & m' & -> & _). apply (Hsplit3 [status_ev m' ok]); [|exact Hex]. intros e0 [<-|[]]. apply Hst.
+          + destruct Hal as [-> _]. rewrite <- (app_nil_r pevs) in Hex. apply (Hsplit3 []); [intros e0 []|exact Hex].
+        - destruct Hal as [-> _]. rewrite <- (app_nil_r pevs) in Hex. apply (Hsplit3 []); [intros e0 []|exact Hex].
+        - destruct Hal as (ok & m' & -> & _). apply (Hsplit3 [status_ev m' ok]); [|exact Hex]. intros e0 [<-|[]]. apply Hst.
+        - destruct Hal as (ok & -> & _). eapply Hsplit3; [|exact Hex]. intros e0 Hin. apply in_app_or in Hin. destruct Hin as [Hin|[<-|[]]]; [|apply Hst].
+          intros Ht. eapply (Hno (paused_reads (sw_phases sw2) (set_remotes mem1 rem))); [apply paused_reads_keep|]. apply Exists_exists. eauto. }
+      assert (Hex1 : Exists (touches mem1 (as_owner mem1) ph) pevs).
+      { eapply Exists_impl; [|exact Hex_loop]. intros e. now apply touches_same. }
+      destruct Hs as (Hid & Hph & Hrest).
+      assert (Hs : same_spec mem1 mem0) by (split; [exact Hid|split; [exact Hph|exact Hrest]]).
+      assert (Hnd1 : NoDup (local_keys (as_owner mem1) (os_phases mem1))).
+      { pose proof (nodup_same _ _ Hs Hnd) as Hn1. exact Hn1. }
+      assert (Hndn1 : NoDup (delegated_names mem1 (os_phases mem1))) by (rewrite (names_same _ _ Hs); exact Hndn).
+      rewrite <- Hph in Hsplit.
+      pose proof (rpm_gate force mem1 _ _ _ _ _ _ _ _ _ _ Hrp Hnd1 Hndn1 pre ph post Hsplit Hex1 q Hq) as Hg.
+      eapply phase_done_same; eauto.
+  Qed.
+
+  (** C03 for the controller, as stated for local phases: if any request of an active pass names an object of a
+      local phase, all objects of all earlier local phases are present afterwards and pass the probe. *)
   Theorem C03_rollout_gated sw k ns n mem0 sw' evs r :
     find_set (sw_sets sw) k ns n = Some mem0 -> is_active mem0 -> desired_keys_nodup mem0 ->
     objectset_pass force sw k ns n = (sw', evs, r) ->
@@ -1018,17 +2144,20 @@ Section SetLevel.
       forall q, In q pre -> phase_ok (sw_w sw') (as_owner mem0) q.
   Proof.
     intros Hfind Hact Hnd H pre ph post Hsplit Hex q Hq.
-    destruct (objectset_pass_active _ _ _ _ _ _ _ _ Hfind Hact H) as [[_ Hkeep]|Hr].
+    destruct (filter_split _ _ _ _ _ Hsplit) as (pre' & post' & Hall & Hpre & _ & Hloc).
+    assert (Hc : ph_class ph = false) by (unfold is_local in Hloc; now apply negb_true_iff in Hloc).
+    assert (Hq' : In q pre' /\ ph_class q = false).
+    { rewrite <- Hpre in Hq. apply filter_In in Hq. destruct Hq as [Hq Hl]. unfold is_local in Hl. apply negb_true_iff in Hl. auto. }
+    destruct Hq' as [Hq' Hcq].
+    destruct (objectset_pass_active _ _ _ _ _ _ _ _ Hfind Hact H) as [(_ & _ & _ & Hkeep)|Hr].
     - rewrite (status_keeps_members _ _ Hkeep) in Hex. inversion Hex.
-    - destruct Hr as (mem1 & w0 & sets1 & w2 & pr & pre0 & Hs & Hw0 & _ & Hrp & Hw2 & _).
-      destruct (as_owner_keys _ _ Hs) as (Hl & Hk & _).
-      assert (Hpo : forall w, phase_ok w (as_owner mem1) q -> phase_ok w (as_owner mem0) q).
-      { intros w Hp p Hin. destruct (Hp p Hin) as (o & Ho & Hpr). exists o. rewrite <- Hk. auto. }
-      apply Hpo. intros p Hin. 
-      assert (Hg := rp_gate force (as_owner mem1) _ _ _ _ _ _ _ Hrp (nodup_same _ _ Hs Hnd) pre ph post).
-      rewrite Hl in Hg. specialize (Hg Hsplit).
-      rewrite (phase_keys_same _ _ Hs) in Hg. specialize (Hg Hex q Hq p Hin).
-      destruct Hg as (o & Ho & Hpr). exists o. unfold phase_ok, obj_ok. rewrite Hw2. auto.
+    - destruct Hr as (mem1 & sw1 & sw2 & pevs & rem & pr & pre0 & Hs & _ & _ & _ & _ & Hrp & Hw2 & _ & _ & Hpre0 & Hal).
+      rewrite (after_loop_members _ _ _ _ _ _ _ _ _ Hpre0 Hal) in Hex.
+      destruct (as_owner_keys _ _ Hs) as (_ & Hk & _).
+      rewrite <- (phase_keys_same _ _ Hs) in Hex.
+      pose proof Hs as (_ & Hph & _). rewrite <- Hph in Hall.
+      pose proof (rpm_gate_local force mem1 _ _ _ _ _ _ _ _ _ _ Hrp (nodup_same _ _ Hs Hnd) pre' ph post' Hall Hc Hex q Hq' Hcq) as Hg.
+      intros p Hin. destruct (Hg p Hin) as (o & Ho & Hpr). exists o. rewrite <- Hk. unfold obj_ok. rewrite Hw2. auto.
   Qed.
 
   (** C09: a paused (not deleted, not archived) ObjectSet sends no request for any member, and its store
@@ -1039,12 +2168,13 @@ Section SetLevel.
     member_evs evs = [] /\ w_store (sw_w sw') = w_store (sw_w sw).
   Proof.
     intros Hfind Hact Hp H.
-    destruct (objectset_pass_active _ _ _ _ _ _ _ _ Hfind Hact H) as [[Hst Hkeep]|Hr].
+    destruct (objectset_pass_active _ _ _ _ _ _ _ _ Hfind Hact H) as [(Hst & _ & _ & Hkeep)|Hr].
     - split; [now apply (status_keeps_members mem0)|assumption].
-    - destruct Hr as (mem1 & w0 & sets1 & w2 & pr & pre0 & Hs & Hw0 & _ & Hrp & Hw2 & _).
+    - destruct Hr as (mem1 & sw1 & sw2 & pevs & rem & pr & pre0 & Hs & Hw0 & _ & _ & _ & Hrp & Hw2 & _ & _ & Hpre & Hal).
       assert (Hpa : ow_paused (as_owner mem1) = true).
       { destruct Hs as (_ & _ & Hl & _). unfold as_owner. cbn. now rewrite Hl, Hp. }
-      destruct (rp_paused force _ _ _ _ _ _ _ _ Hpa Hrp) as [-> ->]. split; [reflexivity|congruence].
+      destruct (rpm_paused force _ _ _ _ _ _ _ _ _ _ _ Hpa Hrp) as [Hst Hm].
+      rewrite (after_loop_members _ _ _ _ _ _ _ _ _ Hpre Hal). split; [exact Hm|congruence].
   Qed.
 
   (** C11: an ObjectSet that lists the same object twice (as written) sends no request for any member. *)
@@ -1054,9 +2184,9 @@ Section SetLevel.
     member_evs evs = [] /\ w_store (sw_w sw') = w_store (sw_w sw).
   Proof.
     intros Hfind Hact Hd H.
-    destruct (objectset_pass_active _ _ _ _ _ _ _ _ Hfind Hact H) as [[Hst Hkeep]|Hr].
+    destruct (objectset_pass_active _ _ _ _ _ _ _ _ Hfind Hact H) as [(Hst & _ & _ & Hkeep)|Hr].
     - split; [now apply (status_keeps_members mem0)|assumption].
-    - destruct Hr as (mem1 & w0 & sets1 & w2 & pr & pre0 & Hs & _ & Hdup & _). exfalso. apply Hd.
+    - destruct Hr as (mem1 & sw1 & sw2 & pevs & rem & pr & pre0 & Hs & _ & _ & _ & Hdup & _). exfalso. apply Hd.
       destruct Hs as (Hid & Hph & _).
       assert (Heq : map (spec_key mem0) (all_objects mem0) = map (spec_key mem1) (all_objects mem1)).
       { unfold all_objects. rewrite Hph. apply map_ext. intros p. unfold spec_key, desired_key, as_owner. cbn. now rewrite Hid. }
@@ -1064,8 +2194,11 @@ Section SetLevel.
   Qed.
 
   (** C06: Available=True is newly written only for the generation the pass read, only when every phase
-      completed, with a controllerOf list that is sound and complete w.r.t. what the pass saw; and the
-      request names no failing phase. *)
+      completed (every object of a local phase present and passing the probe; for every delegated phase a phase
+      object read in this pass that is Available for its current generation), with a controllerOf list in which
+      every entry was seen controlled by the ObjectSet or is reported in the status of a delegated phase's
+      phase object as read in this pass, and which is complete for the local phases; and the request names no
+      failing phase. *)
   Theorem C06_available_true_justified sw k ns n mem0 sw' evs r rev conds ctrlof rem fph ok cd :
     find_set (sw_sets sw) k ns n = Some mem0 -> is_active mem0 -> desired_keys_nodup mem0 ->
     objectset_pass force sw k ns n = (sw', evs, r) ->
@@ -1074,7 +2207,8 @@ Section SetLevel.
     find_cond (os_conds mem0) CAvailable <> Some cd ->
     cd_gen cd = os_gen mem0 /\ fph = None /\
     (forall q, In q (local_phases mem0) -> phase_ok (sw_w sw') (as_owner mem0) q) /\
-    (forall key, In key ctrlof -> seen_controlled (sw_w sw') (as_owner mem0) key) /\
+    (forall q, In q (delegated_phases mem0) -> exists cur, phase_read evs (pobj_name mem0 q) cur /\ avail_current cur) /\
+    (forall key, In key ctrlof -> seen_controlled (sw_w sw') (as_owner mem0) key \/ reported_by_phase mem0 (os_phases mem0) evs key) /\
     (forall key, In key (flat_map (phase_keys (as_owner mem0)) (local_phases mem0)) ->
                  seen_controlled (sw_w sw') (as_owner mem0) key -> In key ctrlof).
   Proof.
@@ -1083,47 +2217,59 @@ Section SetLevel.
     { intros l Hl Hi. rewrite Forall_forall in Hl. specialize (Hl _ Hi). cbn in Hl. destruct Hl as (_ & [Ha|(cd' & Ha & Hf)] & _).
       - apply Hnew. now rewrite <- Ha.
       - rewrite Hfc in Ha. injection Ha as <-. rewrite Hst in Hf. discriminate. }
-    destruct (objectset_pass_active _ _ _ _ _ _ _ _ Hfind Hact H) as [[_ Hkeep]|Hr]; [exfalso; eauto|].
-    destruct Hr as (mem1 & w0 & sets1 & w2 & pr & pre0 & Hs & Hw0 & _ & Hrp & Hw2 & Hpre & Hpr).
-    assert (Hnot_member : forall l, ~ In (SMeta (MStatus rev conds ctrlof rem fph ok)) (map SMember l)).
-    { intros l Hi. apply in_map_iff in Hi. destruct Hi as (x & Hx & _). discriminate. }
+    destruct (objectset_pass_active _ _ _ _ _ _ _ _ Hfind Hact H) as [(_ & _ & _ & Hkeep)|Hr]; [exfalso; eauto|].
+    destruct Hr as (mem1 & sw1 & sw2 & pevs & rem0 & pr & pre0 & Hs & _ & _ & _ & _ & Hrp & Hw2 & Hp2 & _ & Hpre & Hal).
+    assert (Hnot_loop : ~ In (SMeta (MStatus rev conds ctrlof rem fph ok)) pevs).
+    { intros Hi. destruct (rpm_inv force _ _ _ _ _ _ _ _ _ _ _ Hrp) as (_ & _ & _ & Hev & _). rewrite Forall_forall in Hev. exact (Hev _ Hi). }
     assert (Hfalse_contra : forall m' ok', find_cond (os_conds m') CAvailable = Some (mk_cond mem1 CAvailable SFalse RPreflightError) \/
                                           find_cond (os_conds m') CAvailable = Some (mk_cond mem1 CAvailable SFalse RCollisionDetected) ->
                                           SMeta (MStatus rev conds ctrlof rem fph ok) = status_ev m' ok' -> False).
     { intros m' ok' Hc He. unfold status_ev, status_ev_f in He. injection He as _ Hcd _ _ _ _. subst conds.
       destruct Hc as [Hc|Hc]; rewrite Hfc in Hc; injection Hc as Hcd; rewrite Hcd in Hst; discriminate. }
-    destruct pr as [e| |co failed].
+    unfold after_loop in Hal. destruct pr as [e| | |co failed].
     - destruct (match e with ErrNotPrevious | ErrRevCollision => true | _ => false end).
-      + destruct Hpr as (ok' & m' & Hev & Ha & _). exfalso. rewrite Hev in Hin.
-        apply in_app_or in Hin. destruct Hin as [Hi|Hi]; [eauto|]. apply in_app_or in Hi. destruct Hi as [Hi|[Hi|[]]]; [now apply Hnot_member in Hi|].
+      + destruct Hal as (ok' & m' & Hev & Ha & _). exfalso. rewrite Hev in Hin.
+        apply in_app_or in Hin. destruct Hin as [Hi|Hi]; [eauto|]. apply in_app_or in Hi. destruct Hi as [Hi|[Hi|[]]]; [now apply Hnot_loop in Hi|].
         eapply Hfalse_contra; eauto.
-      + destruct Hpr as [Hev _]. exfalso. rewrite Hev in Hin. apply in_app_or in Hin. destruct Hin as [Hi|Hi]; [eauto|now apply Hnot_member in Hi].
-    - destruct Hpr as (ok' & m' & Hev & Ha & _). exfalso. rewrite Hev in Hin.
-      apply in_app_or in Hin. destruct Hin as [Hi|Hi]; [eauto|]. apply in_app_or in Hi. destruct Hi as [Hi|[Hi|[]]]; [now apply Hnot_member in Hi|].
+      + destruct Hal as [Hev _]. exfalso. rewrite Hev in Hin. apply in_app_or in Hin. destruct Hin as [Hi|Hi]; [eauto|now apply Hnot_loop in Hi].
+    - destruct Hal as [Hev _]. exfalso. rewrite Hev in Hin. apply in_app_or in Hin. destruct Hin as [Hi|Hi]; [eauto|now apply Hnot_loop in Hi].
+    - destruct Hal as (ok' & m' & Hev & Ha & _). exfalso. rewrite Hev in Hin.
+      apply in_app_or in Hin. destruct Hin as [Hi|Hi]; [eauto|]. apply in_app_or in Hi. destruct Hi as [Hi|[Hi|[]]]; [now apply Hnot_loop in Hi|].
       eapply Hfalse_contra; eauto.
-    - destruct Hpr as (ok' & Hev & _). rewrite Hev in Hin.
-      apply in_app_or in Hin. destruct Hin as [Hi|Hi]; [exfalso; eauto|]. apply in_app_or in Hi. destruct Hi as [Hi|[Hi|[]]]; [exfalso; now apply Hnot_member in Hi|].
-      destruct (final_status_available mem1 co failed) as (cd0 & Hc0 & Hgen & Hiff & Hco).
-      remember (final_status mem1 co failed) as fs eqn:Efs.
+    - destruct Hal as (ok' & Hev & _). pose proof Hin as Hin0. rewrite Hev in Hin.
+      apply in_app_or in Hin. destruct Hin as [Hi|Hi]; [exfalso; eauto|]. apply in_app_or in Hi. destruct Hi as [Hi|Hi]; [exfalso; now apply Hnot_loop in Hi|].
+      apply in_app_or in Hi. destruct Hi as [Hi|[Hi|[]]]; [exfalso; eapply Hkeep_contra; [apply (paused_reads_keep mem0)|exact Hi]|].
+      set (mem2 := set_remotes mem1 rem0) in *.
+      destruct (final_status_available (sw_phases sw2) mem2 co failed) as (cd0 & Hc0 & Hgen & Hiff & Hco).
+      remember (final_status (sw_phases sw2) mem2 co failed) as fs eqn:Efs.
       unfold status_ev_f in Hi. injection Hi as Erev Econds Ectrl Erem Efph Eok.
       subst conds ctrlof fph.
       rewrite Hfc in Hc0. injection Hc0 as <-.
       assert (failed = None) as -> by now apply Hiff.
       destruct (as_owner_keys _ _ Hs) as (Hl & Hk & _ & Hid).
-      destruct Hs as (_ & _ & _ & Hg & _).
-      assert (Hsc : forall key, seen_controlled w2 (as_owner mem1) key <-> seen_controlled (sw_w sw') (as_owner mem0) key).
+      pose proof Hs as (Hsid & Hphs & _ & Hg & _).
+      assert (Hsc : forall key, seen_controlled (sw_w sw2) (as_owner mem1) key <-> seen_controlled (sw_w sw') (as_owner mem0) key).
       { intros key. unfold seen_controlled. rewrite Hw2, Hid. tauto. }
-      assert (Hnd1 : NoDup (flat_map (phase_keys (as_owner mem1)) (local_phases mem1))).
-      { rewrite Hl. erewrite flat_map_ext; [exact Hnd|]. intros ph. unfold phase_keys. apply map_ext. exact Hk. }
-      split; [congruence|]. split; [reflexivity|]. split; [|split].
-      + intros q Hq p Hp. rewrite <- Hl in Hq. destruct (rp_all_ok _ _ _ _ _ _ _ _ Hrp Hnd1 q Hq p Hp) as (o & Ho & Hpr0).
-        exists o. rewrite <- Hk. rewrite Hw2. auto.
+      assert (Hnd1 : NoDup (local_keys (as_owner mem1) (os_phases mem1))) by exact (nodup_same _ _ Hs Hnd).
+      assert (Hsub : forall n0 cur, phase_read pevs n0 cur -> phase_read evs n0 cur).
+      { intros n0 cur Hr. rewrite Hev. unfold phase_read in *.
+        destruct Hr as [Hr|(p & Hr)]; [left|right; exists p]; apply in_or_app; right; apply in_or_app; now left. }
+      assert (Hname : forall q, pobj_name mem1 q = pobj_name mem0 q) by (intros q; unfold pobj_name; now rewrite Hsid).
+      split; [cbn in Hgen; congruence|]. split; [reflexivity|]. split; [|split; [|split]].
+      + intros q Hq. apply filter_In in Hq. destruct Hq as [Hq Hlq]. unfold is_local in Hlq. apply negb_true_iff in Hlq. rewrite <- Hphs in Hq.
+        pose proof (rpm_all_ok_local force _ _ _ _ _ _ _ _ _ _ _ Hrp Hnd1 q Hq Hlq) as Hd.
+        intros p Hp. destruct (Hd p Hp) as (o & Ho & Hpr0). exists o. rewrite <- Hk. unfold obj_ok. rewrite Hw2. auto.
+      + intros q Hq. apply filter_In in Hq. destruct Hq as [Hq Hcq]. rewrite <- Hphs in Hq.
+        destruct (rpm_all_ok_read force _ _ _ _ _ _ _ _ _ _ _ Hrp q Hq Hcq) as (cur & Hread & Ha).
+        exists cur. split; [|exact Ha]. rewrite <- Hname. now apply Hsub.
       + intros key Hkey. rewrite Hco in Hkey.
-        destruct (rp_ctrlof_sound force _ _ _ _ _ _ _ _ _ Hrp Hnd1) as (new & -> & Hnew0). cbn in Hkey.
-        rewrite Forall_forall in Hnew0. destruct (Hnew0 _ Hkey) as [_ Hsn]. now apply Hsc.
+        destruct (rpm_ctrlof_sound force _ _ _ _ _ _ _ _ _ _ _ _ Hrp Hnd1) as (new & -> & Hnew0). cbn in Hkey.
+        rewrite Forall_forall in Hnew0. destruct (Hnew0 _ Hkey) as [[_ Hsn]|Hrep]; [left; now apply Hsc|right].
+        destruct Hrep as (q & cur & Hq & Hcq & Hpo & Hink). exists q, cur. rewrite <- Hphs. split; [exact Hq|]. split; [exact Hcq|]. split; [|exact Hink].
+        rewrite <- Hname. now apply Hsub.
       + intros key Hkey Hsn. rewrite Hco.
-        eapply (rp_ctrlof_complete force _ _ _ _ _ _ _ _ Hrp Hnd1).
-        * rewrite Hl. erewrite flat_map_ext; [exact Hkey|]. intros ph. unfold phase_keys. apply map_ext. exact Hk.
+        eapply (rpm_ctrlof_complete force _ _ _ _ _ _ _ _ _ _ _ Hrp Hnd1).
+        * unfold local_keys. fold (local_phases mem1). rewrite Hl. erewrite flat_map_ext; [exact Hkey|]. intros ph. unfold phase_keys. apply map_ext. exact Hk.
         * now apply Hsc.
   Qed.
 End SetLevel.
@@ -1132,137 +2278,136 @@ End SetLevel.
 Section Deletion.
   Variable force : bool.
 
-  Definition teardown_of (sw : sworld) (mem : oset) : world * list ev * tdphres :=
+  Definition teardown_of (sw : sworld) (mem : oset) : sworld * list sev * tdphres :=
     if os_fin mem then
-      if os_orphan mem then (sw_w sw, [], TdOk true)
-      else teardown_phases force (sw_w sw) (as_owner mem) (rev (local_phases mem))
-    else (sw_w sw, [], TdOk true).
+      if os_orphan mem then (sw, [], TdOk true)
+      else teardown_phases_m force sw mem (as_owner mem) (rev (os_phases mem))
+    else (sw, [], TdOk true).
 
-  (** Shape of a deletion/archival pass: the member requests are exactly those of the teardown; the
+  Definition no_meta (evs : list sev) : Prop := Forall (fun e => match e with SMeta _ => False | _ => True end) evs.
+
+  Lemma tpm_no_meta s ow rphs : forall sw sw' evs r,
+    teardown_phases_m force sw s ow rphs = (sw', evs, r) -> no_meta evs.
+  Proof.
+    induction rphs as [|ph rest IH]; intros sw sw' evs r H.
+    - cbn in H. injection H as _ <- _. constructor.
+    - rewrite tpm_cons in H. destruct (td_step force sw s ow ph) as [[sw1 e1] r1] eqn:E1.
+      assert (H1 : no_meta e1).
+      { destruct (td_step_inv _ _ _ _ _ _ _ _ E1) as (_ & _ & Hev & _). destruct (ph_class ph).
+        - eapply Forall_impl; [|exact Hev]. intros e He. destruct e as [x|m|p]; auto.
+        - destruct Hev as (e' & -> & _). apply Forall_forall. intros e He. apply in_map_iff in He. destruct He as (x & <- & _). exact I. }
+      destruct r1 as [|[|]]; try (injection H as _ <- _; exact H1).
+      destruct (teardown_phases_m force sw1 s ow rest) as [[sw2 e2] r2] eqn:E2. injection H as _ <- _.
+      apply Forall_app. split; [exact H1|eapply IH; eauto].
+  Qed.
+
+  (** What may follow the teardown requests in a deletion / archival pass. *)
+  Definition del_tail_ok (mem : oset) (td : tdphres) (e : sev) : Prop :=
+    match e with
+    | SMeta (MFinalizer added ok) => added = false /\ td = TdOk true /\ os_fin mem = true
+    | SMeta (MStatus _ conds ctrlof _ fph _) =>
+        find_cond conds CAvailable = None /\ fph = None /\ os_life mem = LArchived /\
+        (cond_true conds CArchived = true -> td = TdOk true /\ ctrlof = [])
+    | _ => False
+    end.
+
+  (** Shape of a deletion/archival pass: the teardown requests, then at most a finalizer removal and a status
+      request; the finalizer is removed, or Archived=True sent, only after the teardown reported all phases done. *)
+  Lemma deletion_pass_shape sw mem sw' evs r :
+    deletion_pass force sw mem = (sw', evs, r) ->
+    exists sw1 tevs td tail,
+      teardown_of sw mem = (sw1, tevs, td) /\ evs = tevs ++ tail /\ Forall (del_tail_ok mem td) tail /\
+      w_store (sw_w sw') = w_store (sw_w sw1) /\ sw_phases sw' = sw_phases sw1.
+  Proof.
+    unfold deletion_pass.
+    change (if os_fin mem then if os_orphan mem then (sw, [], TdOk true)
+            else teardown_phases_m force sw mem (as_owner mem) (rev (os_phases mem))
+            else (sw, [], TdOk true)) with (teardown_of sw mem).
+    destruct (teardown_of sw mem) as [[sw1 tevs] td] eqn:Etd.
+    set (archived := lifecycle_eqb (os_life mem) LArchived).
+    assert (Harch : archived = true -> os_life mem = LArchived) by (subst archived; destruct (os_life mem); cbn; congruence).
+    (* the common tail *)
+    assert (Hfinish : forall swx evs1 mem1 swf evsf rf,
+       (if negb archived then (swx, evs1, SDone false)
+        else let '(sw'', _, ok) := update_status swx (set_conds mem1 (remove_cond (os_conds mem1) CAvailable)) in
+             (sw'', evs1 ++ [status_ev (set_conds mem1 (remove_cond (os_conds mem1) CAvailable)) ok], if ok then SDone false else SError)) = (swf, evsf, rf) ->
+       (w_store (sw_w swf) = w_store (sw_w swx) /\ sw_phases swf = sw_phases swx) /\
+       (evsf = evs1 \/ exists ok, archived = true /\ evsf = evs1 ++ [status_ev (set_conds mem1 (remove_cond (os_conds mem1) CAvailable)) ok])).
+    { intros swx evs1 mem1 swf evsf rf. destruct (negb archived) eqn:Ea.
+      - intros H. injection H as <- <- _. auto.
+      - destruct (update_status swx _) as [[sw2 m2] ok] eqn:Eu. intros H. injection H as <- <- _.
+        destruct (update_status_store _ _ _ _ _ Eu) as (H1 & H2 & _).
+        split; [auto|]. right. exists ok. apply negb_false_iff in Ea. auto. }
+    assert (Hstatus_ok : forall mem1 ok tdx, archived = true ->
+       (cond_true (remove_cond (os_conds mem1) CAvailable) CArchived = true -> tdx = TdOk true /\ os_ctrlof mem1 = []) ->
+       del_tail_ok mem tdx (status_ev (set_conds mem1 (remove_cond (os_conds mem1) CAvailable)) ok)).
+    { intros mem1 ok tdx Ha Hx. unfold status_ev, status_ev_f, del_tail_ok. cbn [os_conds set_conds os_ctrlof].
+      split; [apply find_remove_cond_same|]. split; [reflexivity|]. split; [now apply Harch|exact Hx]. }
+    destruct td as [|done].
+    - intros H. injection H as <- <- <-. exists sw1, tevs, TdErr, []. rewrite app_nil_r. repeat split; auto.
+    - destruct done.
+      + destruct (os_fin mem) eqn:Efin.
+        * destruct (patch_finalizer sw1 mem false) as [sw2 [mem2|]] eqn:Ep.
+          -- intros H. destruct (Hfinish _ _ _ _ _ _ H) as [[Hst Hph] Hev].
+             destruct (patch_finalizer_store _ _ _ _ _ Ep) as (Hst2 & Hph2 & _).
+             match type of Hev with context [status_ev (set_conds ?M _) _] => set (mem3 := M) in * end.
+             assert (Hfin_ok : del_tail_ok mem (TdOk true) (SMeta (MFinalizer false true))) by (cbn; auto).
+             destruct Hev as [->|(ok & Ha & ->)].
+             ++ exists sw1, tevs, (TdOk true), [SMeta (MFinalizer false true)]. repeat split; try congruence. constructor; [exact Hfin_ok|constructor].
+             ++ exists sw1, tevs, (TdOk true), [SMeta (MFinalizer false true); status_ev (set_conds mem3 (remove_cond (os_conds mem3) CAvailable)) ok].
+                split; [reflexivity|]. split; [now rewrite <- app_assoc|]. split; [|split; congruence].
+                constructor; [exact Hfin_ok|]. constructor; [|constructor]. apply Hstatus_ok; [exact Ha|].
+                intros _. split; [reflexivity|]. subst mem3. rewrite Ha. reflexivity.
+          -- intros H. injection H as <- <- <-. destruct (patch_finalizer_store _ _ _ _ _ Ep) as (Hst2 & Hph2 & _).
+             exists sw1, tevs, (TdOk true), [SMeta (MFinalizer false false)]. repeat split; auto. constructor; [cbn; auto|constructor].
+        * intros H. destruct (Hfinish _ _ _ _ _ _ H) as [[Hst Hph] Hev].
+          match type of Hev with context [status_ev (set_conds ?M _) _] => set (mem3 := M) in * end.
+          destruct Hev as [->|(ok & Ha & ->)].
+          -- exists sw1, tevs, (TdOk true), []. rewrite app_nil_r. repeat split; auto.
+          -- exists sw1, tevs, (TdOk true), [status_ev (set_conds mem3 (remove_cond (os_conds mem3) CAvailable)) ok].
+             repeat split; auto. constructor; [|constructor]. apply Hstatus_ok; [exact Ha|].
+             intros _. split; [reflexivity|]. subst mem3. rewrite Ha. reflexivity.
+      + intros H. destruct (Hfinish _ _ _ _ _ _ H) as [[Hst Hph] Hev].
+        match type of Hev with context [status_ev (set_conds ?M _) _] => set (mem3 := M) in * end.
+        destruct Hev as [->|(ok & Ha & ->)].
+        * exists sw1, tevs, (TdOk false), []. rewrite app_nil_r. repeat split; auto.
+        * exists sw1, tevs, (TdOk false), [status_ev (set_conds mem3 (remove_cond (os_conds mem3) CAvailable)) ok].
+          repeat split; auto. constructor; [|constructor]. apply Hstatus_ok; [exact Ha|].
+          intros Hat. exfalso. subst mem3. rewrite Ha in Hat. unfold cond_true in Hat. rewrite find_remove_cond_other in Hat by discriminate.
+          cbn [os_conds set_conds] in Hat.
+          rewrite (find_set_cond_same _ (mk_cond mem CArchived SFalse RArchivalInProgress)) in Hat. cbn in Hat. discriminate.
+  Qed.
+
+  Lemma teardown_of_no_meta sw mem sw1 tevs td : teardown_of sw mem = (sw1, tevs, td) -> no_meta tevs.
+  Proof.
+    unfold teardown_of. destruct (os_fin mem); [|intros H; injection H as _ <- _; constructor].
+    destruct (os_orphan mem); [intros H; injection H as _ <- _; constructor|]. apply tpm_no_meta.
+  Qed.
+
+  (** The same, in terms of the requests of the pass: the member requests are exactly those of the teardown; the
       finalizer is removed, or Archived=True sent, only after the teardown reported all phases done. *)
   Lemma deletion_pass_inv sw mem sw' evs r :
     deletion_pass force sw mem = (sw', evs, r) ->
-    exists w1 tevs td,
-      teardown_of sw mem = (w1, tevs, td) /\ member_evs evs = tevs /\ w_store (sw_w sw') = w_store w1 /\
+    exists sw1 tevs td,
+      teardown_of sw mem = (sw1, tevs, td) /\ member_evs evs = member_evs tevs /\
+      w_store (sw_w sw') = w_store (sw_w sw1) /\ sw_phases sw' = sw_phases sw1 /\
       (forall ok, In (SMeta (MFinalizer false ok)) evs -> td = TdOk true /\ os_fin mem = true) /\
       (forall rev0 conds ctrlof rem fph ok, In (SMeta (MStatus rev0 conds ctrlof rem fph ok)) evs ->
          find_cond conds CAvailable = None /\ fph = None /\ os_life mem = LArchived /\
          (cond_true conds CArchived = true -> td = TdOk true /\ ctrlof = [])) /\
       (forall added ok, In (SMeta (MFinalizer added ok)) evs -> added = false).
   Proof.
-    unfold deletion_pass.
-    change (if os_fin mem then if os_orphan mem then (sw_w sw, [], TdOk true)
-            else teardown_phases force (sw_w sw) (as_owner mem) (rev (filter (fun ph => negb (ph_class ph)) (os_phases mem)))
-            else (sw_w sw, [], TdOk true)) with (teardown_of sw mem).
-    destruct (teardown_of sw mem) as [[w1 tevs] td] eqn:Etd.
-    set (archived := lifecycle_eqb (os_life mem) LArchived).
-    assert (Harch : archived = true -> os_life mem = LArchived) by (subst archived; destruct (os_life mem); cbn; congruence).
-    (* the common tail *)
-    assert (Hfinish : forall sw1 evs1 mem1 swf evsf rf,
-       (if negb archived then (sw1, evs1, SDone false)
-        else let '(sw'', _, ok) := update_status sw1 (set_conds mem1 (remove_cond (os_conds mem1) CAvailable)) in
-             (sw'', evs1 ++ [status_ev (set_conds mem1 (remove_cond (os_conds mem1) CAvailable)) ok], if ok then SDone false else SError)) = (swf, evsf, rf) ->
-       w_store (sw_w swf) = w_store (sw_w sw1) /\
-       (evsf = evs1 \/ exists ok, archived = true /\ evsf = evs1 ++ [status_ev (set_conds mem1 (remove_cond (os_conds mem1) CAvailable)) ok])).
-    { intros sw1 evs1 mem1 swf evsf rf. destruct (negb archived) eqn:Ea.
-      - intros H. injection H as <- <- _. auto.
-      - destruct (update_status sw1 _) as [[sw2 m2] ok] eqn:Eu. intros H. injection H as <- <- _.
-        split; [eapply update_status_store; eauto|]. right. exists ok. apply negb_false_iff in Ea. auto. }
-    assert (Hmem_members : member_evs (map SMember tevs) = tevs) by apply member_evs_members.
-    assert (Hstatus_fact : forall mem1 (rev0 : Z) conds ctrlof rem fph ok ok',
-       SMeta (MStatus rev0 conds ctrlof rem fph ok) = status_ev (set_conds mem1 (remove_cond (os_conds mem1) CAvailable)) ok' ->
-       find_cond conds CAvailable = None /\ fph = None /\ conds = remove_cond (os_conds mem1) CAvailable /\ ctrlof = os_ctrlof mem1).
-    { intros mem1 rev0 conds ctrlof rem fph ok ok' He. unfold status_ev, status_ev_f in He. injection He as _ -> -> _ -> _.
-      cbn. split; [apply find_remove_cond_same|auto]. }
-    destruct td as [|done].
-    - (* teardown error *)
-      intros H. injection H as <- <- <-. exists w1, tevs, TdErr. split; [reflexivity|]. split; [assumption|]. split; [reflexivity|].
-      repeat split; intros; exfalso; match goal with H : In _ (map SMember _) |- _ => apply in_map_iff in H; destruct H as (? & ? & _); discriminate end.
-    - destruct done.
-      + (* all phases done *)
-        destruct (os_fin mem) eqn:Efin.
-        * destruct (patch_finalizer (with_w sw w1) mem false) as [sw2 [mem2|]] eqn:Ep.
-          -- intros H. destruct (Hfinish _ _ _ _ _ _ H) as [Hst Hev].
-             pose proof (patch_finalizer_store _ _ _ _ _ Ep) as Hst2. cbn in Hst2.
-             exists w1, tevs, (TdOk true). split; [reflexivity|].
-             assert (Hmem : member_evs evs = tevs).
-             { destruct Hev as [->|(ok & _ & ->)]; rewrite ?member_evs_app, Hmem_members; cbn; now rewrite ?app_nil_r. }
-             split; [assumption|]. split; [congruence|].
-             match type of Hev with context [status_ev (set_conds ?M _) _] => set (mem3 := M) in * end.
-             assert (Hin_cases : forall e, In e evs -> In e (map SMember tevs) \/ e = SMeta (MFinalizer false true) \/
-                        exists ok, archived = true /\ e = status_ev (set_conds mem3 (remove_cond (os_conds mem3) CAvailable)) ok).
-             { intros e Hin. destruct Hev as [->|(ok & Ha & ->)].
-               - apply in_app_or in Hin. destruct Hin as [Hin|[<-|[]]]; auto.
-               - apply in_app_or in Hin. destruct Hin as [Hin|[<-|[]]]; [|right; right; eauto].
-                 apply in_app_or in Hin. destruct Hin as [Hin|[<-|[]]]; auto. }
-             split; [|split].
-             ++ intros ok _. auto.
-             ++ intros rev0 conds ctrlof rem fph ok Hin. destruct (Hin_cases _ Hin) as [Hi|[Hi|(ok' & Ha & Hi)]].
-                ** apply in_map_iff in Hi. destruct Hi as (? & ? & _). discriminate.
-                ** discriminate.
-                ** unfold mem3 in Hi; rewrite Ha in Hi. destruct (Hstatus_fact _ _ _ _ _ _ _ _ Hi) as (H1 & H2 & H3 & H4).
-                   split; [assumption|]. split; [assumption|]. split; [now apply Harch|]. intros _. split; [reflexivity|].
-                   rewrite H4. reflexivity.
-             ++ intros added ok Hin. destruct (Hin_cases _ Hin) as [Hi|[Hi|(ok' & _ & Hi)]].
-                ** apply in_map_iff in Hi. destruct Hi as (? & ? & _). discriminate.
-                ** now injection Hi as ->.
-                ** unfold status_ev, status_ev_f in Hi. discriminate.
-          -- intros H. injection H as <- <- <-. pose proof (patch_finalizer_store _ _ _ _ _ Ep) as Hst2. cbn in Hst2.
-             exists w1, tevs, (TdOk true). split; [reflexivity|]. rewrite member_evs_app, Hmem_members. cbn. rewrite app_nil_r.
-             split; [reflexivity|]. split; [assumption|].
-             split; [|split].
-             ++ intros ok _. auto.
-             ++ intros rev0 conds ctrlof rem fph ok Hin. apply in_app_or in Hin. destruct Hin as [Hi|[Hi|[]]]; [|discriminate].
-                apply in_map_iff in Hi. destruct Hi as (? & ? & _). discriminate.
-             ++ intros added ok Hin. apply in_app_or in Hin. destruct Hin as [Hi|[Hi|[]]]; [|now injection Hi as <-].
-                apply in_map_iff in Hi. destruct Hi as (? & ? & _). discriminate.
-        * intros H. destruct (Hfinish _ _ _ _ _ _ H) as [Hst Hev]. cbn in Hst.
-          exists w1, tevs, (TdOk true). split; [reflexivity|].
-          assert (Hmem : member_evs evs = tevs).
-          { destruct Hev as [->|(ok & _ & ->)]; rewrite ?member_evs_app, Hmem_members; cbn; now rewrite ?app_nil_r. }
-          split; [assumption|]. split; [assumption|].
-          match type of Hev with context [status_ev (set_conds ?M _) _] => set (mem3 := M) in * end.
-          assert (Hin_cases : forall e, In e evs -> In e (map SMember tevs) \/
-                     exists ok, archived = true /\ e = status_ev (set_conds mem3 (remove_cond (os_conds mem3) CAvailable)) ok).
-          { intros e Hin. destruct Hev as [->|(ok & Ha & ->)]; [auto|].
-            apply in_app_or in Hin. destruct Hin as [Hin|[<-|[]]]; [auto|right; eauto]. }
-          split; [|split].
-          -- intros ok Hin. exfalso. destruct (Hin_cases _ Hin) as [Hi|(ok' & _ & Hi)].
-             ++ apply in_map_iff in Hi. destruct Hi as (? & ? & _). discriminate.
-             ++ unfold status_ev, status_ev_f in Hi. discriminate.
-          -- intros rev0 conds ctrlof rem fph ok Hin. destruct (Hin_cases _ Hin) as [Hi|(ok' & Ha & Hi)].
-             ++ apply in_map_iff in Hi. destruct Hi as (? & ? & _). discriminate.
-             ++ unfold mem3 in Hi; rewrite Ha in Hi. destruct (Hstatus_fact _ _ _ _ _ _ _ _ Hi) as (H1 & H2 & H3 & H4).
-                split; [assumption|]. split; [assumption|]. split; [now apply Harch|]. intros _. split; [reflexivity|].
-                rewrite H4. reflexivity.
-          -- intros added ok Hin. exfalso. destruct (Hin_cases _ Hin) as [Hi|(ok' & _ & Hi)].
-             ++ apply in_map_iff in Hi. destruct Hi as (? & ? & _). discriminate.
-             ++ unfold status_ev, status_ev_f in Hi. discriminate.
-      + (* not done: finalizer stays, Archived=False *)
-        intros H. destruct (Hfinish _ _ _ _ _ _ H) as [Hst Hev]. cbn in Hst.
-        exists w1, tevs, (TdOk false). split; [reflexivity|].
-        assert (Hmem : member_evs evs = tevs).
-        { destruct Hev as [->|(ok & _ & ->)]; rewrite ?member_evs_app, Hmem_members; cbn; now rewrite ?app_nil_r. }
-        split; [assumption|]. split; [assumption|].
-        match type of Hev with context [status_ev (set_conds ?M _) _] => set (mem3 := M) in * end.
-        assert (Hin_cases : forall e, In e evs -> In e (map SMember tevs) \/
-                   exists ok, archived = true /\ e = status_ev (set_conds mem3 (remove_cond (os_conds mem3) CAvailable)) ok).
-        { intros e Hin. destruct Hev as [->|(ok & Ha & ->)]; [auto|].
-          apply in_app_or in Hin. destruct Hin as [Hin|[<-|[]]]; [auto|right; eauto]. }
-        split; [|split].
-        * intros ok Hin. exfalso. destruct (Hin_cases _ Hin) as [Hi|(ok' & _ & Hi)].
-          -- apply in_map_iff in Hi. destruct Hi as (? & ? & _). discriminate.
-          -- unfold status_ev, status_ev_f in Hi. discriminate.
-        * intros rev0 conds ctrlof rem fph ok Hin. destruct (Hin_cases _ Hin) as [Hi|(ok' & Ha & Hi)].
-          -- apply in_map_iff in Hi. destruct Hi as (? & ? & _). discriminate.
-          -- unfold mem3 in Hi; rewrite Ha in Hi. destruct (Hstatus_fact _ _ _ _ _ _ _ _ Hi) as (H1 & H2 & H3 & H4).
-             split; [assumption|]. split; [assumption|]. split; [now apply Harch|].
-             intros Hat. exfalso. rewrite H3 in Hat. unfold cond_true in Hat. rewrite find_remove_cond_other in Hat by discriminate.
-             cbn [os_conds set_conds] in Hat.
-             rewrite (find_set_cond_same _ (mk_cond mem CArchived SFalse RArchivalInProgress)) in Hat. cbn in Hat. discriminate.
-        * intros added ok Hin. exfalso. destruct (Hin_cases _ Hin) as [Hi|(ok' & _ & Hi)].
-          -- apply in_map_iff in Hi. destruct Hi as (? & ? & _). discriminate.
-          -- unfold status_ev, status_ev_f in Hi. discriminate.
+    intros H. destruct (deletion_pass_shape _ _ _ _ _ H) as (sw1 & tevs & td & tail & Htd & -> & Htail & Hst & Hph).
+    pose proof (teardown_of_no_meta _ _ _ _ _ Htd) as Hnm.
+    assert (Hin_tail : forall m, In (SMeta m) (tevs ++ tail) -> In (SMeta m) tail).
+    { intros m Hi. apply in_app_or in Hi. destruct Hi as [Hi|Hi]; [|exact Hi]. exfalso. unfold no_meta in Hnm. rewrite Forall_forall in Hnm. exact (Hnm _ Hi). }
+    exists sw1, tevs, td. split; [exact Htd|]. split.
+    { rewrite member_evs_app. replace (member_evs tail) with (@nil ev); [now rewrite app_nil_r|].
+      clear -Htail. induction tail as [|e tl IH]; [reflexivity|]. inversion Htail; subst. destruct e as [x|m|p]; try contradiction. cbn. now apply IH. }
+    split; [exact Hst|]. split; [exact Hph|]. rewrite Forall_forall in Htail. split; [|split].
+    - intros ok Hi. destruct (Htail _ (Hin_tail _ Hi)) as (_ & H1 & H2). auto.
+    - intros rev0 conds ctrlof rem fph ok Hi. exact (Htail _ (Hin_tail _ Hi)).
+    - intros added ok Hi. now destruct (Htail _ (Hin_tail _ Hi)).
   Qed.
 End Deletion.
 
@@ -1273,6 +2418,17 @@ Section SetDeletion.
 
   Lemma nodup_flat_map_rev {A B} (f : A -> list B) l : NoDup (flat_map f l) -> NoDup (flat_map f (rev l)).
   Proof. apply Permutation_NoDup. apply Permutation_flat_map. apply Permutation_rev. Qed.
+
+  Lemma filter_rev' {A} (f : A -> bool) l : filter f (rev l) = rev (filter f l).
+  Proof.
+    induction l as [|x xs IH]; [reflexivity|]. cbn. rewrite filter_app, IH. cbn. destruct (f x); cbn; [reflexivity|now rewrite app_nil_r].
+  Qed.
+
+  Lemma local_keys_rev ow phs : NoDup (local_keys ow phs) -> NoDup (local_keys ow (rev phs)).
+  Proof. unfold local_keys. rewrite filter_rev'. apply nodup_flat_map_rev. Qed.
+
+  Lemma delegated_names_rev s phs : NoDup (delegated_names s phs) -> NoDup (delegated_names s (rev phs)).
+  Proof. unfold delegated_names. rewrite filter_rev', map_rev. apply Permutation_NoDup. apply Permutation_rev. Qed.
 
   Definition is_going (mem : oset) : Prop :=
     cond_true (os_conds mem) CArchived = false /\ (os_deleting mem = true \/ os_life mem = LArchived).
@@ -1287,9 +2443,40 @@ Section SetDeletion.
     auto.
   Qed.
 
-  (** C04: the finalizer is removed, or Archived=True reported, only when every object listed in the
-      phases is absent or no longer controlled by the ObjectSet (or excluded by the teardown preflight);
-      orphan deletion excepted (C05). *)
+  Lemma phase_gone_store sw sw' s ow q :
+    w_store (sw_w sw') = w_store (sw_w sw) -> sw_phases sw' = sw_phases sw -> phase_gone sw s ow q -> phase_gone sw' s ow q.
+  Proof.
+    intros Hst Hph. unfold phase_gone, remote_gone, phase_obj_of, td_obj_done. rewrite Hph. destruct (ph_class q); [auto|].
+    intros H p Hp. specialize (H p Hp). now rewrite Hst.
+  Qed.
+
+  (** C04, mixed lists: the finalizer is removed, or Archived=True reported, only when every phase is finished:
+      every object of a local phase is absent or no longer controlled by the ObjectSet (or excluded by the
+      teardown preflight), and the phase object of every delegated phase is absent or not controlled by the
+      ObjectSet; orphan deletion excepted (C05). *)
+  Theorem C04_finalizer_held_until_gone sw k ns n mem0 sw' evs r :
+    find_set (sw_sets sw) k ns n = Some mem0 -> is_going mem0 -> desired_keys_nodup mem0 -> phase_names_nodup mem0 ->
+    os_fin mem0 = true -> os_orphan mem0 = false ->
+    objectset_pass force sw k ns n = (sw', evs, r) ->
+    ((exists ok, In (SMeta (MFinalizer false ok)) evs) \/
+     (exists rev0 conds ctrlof rem fph ok, In (SMeta (MStatus rev0 conds ctrlof rem fph ok)) evs /\ cond_true conds CArchived = true)) ->
+    forall q, In q (os_phases mem0) -> phase_gone sw' mem0 (as_owner mem0) q.
+  Proof.
+    intros Hfind Hgo Hnd Hndn Hfin Horph H Hev q Hq.
+    pose proof (objectset_pass_going _ _ _ _ _ _ _ _ Hfind Hgo H) as Hd.
+    destruct (deletion_pass_inv force _ _ _ _ _ Hd) as (sw1 & tevs & td & Htd & _ & Hst & Hph & Hf & Hs & _).
+    assert (Htdok : td = TdOk true).
+    { destruct Hev as [(ok & Hi)|(rev0 & conds & ctrlof & rem & fph & ok & Hi & Ha)].
+      - now destruct (Hf _ Hi).
+      - destruct (Hs _ _ _ _ _ _ Hi) as (_ & _ & _ & Hx). now destruct (Hx Ha). }
+    subst td. unfold teardown_of in Htd. rewrite Hfin, Horph in Htd.
+    assert (Hq' : In q (rev (os_phases mem0))) by now apply in_rev in Hq.
+    pose proof (tpm_done force _ _ _ _ _ _ Htd (local_keys_rev _ _ Hnd) (delegated_names_rev _ _ Hndn) q Hq') as Hdone.
+    eapply phase_gone_store; eauto.
+  Qed.
+
+  (** C04: the finalizer is removed, or Archived=True reported, only when every object listed in the local
+      phases is absent or no longer controlled by the ObjectSet (or excluded by the teardown preflight). *)
   Theorem C04_finalizer_held_until_done sw k ns n mem0 sw' evs r :
     find_set (sw_sets sw) k ns n = Some mem0 -> is_going mem0 -> desired_keys_nodup mem0 ->
     os_fin mem0 = true -> os_orphan mem0 = false ->
@@ -1299,20 +2486,47 @@ Section SetDeletion.
     forall q p, In q (local_phases mem0) -> In p (ph_objects q) -> td_obj_done (sw_w sw') (as_owner mem0) p.
   Proof.
     intros Hfind Hgo Hnd Hfin Horph H Hev q p Hq Hp.
+    apply filter_In in Hq. destruct Hq as [Hq Hl]. unfold is_local in Hl. apply negb_true_iff in Hl.
     pose proof (objectset_pass_going _ _ _ _ _ _ _ _ Hfind Hgo H) as Hd.
-    destruct (deletion_pass_inv force _ _ _ _ _ Hd) as (w1 & tevs & td & Htd & _ & Hst & Hf & Hs & _).
+    destruct (deletion_pass_inv force _ _ _ _ _ Hd) as (sw1 & tevs & td & Htd & _ & Hst & Hph & Hf & Hs & _).
     assert (Htdok : td = TdOk true).
     { destruct Hev as [(ok & Hi)|(rev0 & conds & ctrlof & rem & fph & ok & Hi & Ha)].
       - now destruct (Hf _ Hi).
       - destruct (Hs _ _ _ _ _ _ Hi) as (_ & _ & _ & Hx). now destruct (Hx Ha). }
     subst td. unfold teardown_of in Htd. rewrite Hfin, Horph in Htd.
-    assert (Hq' : In q (rev (local_phases mem0))) by now apply in_rev in Hq.
-    pose proof (tp_done force _ _ _ _ _ Htd (nodup_flat_map_rev _ _ Hnd) q p Hq' Hp) as Hdone.
+    assert (Hq' : In q (rev (os_phases mem0))) by now apply in_rev in Hq.
+    pose proof (tpm_done_local force _ _ _ _ _ _ Htd (local_keys_rev _ _ Hnd) q p Hq' Hl Hp) as Hdone.
     unfold td_obj_done in *. now rewrite Hst.
   Qed.
 
-  (** C04: within a teardown pass a request names an object of a phase only if every object of every
-      LATER phase is already absent / no longer controlled. *)
+  (** C04, mixed lists: within a teardown pass a request writes to a phase (deletes / releases a member of a
+      local phase, deletes or strips the phase object of a delegated phase) only if every LATER phase is
+      already finished. *)
+  Theorem C04_reverse_order_mixed sw k ns n mem0 sw' evs r :
+    find_set (sw_sets sw) k ns n = Some mem0 -> is_going mem0 -> desired_keys_nodup mem0 -> phase_names_nodup mem0 ->
+    objectset_pass force sw k ns n = (sw', evs, r) ->
+    forall pre ph post, os_phases mem0 = pre ++ ph :: post ->
+      Exists (touches mem0 (as_owner mem0) ph) evs ->
+      forall q, In q post -> phase_gone sw' mem0 (as_owner mem0) q.
+  Proof.
+    intros Hfind Hgo Hnd Hndn H pre ph post Hsplit Hex q Hq.
+    pose proof (objectset_pass_going _ _ _ _ _ _ _ _ Hfind Hgo H) as Hd.
+    destruct (deletion_pass_shape force _ _ _ _ _ Hd) as (sw1 & tevs & td & tail & Htd & -> & Htail & Hst & Hph).
+    assert (Hex_t : Exists (touches mem0 (as_owner mem0) ph) tevs).
+    { apply Exists_app in Hex. destruct Hex as [Hex|Hex]; [exact Hex|]. exfalso.
+      apply Exists_exists in Hex. destruct Hex as (e & Hin & Ht). rewrite Forall_forall in Htail. specialize (Htail _ Hin).
+      destruct e as [x|m|p]; cbn in *; contradiction. }
+    unfold teardown_of in Htd.
+    destruct (os_fin mem0); [|injection Htd as _ <- _; inversion Hex_t].
+    destruct (os_orphan mem0); [injection Htd as _ <- _; inversion Hex_t|].
+    assert (Hrev : rev (os_phases mem0) = rev post ++ ph :: rev pre).
+    { rewrite Hsplit, rev_app_distr. cbn. now rewrite <- app_assoc. }
+    pose proof (tpm_order force _ _ _ _ _ _ _ Htd (local_keys_rev _ _ Hnd) (delegated_names_rev _ _ Hndn) (rev post) ph (rev pre) Hrev Hex_t q) as Hdone.
+    eapply phase_gone_store; eauto. apply Hdone. now apply in_rev in Hq.
+  Qed.
+
+  (** C04: within a teardown pass a request names an object of a local phase only if every object of every
+      LATER local phase is already absent / no longer controlled. *)
   Theorem C04_reverse_order sw k ns n mem0 sw' evs r :
     find_set (sw_sets sw) k ns n = Some mem0 -> is_going mem0 -> desired_keys_nodup mem0 ->
     objectset_pass force sw k ns n = (sw', evs, r) ->
@@ -1321,18 +2535,22 @@ Section SetDeletion.
       forall q p, In q post -> In p (ph_objects q) -> td_obj_done (sw_w sw') (as_owner mem0) p.
   Proof.
     intros Hfind Hgo Hnd H pre ph post Hsplit Hex q p Hq Hp.
+    destruct (filter_split _ _ _ _ _ Hsplit) as (pre' & post' & Hall & _ & Hpost & Hloc).
+    assert (Hc : ph_class ph = false) by (unfold is_local in Hloc; now apply negb_true_iff in Hloc).
+    rewrite <- Hpost in Hq. apply filter_In in Hq. destruct Hq as [Hq Hl]. unfold is_local in Hl. apply negb_true_iff in Hl.
     pose proof (objectset_pass_going _ _ _ _ _ _ _ _ Hfind Hgo H) as Hd.
-    destruct (deletion_pass_inv force _ _ _ _ _ Hd) as (w1 & tevs & td & Htd & Hmem & Hst & _).
+    destruct (deletion_pass_inv force _ _ _ _ _ Hd) as (sw1 & tevs & td & Htd & Hmem & Hst & _).
     rewrite Hmem in Hex. unfold teardown_of in Htd.
     destruct (os_fin mem0); [|injection Htd as _ <- _; inversion Hex].
     destruct (os_orphan mem0); [injection Htd as _ <- _; inversion Hex|].
-    assert (Hrev : rev (local_phases mem0) = rev post ++ ph :: rev pre).
-    { rewrite Hsplit, rev_app_distr. cbn. now rewrite <- app_assoc. }
-    pose proof (tp_order force _ _ _ _ _ _ Htd (nodup_flat_map_rev _ _ Hnd) (rev post) ph (rev pre) Hrev Hex q p) as Hdone.
-    unfold td_obj_done in *. rewrite Hst. apply Hdone; [now apply in_rev in Hq|assumption].
+    assert (Hrev : rev (os_phases mem0) = rev post' ++ ph :: rev pre').
+    { rewrite Hall, rev_app_distr. cbn. now rewrite <- app_assoc. }
+    pose proof (tpm_order_local force _ _ _ _ _ _ _ Htd (local_keys_rev _ _ Hnd) (rev post') ph (rev pre') Hrev Hc Hex q p) as Hdone.
+    unfold td_obj_done in *. rewrite Hst. apply Hdone; [now apply in_rev in Hq|exact Hl|exact Hp].
   Qed.
 
-  (** C05, last clause: an ObjectSet deleted with orphan propagation sends no request for any member. *)
+  (** C05, last clause: an ObjectSet deleted with orphan propagation sends no request for any member (and none
+      for a phase object). *)
   Theorem C05_orphan_deletes_nothing sw k ns n mem0 sw' evs r :
     find_set (sw_sets sw) k ns n = Some mem0 -> is_going mem0 -> os_orphan mem0 = true ->
     objectset_pass force sw k ns n = (sw', evs, r) ->
@@ -1340,7 +2558,7 @@ Section SetDeletion.
   Proof.
     intros Hfind Hgo Ho H.
     pose proof (objectset_pass_going _ _ _ _ _ _ _ _ Hfind Hgo H) as Hd.
-    destruct (deletion_pass_inv force _ _ _ _ _ Hd) as (w1 & tevs & td & Htd & Hmem & Hst & _).
+    destruct (deletion_pass_inv force _ _ _ _ _ Hd) as (sw1 & tevs & td & Htd & Hmem & Hst & _).
     unfold teardown_of in Htd. rewrite Ho in Htd.
     destruct (os_fin mem0); injection Htd as <- <- _; auto.
   Qed.
@@ -1361,11 +2579,10 @@ Section SetDeletion.
   Proof.
     intros Hfind Hgo H Hi.
     pose proof (objectset_pass_going _ _ _ _ _ _ _ _ Hfind Hgo H) as Hd.
-    destruct (deletion_pass_inv force _ _ _ _ _ Hd) as (w1 & tevs & td & _ & _ & _ & _ & Hs & _).
+    destruct (deletion_pass_inv force _ _ _ _ _ Hd) as (sw1 & tevs & td & _ & _ & _ & _ & _ & Hs & _).
     destruct (Hs _ _ _ _ _ _ Hi) as (Ha & _ & _ & Hx). split; [assumption|]. intros Hc. now destruct (Hx Hc).
   Qed.
 End SetDeletion.
-
 (** * Succeeded is never withdrawn (C06, history clause) *)
 Section Succeeded.
   Variable force : bool.
@@ -1442,8 +2659,6 @@ Section Succeeded.
     intros G. specialize (Hs G). unfold succ, cond_true in *. now rewrite Hc.
   Qed.
 
-  Lemma okw_with_w sw w : okw sw -> okw (with_w sw w).
-  Proof. auto. Qed.
 
   Lemma revision_pass_ok sw mem sw1 evs1 mem1 rr :
     okw sw -> okm mem -> revision_pass sw mem = (sw1, evs1, mem1, rr) -> okw sw1 /\ okm mem1.
@@ -1458,29 +2673,35 @@ Section Succeeded.
     - intros H; injection H as <- _ <- _; auto.
   Qed.
 
+  Lemma okw_sets sw sw' : sw_sets sw' = sw_sets sw -> okw sw -> okw sw'.
+  Proof. unfold okw. now intros ->. Qed.
+
   Lemma active_body_ok sw evs0 mem sw' evs r :
     okw sw -> okm mem -> active_body force sw evs0 mem = (sw', evs, r) -> okw sw'.
   Proof.
     intros Hw Hm. unfold active_body.
     destruct (revision_pass sw mem) as [[[sw1 evs1] mem1] rr] eqn:Erev.
     destruct (revision_pass_ok _ _ _ _ _ _ Hw Hm Erev) as [Hw1 Hm1].
-    assert (Hfail : forall sw2 evsx rs swf evsf rf, okw sw2 ->
-              (let m' := set_conds mem1 (set_cond (os_conds mem1) (mk_cond mem1 CAvailable SFalse rs)) in
+    assert (Hfail : forall (mx : oset) sw2 evsx rs swf evsf rf, okw sw2 -> okm mx ->
+              (let m' := set_conds mx (set_cond (os_conds mx) (mk_cond mx CAvailable SFalse rs)) in
                let '(sw'', _, ok) := update_status sw2 m' in
                (sw'', evsx ++ [status_ev m' ok], if ok then SDone true else SError)) = (swf, evsf, rf) -> okw swf).
-    { intros sw2 evsx rs swf evsf rf Hw2. cbv zeta. destruct (update_status sw2 _) as [[sw3 m3] ok] eqn:Eu.
+    { intros mx sw2 evsx rs swf evsf rf Hw2 Hmx. cbv zeta. destruct (update_status sw2 _) as [[sw3 m3] ok] eqn:Eu.
       intros H. injection H as <- _ _. eapply update_status_okw; [exact Eu|exact Hw2|].
-      eapply okm_conds; [exact Hm1|reflexivity|]. cbn [os_conds set_conds]. apply find_set_cond_other. cbn. discriminate. }
+      eapply okm_conds; [exact Hmx|reflexivity|]. cbn [os_conds set_conds]. apply find_set_cond_other. cbn. discriminate. }
     destruct rr.
     - destruct (Nat.ltb 0 (dup_count [] (map (spec_key mem1) (all_objects mem1)))); [intros H; eapply Hfail; eauto|].
-      destruct (reconcile_phases force (sw_w sw1) (as_owner mem1) _ _ []) as [[w2 pevs] pr].
-      destruct pr as [e| |ctrlof failed].
-      + destruct e; try (intros H; eapply Hfail; [|exact H]; (apply okw_with_w; assumption));
-          intros H; injection H as <- _ _; (apply okw_with_w; assumption).
-      + intros H; eapply Hfail; [|exact H]; (apply okw_with_w; assumption).
-      + destruct (update_status (with_w sw1 w2) (final_status mem1 ctrlof failed)) as [[sw3 m3] ok] eqn:Eu.
-        intros H. injection H as <- _ _. eapply update_status_okw; [exact Eu|(apply okw_with_w; assumption)|].
-        destruct Hm1 as [Hk Hs]. split; [exact Hk|]. intros G. now apply final_status_succeeded, Hs.
+      destruct (reconcile_phases_m force sw1 mem1 (as_owner mem1) _ _ [] (os_remotes mem1)) as [[[sw2 pevs] rem] pr] eqn:Erp.
+      destruct (rpm_inv force _ _ _ _ _ _ _ _ _ _ _ Erp) as (Hsets & _).
+      pose proof (okw_sets _ _ Hsets Hw1) as Hw2.
+      assert (Hm2 : okm (set_remotes mem1 rem)) by (eapply okm_conds; [exact Hm1|reflexivity|reflexivity]).
+      destruct pr as [e| | |ctrlof failed].
+      + destruct e; try (intros H; eapply Hfail; [exact Hw2|exact Hm2|exact H]); intros H; injection H as <- _ _; exact Hw2.
+      + intros H. injection H as <- _ _. exact Hw2.
+      + intros H; eapply Hfail; [exact Hw2|exact Hm2|exact H].
+      + destruct (update_status sw2 (final_status (sw_phases sw2) (set_remotes mem1 rem) ctrlof failed)) as [[sw3 m3] ok] eqn:Eu.
+        intros H. injection H as <- _ _. eapply update_status_okw; [exact Eu|exact Hw2|].
+        destruct Hm2 as [Hk Hs]. split; [exact Hk|]. intros G. now apply final_status_succeeded, Hs.
     - destruct (update_status sw1 _) as [[sw2 m2] ok] eqn:Eu. intros H. injection H as <- _ _.
       eapply update_status_okw; [exact Eu|exact Hw1|].
       eapply okm_conds; [exact Hm1|reflexivity|]. cbn [os_conds set_conds]. apply paused_cond_other. discriminate.
@@ -1492,31 +2713,35 @@ Section Succeeded.
   Proof.
     intros Hw Hm. unfold deletion_pass.
     set (archived := lifecycle_eqb (os_life mem) LArchived).
-    change (if os_fin mem then if os_orphan mem then (sw_w sw, [], TdOk true)
-            else teardown_phases force (sw_w sw) (as_owner mem) (rev (filter (fun ph => negb (ph_class ph)) (os_phases mem)))
-            else (sw_w sw, [], TdOk true)) with (teardown_of force sw mem).
-    destruct (teardown_of force sw mem) as [[w1 tevs] td].
-    assert (Hfinish : forall sw1 evs1 mem1 swf evsf rf,
-       (if negb archived then (sw1, evs1, SDone false)
-        else let '(sw'', _, ok) := update_status sw1 (set_conds mem1 (remove_cond (os_conds mem1) CAvailable)) in
+    change (if os_fin mem then if os_orphan mem then (sw, [], TdOk true)
+            else teardown_phases_m force sw mem (as_owner mem) (rev (os_phases mem))
+            else (sw, [], TdOk true)) with (teardown_of force sw mem).
+    destruct (teardown_of force sw mem) as [[sw1 tevs] td] eqn:Etd.
+    assert (Hw1 : okw sw1).
+    { unfold teardown_of in Etd. destruct (os_fin mem); [|injection Etd as <- _ _; exact Hw].
+      destruct (os_orphan mem); [injection Etd as <- _ _; exact Hw|].
+      destruct (tpm_inv force _ _ _ _ _ _ _ Etd) as (Hsets & _). exact (okw_sets _ _ Hsets Hw). }
+    assert (Hfinish : forall swx evs1 mem1 swf evsf rf,
+       (if negb archived then (swx, evs1, SDone false)
+        else let '(sw'', _, ok) := update_status swx (set_conds mem1 (remove_cond (os_conds mem1) CAvailable)) in
              (sw'', evs1 ++ [status_ev (set_conds mem1 (remove_cond (os_conds mem1) CAvailable)) ok], if ok then SDone false else SError)) = (swf, evsf, rf) ->
-       okw sw1 -> okm mem1 -> okw swf).
-    { intros sw1 evs1 mem1 swf evsf rf. destruct (negb archived); [intros H Hw1 Hm1; injection H as <- _ _; exact Hw1|].
-      destruct (update_status sw1 _) as [[sw2 m2] ok] eqn:Eu. intros H Hw1 Hm1. injection H as <- _ _.
-      eapply update_status_okw; [exact Eu|exact Hw1|].
+       okw swx -> okm mem1 -> okw swf).
+    { intros swx evs1 mem1 swf evsf rf. destruct (negb archived); [intros H Hwx Hm1; injection H as <- _ _; exact Hwx|].
+      destruct (update_status swx _) as [[sw2 m2] ok] eqn:Eu. intros H Hwx Hm1. injection H as <- _ _.
+      eapply update_status_okw; [exact Eu|exact Hwx|].
       eapply okm_conds; [exact Hm1|reflexivity|]. cbn [os_conds set_conds]. apply find_remove_cond_other. discriminate. }
     assert (Harch_ok : forall m0, okm m0 -> okm (if archived then set_ctrlof (set_conds m0 (set_cond (os_conds m0) (mk_cond m0 CArchived STrue RArchived))) [] else m0)).
     { intros m0 H0. destruct archived; [|exact H0]. eapply okm_conds; [exact H0|reflexivity|].
       cbn [os_conds set_conds set_ctrlof]. apply find_set_cond_other. cbn. discriminate. }
     destruct td as [|[|]].
-    - intros H. injection H as <- _ _. (apply okw_with_w; assumption).
+    - intros H. injection H as <- _ _. exact Hw1.
     - destruct (os_fin mem).
-      + destruct (patch_finalizer (with_w sw w1) mem false) as [sw2 [mem2|]] eqn:Ep;
-          destruct (patch_finalizer_ok _ _ _ _ _ (okw_with_w _ w1 Hw) Hm Ep) as [Hw2 Hm2].
+      + destruct (patch_finalizer sw1 mem false) as [sw2 [mem2|]] eqn:Ep;
+          destruct (patch_finalizer_ok _ _ _ _ _ Hw1 Hm Ep) as [Hw2 Hm2].
         * intros H. eapply Hfinish; [exact H|exact Hw2|]. now apply Harch_ok.
         * intros H. injection H as <- _ _. exact Hw2.
-      + intros H. eapply Hfinish; [exact H|apply okw_with_w; assumption|]. now apply Harch_ok.
-    - intros H. eapply Hfinish; [exact H|apply okw_with_w; assumption|].
+      + intros H. eapply Hfinish; [exact H|exact Hw1|]. now apply Harch_ok.
+    - intros H. eapply Hfinish; [exact H|exact Hw1|].
       destruct archived; [|exact Hm]. eapply okm_conds; [exact Hm|reflexivity|].
       cbn [os_conds set_conds]. apply find_set_cond_other. cbn. discriminate.
   Qed.
@@ -1604,10 +2829,26 @@ Section DupFree.
       forall q, In q pre -> phase_ok (sw_w sw') (as_owner mem0) q.
   Proof.
     intros Hfind Hact H pre ph post Hsplit Hex q Hq.
-    destruct (objectset_pass_active force _ _ _ _ _ _ _ _ Hfind Hact H) as [[_ Hkeep]|Hr].
+    destruct (objectset_pass_active force _ _ _ _ _ _ _ _ Hfind Hact H) as [(_ & _ & _ & Hkeep)|Hr].
     - rewrite (status_keeps_members _ _ Hkeep) in Hex. inversion Hex.
-    - destruct Hr as (mem1 & w0 & sets1 & w2 & pr & pre0 & Hs & _ & Hdup & _).
+    - destruct Hr as (mem1 & sw1 & sw2 & pevs & rem & pr & pre0 & Hs & _ & _ & _ & Hdup & _).
       eapply C03_rollout_gated; eauto. eapply desired_keys_nodup_same; [exact Hs|]. now apply dup_zero_nodup.
+  Qed.
+
+  (** C03 for mixed phase lists; the names of the phase objects of the delegated phases are distinct. *)
+  Theorem C03_rollout_gated_mixed_all sw k ns n mem0 sw' evs r :
+    find_set (sw_sets sw) k ns n = Some mem0 -> is_active mem0 -> phase_names_nodup mem0 ->
+    objectset_pass force sw k ns n = (sw', evs, r) ->
+    forall pre ph post, os_phases mem0 = pre ++ ph :: post ->
+      Exists (touches mem0 (as_owner mem0) ph) evs ->
+      forall q, In q pre -> phase_done sw' mem0 (as_owner mem0) q.
+  Proof.
+    intros Hfind Hact Hndn H pre ph post Hsplit Hex q Hq.
+    destruct (objectset_pass_active force _ _ _ _ _ _ _ _ Hfind Hact H) as [(_ & _ & _ & Hkeep)|Hr].
+    - exfalso. apply Exists_exists in Hex. destruct Hex as (e & Hin & Ht). rewrite Forall_forall in Hkeep. specialize (Hkeep _ Hin).
+      destruct e as [x|m|p]; cbn in *; try contradiction. destruct Ht as [_ Ht]. destruct p; cbn in *; contradiction.
+    - destruct Hr as (mem1 & sw1 & sw2 & pevs & rem & pr & pre0 & Hs & _ & _ & _ & Hdup & _).
+      eapply C03_rollout_gated_mixed; eauto. eapply desired_keys_nodup_same; [exact Hs|]. now apply dup_zero_nodup.
   Qed.
 
   Theorem C06_available_true_justified_all sw k ns n mem0 sw' evs r rev conds ctrlof rem fph ok cd :
@@ -1618,17 +2859,18 @@ Section DupFree.
     find_cond (os_conds mem0) CAvailable <> Some cd ->
     cd_gen cd = os_gen mem0 /\ fph = None /\
     (forall q, In q (local_phases mem0) -> phase_ok (sw_w sw') (as_owner mem0) q) /\
-    (forall key, In key ctrlof -> seen_controlled (sw_w sw') (as_owner mem0) key) /\
+    (forall q, In q (delegated_phases mem0) -> exists cur, phase_read evs (pobj_name mem0 q) cur /\ avail_current cur) /\
+    (forall key, In key ctrlof -> seen_controlled (sw_w sw') (as_owner mem0) key \/ reported_by_phase mem0 (os_phases mem0) evs key) /\
     (forall key, In key (flat_map (phase_keys (as_owner mem0)) (local_phases mem0)) ->
                  seen_controlled (sw_w sw') (as_owner mem0) key -> In key ctrlof).
   Proof.
     intros Hfind Hact H Hin Hfc Hst Hnew.
-    destruct (objectset_pass_active force _ _ _ _ _ _ _ _ Hfind Hact H) as [[_ Hkeep]|Hr].
+    destruct (objectset_pass_active force _ _ _ _ _ _ _ _ Hfind Hact H) as [(_ & _ & _ & Hkeep)|Hr].
     - exfalso. rewrite Forall_forall in Hkeep. specialize (Hkeep _ Hin). cbn in Hkeep.
       destruct Hkeep as (_ & [Ha|(cd' & Ha & Hf)] & _).
       + apply Hnew. now rewrite <- Ha.
       + rewrite Hfc in Ha. injection Ha as <-. rewrite Hst in Hf. discriminate.
-    - destruct Hr as (mem1 & w0 & sets1 & w2 & pr & pre0 & Hs & _ & Hdup & _).
+    - destruct Hr as (mem1 & sw1 & sw2 & pevs & rem0 & pr & pre0 & Hs & _ & _ & _ & Hdup & _).
       eapply C06_available_true_justified; eauto. eapply desired_keys_nodup_same; [exact Hs|]. now apply dup_zero_nodup.
   Qed.
 End DupFree.
